@@ -1,1 +1,1780 @@
-/-! # C09 — property theorems (not built yet) -/
+import PysphVerif.Lemmas.PairSym
+/-!
+# C09 — pair-symmetric momentum equations conserve linear and angular momentum
+
+Everything below is about the definitions of `Gen/C09Equations.lean`, which
+`translate/c09_equations2lean.py` regenerates from the current source of the
+equations' `loop` bodies and of `equation.py::precomputed_symbols()` on every
+run.  Numbers: any linearly ordered field `K`; `sqrt/abs/pow` (`Ops K`) and the
+kernel (`Kern K`) are arbitrary functions, the kernel constrained only to the
+radial shape `Radial k w g` (`W = w(r,h)`, `∇W = g(r,h)·x`).
+
+* general: `sum_pair_antisym_eq_zero`, `torque_zero_of_central`,
+  `dwij_antisym`, `dwi_dwj_swap`, `nbr_criterion_symm`;
+* per equation `T`: `additive_T` (the neighbour loop is a sum),
+  `pair_antisym_T` (`m_a·contrib(a,b) = −m_b·contrib(b,a)`; branch conditions
+  such as `v_ab·x_ab < 0` are shown symmetric inside), `central_T` where the
+  force is along `x_ab`, and the closed-system corollaries
+  `linear_momentum_T`, `angular_momentum_T` for every finite particle set,
+  every symmetric duplicate-free neighbour relation and every parameter value;
+* `summation_density_pos_*`.
+
+The closed system is indexed by an arbitrary finite type `ι`: several mutually
+interacting particle arrays are the disjoint union of their index sets, the
+neighbour list of a particle being the concatenation of its neighbours in every
+source array (the order does not matter in a field).
+-/
+set_option linter.unusedSectionVars false
+set_option linter.unusedVariables false
+set_option linter.unusedSimpArgs false
+set_option linter.unusedTactic false
+set_option linter.unreachableTactic false
+namespace PysphVerif.C09
+open PysphVerif.PairSym PysphVerif.Gen.C09
+
+variable {K : Type} [Field K] [LinearOrder K] [IsStrictOrderedRing K]
+
+/-! ## general statements -/
+
+/-- A pair-antisymmetric interaction summed over a finite symmetric neighbour
+relation vanishes. -/
+theorem sum_pair_antisym_eq_zero_field {ι : Type} [Fintype ι] [DecidableEq ι]
+    (nbr : ι → Finset ι) (hsymm : ∀ i j, j ∈ nbr i → i ∈ nbr j)
+    (F : ι → ι → K) (hF : ∀ i j, j ∈ nbr i → F i j = -F j i) :
+    ∑ i, ∑ j ∈ nbr i, F i j = 0 :=
+  sum_pair_antisym_eq_zero nbr hsymm F hF
+
+/-- The same for vector-valued interactions (any module without 2-torsion,
+e.g. `K × K × K`). -/
+theorem sum_pair_antisym_eq_zero_vec {ι : Type} [Fintype ι] [DecidableEq ι]
+    (nbr : ι → Finset ι) (hsymm : ∀ i j, j ∈ nbr i → i ∈ nbr j)
+    (F : ι → ι → K × K × K) (hF : ∀ i j, j ∈ nbr i → F i j = -F j i) :
+    ∑ i, ∑ j ∈ nbr i, F i j = 0 := by
+  apply sum_pair_antisym_eq_zero_of_no_two_torsion _ nbr hsymm F hF
+  rintro ⟨x, y, z⟩ h
+  simp only [Prod.mk_add_mk, Prod.mk_eq_zero] at h
+  obtain ⟨h1, h2, h3⟩ := h
+  simp only [Prod.mk_eq_zero]
+  exact ⟨no_two_torsion x h1, no_two_torsion y h2, no_two_torsion z h3⟩
+
+/-- Total moment of a pair-antisymmetric central interaction: all three
+components of `Σ_i x_i × Σ_j F_ij` vanish. -/
+theorem torque_zero_of_central {ι : Type} [Fintype ι] [DecidableEq ι]
+    (nbr : ι → Finset ι) (hsymm : ∀ i j, j ∈ nbr i → i ∈ nbr j)
+    (X Y Z : ι → K) (FX FY FZ : ι → ι → K)
+    (hX : ∀ i j, j ∈ nbr i → FX i j = -FX j i)
+    (hY : ∀ i j, j ∈ nbr i → FY i j = -FY j i)
+    (hZ : ∀ i j, j ∈ nbr i → FZ i j = -FZ j i)
+    (hc : ∀ i j, j ∈ nbr i → ∃ c, FX i j = c * (X i - X j) ∧ FY i j = c * (Y i - Y j)
+            ∧ FZ i j = c * (Z i - Z j)) :
+    (∑ i, ∑ j ∈ nbr i, (X i * FY i j - Y i * FX i j) = 0) ∧
+    (∑ i, ∑ j ∈ nbr i, (Y i * FZ i j - Z i * FY i j) = 0) ∧
+    (∑ i, ∑ j ∈ nbr i, (Z i * FX i j - X i * FZ i j) = 0) := by
+  refine ⟨torque_component_zero nbr hsymm X Y FX FY hX hY ?_,
+          torque_component_zero nbr hsymm Y Z FY FZ hY hZ ?_,
+          torque_component_zero nbr hsymm Z X FZ FX hZ hX ?_⟩ <;>
+  · intro i j hj
+    obtain ⟨c, h1, h2, h3⟩ := hc i j hj
+    rw [h1, h2, h3]; ring
+
+/-- `DWIJ(a,b) = −DWIJ(b,a)`: `HIJ` is the (symmetric) mean smoothing length,
+`XIJ` changes sign, `RIJ` does not, and the gradient is `g(r,h)·x`. -/
+theorem dwij_antisym (o : Ops K) (k : Kern K) {w g : K → K → K} (hk : Radial k w g) (a b : P K) :
+    pre_DWIJ_0 o k b a = -(pre_DWIJ_0 o k a b) ∧
+    pre_DWIJ_1 o k b a = -(pre_DWIJ_1 o k a b) ∧
+    pre_DWIJ_2 o k b a = -(pre_DWIJ_2 o k a b) :=
+  ⟨DWIJ_0_swap o k a b hk, DWIJ_1_swap o k a b hk, DWIJ_2_swap o k a b hk⟩
+
+/-- grad-h forms: exchanging the particles exchanges `DWI` and `DWJ` with a sign. -/
+theorem dwi_dwj_swap (o : Ops K) (k : Kern K) {w g : K → K → K} (hk : Radial k w g) (a b : P K) :
+    pre_DWI_0 o k b a = -(pre_DWJ_0 o k a b) ∧ pre_DWI_1 o k b a = -(pre_DWJ_1 o k a b) ∧
+    pre_DWI_2 o k b a = -(pre_DWJ_2 o k a b) ∧ pre_DWJ_0 o k b a = -(pre_DWI_0 o k a b) ∧
+    pre_DWJ_1 o k b a = -(pre_DWI_1 o k a b) ∧ pre_DWJ_2 o k b a = -(pre_DWI_2 o k a b) :=
+  ⟨DWI_0_swap o k a b hk, DWI_1_swap o k a b hk, DWI_2_swap o k a b hk,
+   DWJ_0_swap o k a b hk, DWJ_1_swap o k a b hk, DWJ_2_swap o k a b hk⟩
+
+/-- The symmetric scalars of a pair. -/
+theorem pair_scalars_symm (o : Ops K) (k : Kern K) {w g : K → K → K} (hk : Radial k w g) (a b : P K) :
+    pre_HIJ o k b a = pre_HIJ o k a b ∧ pre_R2IJ o k b a = pre_R2IJ o k a b ∧
+    pre_RIJ o k b a = pre_RIJ o k a b ∧ pre_RHOIJ1 o k b a = pre_RHOIJ1 o k a b ∧
+    pre_EPS o k b a = pre_EPS o k a b ∧ pre_WIJ o k b a = pre_WIJ o k a b ∧
+    pre_WDP o k b a = pre_WDP o k a b :=
+  ⟨HIJ_swap o k a b, R2IJ_swap o k a b, RIJ_swap o k a b, RHOIJ1_swap o k a b, EPS_swap o k a b,
+   WIJ_swap o k a b hk, WDP_swap o k a b hk⟩
+
+/-- The neighbour criterion of `find_nearest_neighbors`
+(`xij2 < (k h_i)^2 or xij2 < (k h_j)^2`, nnps_base.pyx) as a predicate on a
+pair; hand-written (C01 is about the search itself). -/
+def nbrCriterion (o : Ops K) (k : Kern K) (scale : K) (a b : P K) : Prop :=
+  pre_R2IJ o k a b < (scale * a.h) * (scale * a.h) ∨ pre_R2IJ o k a b < (scale * b.h) * (scale * b.h)
+
+theorem nbr_criterion_symm (o : Ops K) (k : Kern K) (scale : K) (a b : P K) :
+    nbrCriterion o k scale a b ↔ nbrCriterion o k scale b a := by
+  unfold nbrCriterion
+  rw [R2IJ_swap o k a b]
+  exact Or.comm
+
+
+/-! ## `pysph/sph/wc/basic.py.MomentumEquation` (WC_MomentumEquation) -/
+section WC_MomentumEquation
+variable (o : Ops K) (k : Kern K) {w g : K → K → K} (hk : Radial k w g) (self_alpha : K) (self_beta : K) (self_c0 : K) (self_tensile_correction : Bool)
+
+/-- the contribution of a pair to the accumulated acceleration does not depend on the accumulator -/
+theorem additive_WC_MomentumEquation (acc acc' : Out_WC_MomentumEquation K) (a b : P K) :
+    ((pair_WC_MomentumEquation o k self_alpha self_beta self_c0 self_tensile_correction acc a b).d_au - acc.d_au) = ((pair_WC_MomentumEquation o k self_alpha self_beta self_c0 self_tensile_correction acc' a b).d_au - acc'.d_au) ∧
+    ((pair_WC_MomentumEquation o k self_alpha self_beta self_c0 self_tensile_correction acc a b).d_av - acc.d_av) = ((pair_WC_MomentumEquation o k self_alpha self_beta self_c0 self_tensile_correction acc' a b).d_av - acc'.d_av) ∧
+    ((pair_WC_MomentumEquation o k self_alpha self_beta self_c0 self_tensile_correction acc a b).d_aw - acc.d_aw) = ((pair_WC_MomentumEquation o k self_alpha self_beta self_c0 self_tensile_correction acc' a b).d_aw - acc'.d_aw) := by
+  refine ⟨?_, ?_, ?_⟩ <;>
+  · simp only [pair_WC_MomentumEquation]
+    c09_atoms o k a b
+    simp only [loop_WC_MomentumEquation]
+    c09_norm
+    c09_close
+
+/-- `m_a · contrib(a, b) = −(m_b · contrib(b, a))`, component by component -/
+include hk in
+theorem pair_antisym_WC_MomentumEquation (acc acc' : Out_WC_MomentumEquation K) (a b : P K) :
+    a.m * ((pair_WC_MomentumEquation o k self_alpha self_beta self_c0 self_tensile_correction acc a b).d_au - acc.d_au) = -(b.m * ((pair_WC_MomentumEquation o k self_alpha self_beta self_c0 self_tensile_correction acc' b a).d_au - acc'.d_au)) ∧
+    a.m * ((pair_WC_MomentumEquation o k self_alpha self_beta self_c0 self_tensile_correction acc a b).d_av - acc.d_av) = -(b.m * ((pair_WC_MomentumEquation o k self_alpha self_beta self_c0 self_tensile_correction acc' b a).d_av - acc'.d_av)) ∧
+    a.m * ((pair_WC_MomentumEquation o k self_alpha self_beta self_c0 self_tensile_correction acc a b).d_aw - acc.d_aw) = -(b.m * ((pair_WC_MomentumEquation o k self_alpha self_beta self_c0 self_tensile_correction acc' b a).d_aw - acc'.d_aw)) := by
+  refine ⟨?_, ?_, ?_⟩ <;>
+  · simp only [pair_WC_MomentumEquation]
+    c09_swap o k a b hk
+    c09_atoms o k a b
+    simp only [loop_WC_MomentumEquation]
+    c09_norm
+    c09_close
+
+/-- the pair contribution is parallel to the separation `x_a − x_b` (cross product zero) -/
+include hk in
+theorem central_WC_MomentumEquation (acc : Out_WC_MomentumEquation K) (a b : P K) :
+    (a.x - b.x) * ((pair_WC_MomentumEquation o k self_alpha self_beta self_c0 self_tensile_correction acc a b).d_av - acc.d_av) = (a.y - b.y) * ((pair_WC_MomentumEquation o k self_alpha self_beta self_c0 self_tensile_correction acc a b).d_au - acc.d_au) ∧
+    (a.y - b.y) * ((pair_WC_MomentumEquation o k self_alpha self_beta self_c0 self_tensile_correction acc a b).d_aw - acc.d_aw) = (a.z - b.z) * ((pair_WC_MomentumEquation o k self_alpha self_beta self_c0 self_tensile_correction acc a b).d_av - acc.d_av) ∧
+    (a.z - b.z) * ((pair_WC_MomentumEquation o k self_alpha self_beta self_c0 self_tensile_correction acc a b).d_au - acc.d_au) = (a.x - b.x) * ((pair_WC_MomentumEquation o k self_alpha self_beta self_c0 self_tensile_correction acc a b).d_aw - acc.d_aw) := by
+  refine ⟨?_, ?_, ?_⟩ <;>
+  · simp only [pair_WC_MomentumEquation]
+    c09_shape o k a b hk
+    c09_atoms o k a b
+    simp only [loop_WC_MomentumEquation]
+    c09_norm
+    c09_close
+
+/-- closed system: evaluating the equation for every particle over a symmetric neighbour relation
+gives `Σ m a = 0` -/
+include hk in
+theorem linear_momentum_WC_MomentumEquation {ι : Type} [Fintype ι] [DecidableEq ι] (p : ι → P K)
+    (nbrs : ι → List ι) (hnd : ∀ i, (nbrs i).Nodup) (hsymm : ∀ i j, j ∈ nbrs i → i ∈ nbrs j)
+    (init : ι → Out_WC_MomentumEquation K) (hinit : ∀ i, (init i).d_au = 0 ∧ (init i).d_av = 0 ∧ (init i).d_aw = 0) :
+    ∑ i, (p i).m * ((nbrs i).foldl (fun acc j => pair_WC_MomentumEquation o k self_alpha self_beta self_c0 self_tensile_correction acc (p i) (p j)) (init i)).d_au = 0 ∧
+    ∑ i, (p i).m * ((nbrs i).foldl (fun acc j => pair_WC_MomentumEquation o k self_alpha self_beta self_c0 self_tensile_correction acc (p i) (p j)) (init i)).d_av = 0 ∧
+    ∑ i, (p i).m * ((nbrs i).foldl (fun acc j => pair_WC_MomentumEquation o k self_alpha self_beta self_c0 self_tensile_correction acc (p i) (p j)) (init i)).d_aw = 0 := by
+  refine ⟨?_, ?_, ?_⟩
+  · exact linear_momentum_of_pair (fun i => (p i).m) nbrs hnd hsymm (fun i acc j => pair_WC_MomentumEquation o k self_alpha self_beta self_c0 self_tensile_correction acc (p i) (p j))
+      (fun s => s.d_au) init (fun i => (hinit i).1)
+      (fun i j acc acc' => (additive_WC_MomentumEquation o k self_alpha self_beta self_c0 self_tensile_correction acc acc' (p i) (p j)).1)
+      (fun i j acc acc' => (pair_antisym_WC_MomentumEquation o k hk self_alpha self_beta self_c0 self_tensile_correction acc acc' (p i) (p j)).1)
+  · exact linear_momentum_of_pair (fun i => (p i).m) nbrs hnd hsymm (fun i acc j => pair_WC_MomentumEquation o k self_alpha self_beta self_c0 self_tensile_correction acc (p i) (p j))
+      (fun s => s.d_av) init (fun i => (hinit i).2.1)
+      (fun i j acc acc' => (additive_WC_MomentumEquation o k self_alpha self_beta self_c0 self_tensile_correction acc acc' (p i) (p j)).2.1)
+      (fun i j acc acc' => (pair_antisym_WC_MomentumEquation o k hk self_alpha self_beta self_c0 self_tensile_correction acc acc' (p i) (p j)).2.1)
+  · exact linear_momentum_of_pair (fun i => (p i).m) nbrs hnd hsymm (fun i acc j => pair_WC_MomentumEquation o k self_alpha self_beta self_c0 self_tensile_correction acc (p i) (p j))
+      (fun s => s.d_aw) init (fun i => (hinit i).2.2)
+      (fun i j acc acc' => (additive_WC_MomentumEquation o k self_alpha self_beta self_c0 self_tensile_correction acc acc' (p i) (p j)).2.2)
+      (fun i j acc acc' => (pair_antisym_WC_MomentumEquation o k hk self_alpha self_beta self_c0 self_tensile_correction acc acc' (p i) (p j)).2.2)
+
+/-- closed system: `Σ m x × a = 0` (three components) -/
+include hk in
+theorem angular_momentum_WC_MomentumEquation {ι : Type} [Fintype ι] [DecidableEq ι] (p : ι → P K)
+    (nbrs : ι → List ι) (hnd : ∀ i, (nbrs i).Nodup) (hsymm : ∀ i j, j ∈ nbrs i → i ∈ nbrs j)
+    (init : ι → Out_WC_MomentumEquation K) (hinit : ∀ i, (init i).d_au = 0 ∧ (init i).d_av = 0 ∧ (init i).d_aw = 0) :
+    (∑ i, (p i).m * ((p i).x * ((nbrs i).foldl (fun acc j => pair_WC_MomentumEquation o k self_alpha self_beta self_c0 self_tensile_correction acc (p i) (p j)) (init i)).d_av - (p i).y * ((nbrs i).foldl (fun acc j => pair_WC_MomentumEquation o k self_alpha self_beta self_c0 self_tensile_correction acc (p i) (p j)) (init i)).d_au) = 0) ∧
+    (∑ i, (p i).m * ((p i).y * ((nbrs i).foldl (fun acc j => pair_WC_MomentumEquation o k self_alpha self_beta self_c0 self_tensile_correction acc (p i) (p j)) (init i)).d_aw - (p i).z * ((nbrs i).foldl (fun acc j => pair_WC_MomentumEquation o k self_alpha self_beta self_c0 self_tensile_correction acc (p i) (p j)) (init i)).d_av) = 0) ∧
+    (∑ i, (p i).m * ((p i).z * ((nbrs i).foldl (fun acc j => pair_WC_MomentumEquation o k self_alpha self_beta self_c0 self_tensile_correction acc (p i) (p j)) (init i)).d_au - (p i).x * ((nbrs i).foldl (fun acc j => pair_WC_MomentumEquation o k self_alpha self_beta self_c0 self_tensile_correction acc (p i) (p j)) (init i)).d_aw) = 0) := by
+  refine ⟨?_, ?_, ?_⟩
+  · exact angular_momentum_of_pair (fun i => (p i).m) (fun i => (p i).x) (fun i => (p i).y) nbrs hnd hsymm
+      (fun i acc j => pair_WC_MomentumEquation o k self_alpha self_beta self_c0 self_tensile_correction acc (p i) (p j)) (fun s => s.d_au) (fun s => s.d_av) init
+      (fun i => (hinit i).1) (fun i => (hinit i).2.1)
+      (fun i j acc acc' => (additive_WC_MomentumEquation o k self_alpha self_beta self_c0 self_tensile_correction acc acc' (p i) (p j)).1)
+      (fun i j acc acc' => (additive_WC_MomentumEquation o k self_alpha self_beta self_c0 self_tensile_correction acc acc' (p i) (p j)).2.1)
+      (fun i j acc acc' => (pair_antisym_WC_MomentumEquation o k hk self_alpha self_beta self_c0 self_tensile_correction acc acc' (p i) (p j)).1)
+      (fun i j acc acc' => (pair_antisym_WC_MomentumEquation o k hk self_alpha self_beta self_c0 self_tensile_correction acc acc' (p i) (p j)).2.1)
+      (fun i j acc => (central_WC_MomentumEquation o k hk self_alpha self_beta self_c0 self_tensile_correction acc (p i) (p j)).1)
+  · exact angular_momentum_of_pair (fun i => (p i).m) (fun i => (p i).y) (fun i => (p i).z) nbrs hnd hsymm
+      (fun i acc j => pair_WC_MomentumEquation o k self_alpha self_beta self_c0 self_tensile_correction acc (p i) (p j)) (fun s => s.d_av) (fun s => s.d_aw) init
+      (fun i => (hinit i).2.1) (fun i => (hinit i).2.2)
+      (fun i j acc acc' => (additive_WC_MomentumEquation o k self_alpha self_beta self_c0 self_tensile_correction acc acc' (p i) (p j)).2.1)
+      (fun i j acc acc' => (additive_WC_MomentumEquation o k self_alpha self_beta self_c0 self_tensile_correction acc acc' (p i) (p j)).2.2)
+      (fun i j acc acc' => (pair_antisym_WC_MomentumEquation o k hk self_alpha self_beta self_c0 self_tensile_correction acc acc' (p i) (p j)).2.1)
+      (fun i j acc acc' => (pair_antisym_WC_MomentumEquation o k hk self_alpha self_beta self_c0 self_tensile_correction acc acc' (p i) (p j)).2.2)
+      (fun i j acc => (central_WC_MomentumEquation o k hk self_alpha self_beta self_c0 self_tensile_correction acc (p i) (p j)).2.1)
+  · exact angular_momentum_of_pair (fun i => (p i).m) (fun i => (p i).z) (fun i => (p i).x) nbrs hnd hsymm
+      (fun i acc j => pair_WC_MomentumEquation o k self_alpha self_beta self_c0 self_tensile_correction acc (p i) (p j)) (fun s => s.d_aw) (fun s => s.d_au) init
+      (fun i => (hinit i).2.2) (fun i => (hinit i).1)
+      (fun i j acc acc' => (additive_WC_MomentumEquation o k self_alpha self_beta self_c0 self_tensile_correction acc acc' (p i) (p j)).2.2)
+      (fun i j acc acc' => (additive_WC_MomentumEquation o k self_alpha self_beta self_c0 self_tensile_correction acc acc' (p i) (p j)).1)
+      (fun i j acc acc' => (pair_antisym_WC_MomentumEquation o k hk self_alpha self_beta self_c0 self_tensile_correction acc acc' (p i) (p j)).2.2)
+      (fun i j acc acc' => (pair_antisym_WC_MomentumEquation o k hk self_alpha self_beta self_c0 self_tensile_correction acc acc' (p i) (p j)).1)
+      (fun i j acc => (central_WC_MomentumEquation o k hk self_alpha self_beta self_c0 self_tensile_correction acc (p i) (p j)).2.2)
+
+end WC_MomentumEquation
+
+/-! ## `pysph/sph/wc/basic.py.MomentumEquationDeltaSPH` (WC_MomentumEquationDeltaSPH) -/
+section WC_MomentumEquationDeltaSPH
+variable (o : Ops K) (k : Kern K) {w g : K → K → K} (hk : Radial k w g) (self_alpha : K) (self_c0 : K) (self_rho0 : K)
+
+/-- the contribution of a pair to the accumulated acceleration does not depend on the accumulator -/
+theorem additive_WC_MomentumEquationDeltaSPH (acc acc' : Out_WC_MomentumEquationDeltaSPH K) (a b : P K) :
+    ((pair_WC_MomentumEquationDeltaSPH o k self_alpha self_c0 self_rho0 acc a b).d_au - acc.d_au) = ((pair_WC_MomentumEquationDeltaSPH o k self_alpha self_c0 self_rho0 acc' a b).d_au - acc'.d_au) ∧
+    ((pair_WC_MomentumEquationDeltaSPH o k self_alpha self_c0 self_rho0 acc a b).d_av - acc.d_av) = ((pair_WC_MomentumEquationDeltaSPH o k self_alpha self_c0 self_rho0 acc' a b).d_av - acc'.d_av) ∧
+    ((pair_WC_MomentumEquationDeltaSPH o k self_alpha self_c0 self_rho0 acc a b).d_aw - acc.d_aw) = ((pair_WC_MomentumEquationDeltaSPH o k self_alpha self_c0 self_rho0 acc' a b).d_aw - acc'.d_aw) := by
+  refine ⟨?_, ?_, ?_⟩ <;>
+  · simp only [pair_WC_MomentumEquationDeltaSPH]
+    c09_atoms o k a b
+    simp only [loop_WC_MomentumEquationDeltaSPH]
+    c09_norm
+    c09_close
+
+/-- `m_a · contrib(a, b) = −(m_b · contrib(b, a))`, component by component -/
+include hk in
+theorem pair_antisym_WC_MomentumEquationDeltaSPH (acc acc' : Out_WC_MomentumEquationDeltaSPH K) (a b : P K) :
+    a.m * ((pair_WC_MomentumEquationDeltaSPH o k self_alpha self_c0 self_rho0 acc a b).d_au - acc.d_au) = -(b.m * ((pair_WC_MomentumEquationDeltaSPH o k self_alpha self_c0 self_rho0 acc' b a).d_au - acc'.d_au)) ∧
+    a.m * ((pair_WC_MomentumEquationDeltaSPH o k self_alpha self_c0 self_rho0 acc a b).d_av - acc.d_av) = -(b.m * ((pair_WC_MomentumEquationDeltaSPH o k self_alpha self_c0 self_rho0 acc' b a).d_av - acc'.d_av)) ∧
+    a.m * ((pair_WC_MomentumEquationDeltaSPH o k self_alpha self_c0 self_rho0 acc a b).d_aw - acc.d_aw) = -(b.m * ((pair_WC_MomentumEquationDeltaSPH o k self_alpha self_c0 self_rho0 acc' b a).d_aw - acc'.d_aw)) := by
+  refine ⟨?_, ?_, ?_⟩ <;>
+  · simp only [pair_WC_MomentumEquationDeltaSPH]
+    c09_swap o k a b hk
+    c09_atoms o k a b
+    simp only [loop_WC_MomentumEquationDeltaSPH]
+    c09_norm
+    c09_close
+
+/-- the pair contribution is parallel to the separation `x_a − x_b` (cross product zero) -/
+include hk in
+theorem central_WC_MomentumEquationDeltaSPH (acc : Out_WC_MomentumEquationDeltaSPH K) (a b : P K) :
+    (a.x - b.x) * ((pair_WC_MomentumEquationDeltaSPH o k self_alpha self_c0 self_rho0 acc a b).d_av - acc.d_av) = (a.y - b.y) * ((pair_WC_MomentumEquationDeltaSPH o k self_alpha self_c0 self_rho0 acc a b).d_au - acc.d_au) ∧
+    (a.y - b.y) * ((pair_WC_MomentumEquationDeltaSPH o k self_alpha self_c0 self_rho0 acc a b).d_aw - acc.d_aw) = (a.z - b.z) * ((pair_WC_MomentumEquationDeltaSPH o k self_alpha self_c0 self_rho0 acc a b).d_av - acc.d_av) ∧
+    (a.z - b.z) * ((pair_WC_MomentumEquationDeltaSPH o k self_alpha self_c0 self_rho0 acc a b).d_au - acc.d_au) = (a.x - b.x) * ((pair_WC_MomentumEquationDeltaSPH o k self_alpha self_c0 self_rho0 acc a b).d_aw - acc.d_aw) := by
+  refine ⟨?_, ?_, ?_⟩ <;>
+  · simp only [pair_WC_MomentumEquationDeltaSPH]
+    c09_shape o k a b hk
+    c09_atoms o k a b
+    simp only [loop_WC_MomentumEquationDeltaSPH]
+    c09_norm
+    c09_close
+
+/-- closed system: evaluating the equation for every particle over a symmetric neighbour relation
+gives `Σ m a = 0` -/
+include hk in
+theorem linear_momentum_WC_MomentumEquationDeltaSPH {ι : Type} [Fintype ι] [DecidableEq ι] (p : ι → P K)
+    (nbrs : ι → List ι) (hnd : ∀ i, (nbrs i).Nodup) (hsymm : ∀ i j, j ∈ nbrs i → i ∈ nbrs j)
+    (init : ι → Out_WC_MomentumEquationDeltaSPH K) (hinit : ∀ i, (init i).d_au = 0 ∧ (init i).d_av = 0 ∧ (init i).d_aw = 0) :
+    ∑ i, (p i).m * ((nbrs i).foldl (fun acc j => pair_WC_MomentumEquationDeltaSPH o k self_alpha self_c0 self_rho0 acc (p i) (p j)) (init i)).d_au = 0 ∧
+    ∑ i, (p i).m * ((nbrs i).foldl (fun acc j => pair_WC_MomentumEquationDeltaSPH o k self_alpha self_c0 self_rho0 acc (p i) (p j)) (init i)).d_av = 0 ∧
+    ∑ i, (p i).m * ((nbrs i).foldl (fun acc j => pair_WC_MomentumEquationDeltaSPH o k self_alpha self_c0 self_rho0 acc (p i) (p j)) (init i)).d_aw = 0 := by
+  refine ⟨?_, ?_, ?_⟩
+  · exact linear_momentum_of_pair (fun i => (p i).m) nbrs hnd hsymm (fun i acc j => pair_WC_MomentumEquationDeltaSPH o k self_alpha self_c0 self_rho0 acc (p i) (p j))
+      (fun s => s.d_au) init (fun i => (hinit i).1)
+      (fun i j acc acc' => (additive_WC_MomentumEquationDeltaSPH o k self_alpha self_c0 self_rho0 acc acc' (p i) (p j)).1)
+      (fun i j acc acc' => (pair_antisym_WC_MomentumEquationDeltaSPH o k hk self_alpha self_c0 self_rho0 acc acc' (p i) (p j)).1)
+  · exact linear_momentum_of_pair (fun i => (p i).m) nbrs hnd hsymm (fun i acc j => pair_WC_MomentumEquationDeltaSPH o k self_alpha self_c0 self_rho0 acc (p i) (p j))
+      (fun s => s.d_av) init (fun i => (hinit i).2.1)
+      (fun i j acc acc' => (additive_WC_MomentumEquationDeltaSPH o k self_alpha self_c0 self_rho0 acc acc' (p i) (p j)).2.1)
+      (fun i j acc acc' => (pair_antisym_WC_MomentumEquationDeltaSPH o k hk self_alpha self_c0 self_rho0 acc acc' (p i) (p j)).2.1)
+  · exact linear_momentum_of_pair (fun i => (p i).m) nbrs hnd hsymm (fun i acc j => pair_WC_MomentumEquationDeltaSPH o k self_alpha self_c0 self_rho0 acc (p i) (p j))
+      (fun s => s.d_aw) init (fun i => (hinit i).2.2)
+      (fun i j acc acc' => (additive_WC_MomentumEquationDeltaSPH o k self_alpha self_c0 self_rho0 acc acc' (p i) (p j)).2.2)
+      (fun i j acc acc' => (pair_antisym_WC_MomentumEquationDeltaSPH o k hk self_alpha self_c0 self_rho0 acc acc' (p i) (p j)).2.2)
+
+/-- closed system: `Σ m x × a = 0` (three components) -/
+include hk in
+theorem angular_momentum_WC_MomentumEquationDeltaSPH {ι : Type} [Fintype ι] [DecidableEq ι] (p : ι → P K)
+    (nbrs : ι → List ι) (hnd : ∀ i, (nbrs i).Nodup) (hsymm : ∀ i j, j ∈ nbrs i → i ∈ nbrs j)
+    (init : ι → Out_WC_MomentumEquationDeltaSPH K) (hinit : ∀ i, (init i).d_au = 0 ∧ (init i).d_av = 0 ∧ (init i).d_aw = 0) :
+    (∑ i, (p i).m * ((p i).x * ((nbrs i).foldl (fun acc j => pair_WC_MomentumEquationDeltaSPH o k self_alpha self_c0 self_rho0 acc (p i) (p j)) (init i)).d_av - (p i).y * ((nbrs i).foldl (fun acc j => pair_WC_MomentumEquationDeltaSPH o k self_alpha self_c0 self_rho0 acc (p i) (p j)) (init i)).d_au) = 0) ∧
+    (∑ i, (p i).m * ((p i).y * ((nbrs i).foldl (fun acc j => pair_WC_MomentumEquationDeltaSPH o k self_alpha self_c0 self_rho0 acc (p i) (p j)) (init i)).d_aw - (p i).z * ((nbrs i).foldl (fun acc j => pair_WC_MomentumEquationDeltaSPH o k self_alpha self_c0 self_rho0 acc (p i) (p j)) (init i)).d_av) = 0) ∧
+    (∑ i, (p i).m * ((p i).z * ((nbrs i).foldl (fun acc j => pair_WC_MomentumEquationDeltaSPH o k self_alpha self_c0 self_rho0 acc (p i) (p j)) (init i)).d_au - (p i).x * ((nbrs i).foldl (fun acc j => pair_WC_MomentumEquationDeltaSPH o k self_alpha self_c0 self_rho0 acc (p i) (p j)) (init i)).d_aw) = 0) := by
+  refine ⟨?_, ?_, ?_⟩
+  · exact angular_momentum_of_pair (fun i => (p i).m) (fun i => (p i).x) (fun i => (p i).y) nbrs hnd hsymm
+      (fun i acc j => pair_WC_MomentumEquationDeltaSPH o k self_alpha self_c0 self_rho0 acc (p i) (p j)) (fun s => s.d_au) (fun s => s.d_av) init
+      (fun i => (hinit i).1) (fun i => (hinit i).2.1)
+      (fun i j acc acc' => (additive_WC_MomentumEquationDeltaSPH o k self_alpha self_c0 self_rho0 acc acc' (p i) (p j)).1)
+      (fun i j acc acc' => (additive_WC_MomentumEquationDeltaSPH o k self_alpha self_c0 self_rho0 acc acc' (p i) (p j)).2.1)
+      (fun i j acc acc' => (pair_antisym_WC_MomentumEquationDeltaSPH o k hk self_alpha self_c0 self_rho0 acc acc' (p i) (p j)).1)
+      (fun i j acc acc' => (pair_antisym_WC_MomentumEquationDeltaSPH o k hk self_alpha self_c0 self_rho0 acc acc' (p i) (p j)).2.1)
+      (fun i j acc => (central_WC_MomentumEquationDeltaSPH o k hk self_alpha self_c0 self_rho0 acc (p i) (p j)).1)
+  · exact angular_momentum_of_pair (fun i => (p i).m) (fun i => (p i).y) (fun i => (p i).z) nbrs hnd hsymm
+      (fun i acc j => pair_WC_MomentumEquationDeltaSPH o k self_alpha self_c0 self_rho0 acc (p i) (p j)) (fun s => s.d_av) (fun s => s.d_aw) init
+      (fun i => (hinit i).2.1) (fun i => (hinit i).2.2)
+      (fun i j acc acc' => (additive_WC_MomentumEquationDeltaSPH o k self_alpha self_c0 self_rho0 acc acc' (p i) (p j)).2.1)
+      (fun i j acc acc' => (additive_WC_MomentumEquationDeltaSPH o k self_alpha self_c0 self_rho0 acc acc' (p i) (p j)).2.2)
+      (fun i j acc acc' => (pair_antisym_WC_MomentumEquationDeltaSPH o k hk self_alpha self_c0 self_rho0 acc acc' (p i) (p j)).2.1)
+      (fun i j acc acc' => (pair_antisym_WC_MomentumEquationDeltaSPH o k hk self_alpha self_c0 self_rho0 acc acc' (p i) (p j)).2.2)
+      (fun i j acc => (central_WC_MomentumEquationDeltaSPH o k hk self_alpha self_c0 self_rho0 acc (p i) (p j)).2.1)
+  · exact angular_momentum_of_pair (fun i => (p i).m) (fun i => (p i).z) (fun i => (p i).x) nbrs hnd hsymm
+      (fun i acc j => pair_WC_MomentumEquationDeltaSPH o k self_alpha self_c0 self_rho0 acc (p i) (p j)) (fun s => s.d_aw) (fun s => s.d_au) init
+      (fun i => (hinit i).2.2) (fun i => (hinit i).1)
+      (fun i j acc acc' => (additive_WC_MomentumEquationDeltaSPH o k self_alpha self_c0 self_rho0 acc acc' (p i) (p j)).2.2)
+      (fun i j acc acc' => (additive_WC_MomentumEquationDeltaSPH o k self_alpha self_c0 self_rho0 acc acc' (p i) (p j)).1)
+      (fun i j acc acc' => (pair_antisym_WC_MomentumEquationDeltaSPH o k hk self_alpha self_c0 self_rho0 acc acc' (p i) (p j)).2.2)
+      (fun i j acc acc' => (pair_antisym_WC_MomentumEquationDeltaSPH o k hk self_alpha self_c0 self_rho0 acc acc' (p i) (p j)).1)
+      (fun i j acc => (central_WC_MomentumEquationDeltaSPH o k hk self_alpha self_c0 self_rho0 acc (p i) (p j)).2.2)
+
+end WC_MomentumEquationDeltaSPH
+
+/-! ## `pysph/sph/wc/basic.py.PressureGradientUsingNumberDensity` (WC_PressureGradientUsingNumberDensity) -/
+section WC_PressureGradientUsingNumberDensity
+variable (o : Ops K) (k : Kern K) {w g : K → K → K} (hk : Radial k w g) 
+
+/-- the contribution of a pair to the accumulated acceleration does not depend on the accumulator -/
+theorem additive_WC_PressureGradientUsingNumberDensity (acc acc' : Out_WC_PressureGradientUsingNumberDensity K) (a b : P K) :
+    ((pair_WC_PressureGradientUsingNumberDensity o k  acc a b).d_au - acc.d_au) = ((pair_WC_PressureGradientUsingNumberDensity o k  acc' a b).d_au - acc'.d_au) ∧
+    ((pair_WC_PressureGradientUsingNumberDensity o k  acc a b).d_av - acc.d_av) = ((pair_WC_PressureGradientUsingNumberDensity o k  acc' a b).d_av - acc'.d_av) ∧
+    ((pair_WC_PressureGradientUsingNumberDensity o k  acc a b).d_aw - acc.d_aw) = ((pair_WC_PressureGradientUsingNumberDensity o k  acc' a b).d_aw - acc'.d_aw) := by
+  refine ⟨?_, ?_, ?_⟩ <;>
+  · simp only [pair_WC_PressureGradientUsingNumberDensity]
+    c09_atoms o k a b
+    simp only [loop_WC_PressureGradientUsingNumberDensity]
+    c09_norm
+    c09_close
+
+/-- `m_a · contrib(a, b) = −(m_b · contrib(b, a))`, component by component -/
+include hk in
+theorem pair_antisym_WC_PressureGradientUsingNumberDensity (acc acc' : Out_WC_PressureGradientUsingNumberDensity K) (a b : P K) :
+    a.m * ((pair_WC_PressureGradientUsingNumberDensity o k  acc a b).d_au - acc.d_au) = -(b.m * ((pair_WC_PressureGradientUsingNumberDensity o k  acc' b a).d_au - acc'.d_au)) ∧
+    a.m * ((pair_WC_PressureGradientUsingNumberDensity o k  acc a b).d_av - acc.d_av) = -(b.m * ((pair_WC_PressureGradientUsingNumberDensity o k  acc' b a).d_av - acc'.d_av)) ∧
+    a.m * ((pair_WC_PressureGradientUsingNumberDensity o k  acc a b).d_aw - acc.d_aw) = -(b.m * ((pair_WC_PressureGradientUsingNumberDensity o k  acc' b a).d_aw - acc'.d_aw)) := by
+  refine ⟨?_, ?_, ?_⟩ <;>
+  · simp only [pair_WC_PressureGradientUsingNumberDensity]
+    c09_swap o k a b hk
+    c09_atoms o k a b
+    simp only [loop_WC_PressureGradientUsingNumberDensity]
+    c09_norm
+    c09_close
+
+/-- the pair contribution is parallel to the separation `x_a − x_b` (cross product zero) -/
+include hk in
+theorem central_WC_PressureGradientUsingNumberDensity (acc : Out_WC_PressureGradientUsingNumberDensity K) (a b : P K) :
+    (a.x - b.x) * ((pair_WC_PressureGradientUsingNumberDensity o k  acc a b).d_av - acc.d_av) = (a.y - b.y) * ((pair_WC_PressureGradientUsingNumberDensity o k  acc a b).d_au - acc.d_au) ∧
+    (a.y - b.y) * ((pair_WC_PressureGradientUsingNumberDensity o k  acc a b).d_aw - acc.d_aw) = (a.z - b.z) * ((pair_WC_PressureGradientUsingNumberDensity o k  acc a b).d_av - acc.d_av) ∧
+    (a.z - b.z) * ((pair_WC_PressureGradientUsingNumberDensity o k  acc a b).d_au - acc.d_au) = (a.x - b.x) * ((pair_WC_PressureGradientUsingNumberDensity o k  acc a b).d_aw - acc.d_aw) := by
+  refine ⟨?_, ?_, ?_⟩ <;>
+  · simp only [pair_WC_PressureGradientUsingNumberDensity]
+    c09_shape o k a b hk
+    c09_atoms o k a b
+    simp only [loop_WC_PressureGradientUsingNumberDensity]
+    c09_norm
+    c09_close
+
+/-- closed system: evaluating the equation for every particle over a symmetric neighbour relation
+gives `Σ m a = 0` -/
+include hk in
+theorem linear_momentum_WC_PressureGradientUsingNumberDensity {ι : Type} [Fintype ι] [DecidableEq ι] (p : ι → P K)
+    (nbrs : ι → List ι) (hnd : ∀ i, (nbrs i).Nodup) (hsymm : ∀ i j, j ∈ nbrs i → i ∈ nbrs j)
+    (init : ι → Out_WC_PressureGradientUsingNumberDensity K) (hinit : ∀ i, (init i).d_au = 0 ∧ (init i).d_av = 0 ∧ (init i).d_aw = 0) :
+    ∑ i, (p i).m * ((nbrs i).foldl (fun acc j => pair_WC_PressureGradientUsingNumberDensity o k  acc (p i) (p j)) (init i)).d_au = 0 ∧
+    ∑ i, (p i).m * ((nbrs i).foldl (fun acc j => pair_WC_PressureGradientUsingNumberDensity o k  acc (p i) (p j)) (init i)).d_av = 0 ∧
+    ∑ i, (p i).m * ((nbrs i).foldl (fun acc j => pair_WC_PressureGradientUsingNumberDensity o k  acc (p i) (p j)) (init i)).d_aw = 0 := by
+  refine ⟨?_, ?_, ?_⟩
+  · exact linear_momentum_of_pair (fun i => (p i).m) nbrs hnd hsymm (fun i acc j => pair_WC_PressureGradientUsingNumberDensity o k  acc (p i) (p j))
+      (fun s => s.d_au) init (fun i => (hinit i).1)
+      (fun i j acc acc' => (additive_WC_PressureGradientUsingNumberDensity o k  acc acc' (p i) (p j)).1)
+      (fun i j acc acc' => (pair_antisym_WC_PressureGradientUsingNumberDensity o k hk  acc acc' (p i) (p j)).1)
+  · exact linear_momentum_of_pair (fun i => (p i).m) nbrs hnd hsymm (fun i acc j => pair_WC_PressureGradientUsingNumberDensity o k  acc (p i) (p j))
+      (fun s => s.d_av) init (fun i => (hinit i).2.1)
+      (fun i j acc acc' => (additive_WC_PressureGradientUsingNumberDensity o k  acc acc' (p i) (p j)).2.1)
+      (fun i j acc acc' => (pair_antisym_WC_PressureGradientUsingNumberDensity o k hk  acc acc' (p i) (p j)).2.1)
+  · exact linear_momentum_of_pair (fun i => (p i).m) nbrs hnd hsymm (fun i acc j => pair_WC_PressureGradientUsingNumberDensity o k  acc (p i) (p j))
+      (fun s => s.d_aw) init (fun i => (hinit i).2.2)
+      (fun i j acc acc' => (additive_WC_PressureGradientUsingNumberDensity o k  acc acc' (p i) (p j)).2.2)
+      (fun i j acc acc' => (pair_antisym_WC_PressureGradientUsingNumberDensity o k hk  acc acc' (p i) (p j)).2.2)
+
+/-- closed system: `Σ m x × a = 0` (three components) -/
+include hk in
+theorem angular_momentum_WC_PressureGradientUsingNumberDensity {ι : Type} [Fintype ι] [DecidableEq ι] (p : ι → P K)
+    (nbrs : ι → List ι) (hnd : ∀ i, (nbrs i).Nodup) (hsymm : ∀ i j, j ∈ nbrs i → i ∈ nbrs j)
+    (init : ι → Out_WC_PressureGradientUsingNumberDensity K) (hinit : ∀ i, (init i).d_au = 0 ∧ (init i).d_av = 0 ∧ (init i).d_aw = 0) :
+    (∑ i, (p i).m * ((p i).x * ((nbrs i).foldl (fun acc j => pair_WC_PressureGradientUsingNumberDensity o k  acc (p i) (p j)) (init i)).d_av - (p i).y * ((nbrs i).foldl (fun acc j => pair_WC_PressureGradientUsingNumberDensity o k  acc (p i) (p j)) (init i)).d_au) = 0) ∧
+    (∑ i, (p i).m * ((p i).y * ((nbrs i).foldl (fun acc j => pair_WC_PressureGradientUsingNumberDensity o k  acc (p i) (p j)) (init i)).d_aw - (p i).z * ((nbrs i).foldl (fun acc j => pair_WC_PressureGradientUsingNumberDensity o k  acc (p i) (p j)) (init i)).d_av) = 0) ∧
+    (∑ i, (p i).m * ((p i).z * ((nbrs i).foldl (fun acc j => pair_WC_PressureGradientUsingNumberDensity o k  acc (p i) (p j)) (init i)).d_au - (p i).x * ((nbrs i).foldl (fun acc j => pair_WC_PressureGradientUsingNumberDensity o k  acc (p i) (p j)) (init i)).d_aw) = 0) := by
+  refine ⟨?_, ?_, ?_⟩
+  · exact angular_momentum_of_pair (fun i => (p i).m) (fun i => (p i).x) (fun i => (p i).y) nbrs hnd hsymm
+      (fun i acc j => pair_WC_PressureGradientUsingNumberDensity o k  acc (p i) (p j)) (fun s => s.d_au) (fun s => s.d_av) init
+      (fun i => (hinit i).1) (fun i => (hinit i).2.1)
+      (fun i j acc acc' => (additive_WC_PressureGradientUsingNumberDensity o k  acc acc' (p i) (p j)).1)
+      (fun i j acc acc' => (additive_WC_PressureGradientUsingNumberDensity o k  acc acc' (p i) (p j)).2.1)
+      (fun i j acc acc' => (pair_antisym_WC_PressureGradientUsingNumberDensity o k hk  acc acc' (p i) (p j)).1)
+      (fun i j acc acc' => (pair_antisym_WC_PressureGradientUsingNumberDensity o k hk  acc acc' (p i) (p j)).2.1)
+      (fun i j acc => (central_WC_PressureGradientUsingNumberDensity o k hk  acc (p i) (p j)).1)
+  · exact angular_momentum_of_pair (fun i => (p i).m) (fun i => (p i).y) (fun i => (p i).z) nbrs hnd hsymm
+      (fun i acc j => pair_WC_PressureGradientUsingNumberDensity o k  acc (p i) (p j)) (fun s => s.d_av) (fun s => s.d_aw) init
+      (fun i => (hinit i).2.1) (fun i => (hinit i).2.2)
+      (fun i j acc acc' => (additive_WC_PressureGradientUsingNumberDensity o k  acc acc' (p i) (p j)).2.1)
+      (fun i j acc acc' => (additive_WC_PressureGradientUsingNumberDensity o k  acc acc' (p i) (p j)).2.2)
+      (fun i j acc acc' => (pair_antisym_WC_PressureGradientUsingNumberDensity o k hk  acc acc' (p i) (p j)).2.1)
+      (fun i j acc acc' => (pair_antisym_WC_PressureGradientUsingNumberDensity o k hk  acc acc' (p i) (p j)).2.2)
+      (fun i j acc => (central_WC_PressureGradientUsingNumberDensity o k hk  acc (p i) (p j)).2.1)
+  · exact angular_momentum_of_pair (fun i => (p i).m) (fun i => (p i).z) (fun i => (p i).x) nbrs hnd hsymm
+      (fun i acc j => pair_WC_PressureGradientUsingNumberDensity o k  acc (p i) (p j)) (fun s => s.d_aw) (fun s => s.d_au) init
+      (fun i => (hinit i).2.2) (fun i => (hinit i).1)
+      (fun i j acc acc' => (additive_WC_PressureGradientUsingNumberDensity o k  acc acc' (p i) (p j)).2.2)
+      (fun i j acc acc' => (additive_WC_PressureGradientUsingNumberDensity o k  acc acc' (p i) (p j)).1)
+      (fun i j acc acc' => (pair_antisym_WC_PressureGradientUsingNumberDensity o k hk  acc acc' (p i) (p j)).2.2)
+      (fun i j acc acc' => (pair_antisym_WC_PressureGradientUsingNumberDensity o k hk  acc acc' (p i) (p j)).1)
+      (fun i j acc => (central_WC_PressureGradientUsingNumberDensity o k hk  acc (p i) (p j)).2.2)
+
+end WC_PressureGradientUsingNumberDensity
+
+/-! ## `pysph/sph/basic_equations.py.MonaghanArtificialViscosity` (BE_MonaghanArtificialViscosity) -/
+section BE_MonaghanArtificialViscosity
+variable (o : Ops K) (k : Kern K) {w g : K → K → K} (hk : Radial k w g) (self_alpha : K) (self_beta : K)
+
+/-- the contribution of a pair to the accumulated acceleration does not depend on the accumulator -/
+theorem additive_BE_MonaghanArtificialViscosity (acc acc' : Out_BE_MonaghanArtificialViscosity K) (a b : P K) :
+    ((pair_BE_MonaghanArtificialViscosity o k self_alpha self_beta acc a b).d_au - acc.d_au) = ((pair_BE_MonaghanArtificialViscosity o k self_alpha self_beta acc' a b).d_au - acc'.d_au) ∧
+    ((pair_BE_MonaghanArtificialViscosity o k self_alpha self_beta acc a b).d_av - acc.d_av) = ((pair_BE_MonaghanArtificialViscosity o k self_alpha self_beta acc' a b).d_av - acc'.d_av) ∧
+    ((pair_BE_MonaghanArtificialViscosity o k self_alpha self_beta acc a b).d_aw - acc.d_aw) = ((pair_BE_MonaghanArtificialViscosity o k self_alpha self_beta acc' a b).d_aw - acc'.d_aw) := by
+  refine ⟨?_, ?_, ?_⟩ <;>
+  · simp only [pair_BE_MonaghanArtificialViscosity]
+    c09_atoms o k a b
+    simp only [loop_BE_MonaghanArtificialViscosity]
+    c09_norm
+    c09_close
+
+/-- `m_a · contrib(a, b) = −(m_b · contrib(b, a))`, component by component -/
+include hk in
+theorem pair_antisym_BE_MonaghanArtificialViscosity (acc acc' : Out_BE_MonaghanArtificialViscosity K) (a b : P K) :
+    a.m * ((pair_BE_MonaghanArtificialViscosity o k self_alpha self_beta acc a b).d_au - acc.d_au) = -(b.m * ((pair_BE_MonaghanArtificialViscosity o k self_alpha self_beta acc' b a).d_au - acc'.d_au)) ∧
+    a.m * ((pair_BE_MonaghanArtificialViscosity o k self_alpha self_beta acc a b).d_av - acc.d_av) = -(b.m * ((pair_BE_MonaghanArtificialViscosity o k self_alpha self_beta acc' b a).d_av - acc'.d_av)) ∧
+    a.m * ((pair_BE_MonaghanArtificialViscosity o k self_alpha self_beta acc a b).d_aw - acc.d_aw) = -(b.m * ((pair_BE_MonaghanArtificialViscosity o k self_alpha self_beta acc' b a).d_aw - acc'.d_aw)) := by
+  refine ⟨?_, ?_, ?_⟩ <;>
+  · simp only [pair_BE_MonaghanArtificialViscosity]
+    c09_swap o k a b hk
+    c09_atoms o k a b
+    simp only [loop_BE_MonaghanArtificialViscosity]
+    c09_norm
+    c09_close
+
+/-- the pair contribution is parallel to the separation `x_a − x_b` (cross product zero) -/
+include hk in
+theorem central_BE_MonaghanArtificialViscosity (acc : Out_BE_MonaghanArtificialViscosity K) (a b : P K) :
+    (a.x - b.x) * ((pair_BE_MonaghanArtificialViscosity o k self_alpha self_beta acc a b).d_av - acc.d_av) = (a.y - b.y) * ((pair_BE_MonaghanArtificialViscosity o k self_alpha self_beta acc a b).d_au - acc.d_au) ∧
+    (a.y - b.y) * ((pair_BE_MonaghanArtificialViscosity o k self_alpha self_beta acc a b).d_aw - acc.d_aw) = (a.z - b.z) * ((pair_BE_MonaghanArtificialViscosity o k self_alpha self_beta acc a b).d_av - acc.d_av) ∧
+    (a.z - b.z) * ((pair_BE_MonaghanArtificialViscosity o k self_alpha self_beta acc a b).d_au - acc.d_au) = (a.x - b.x) * ((pair_BE_MonaghanArtificialViscosity o k self_alpha self_beta acc a b).d_aw - acc.d_aw) := by
+  refine ⟨?_, ?_, ?_⟩ <;>
+  · simp only [pair_BE_MonaghanArtificialViscosity]
+    c09_shape o k a b hk
+    c09_atoms o k a b
+    simp only [loop_BE_MonaghanArtificialViscosity]
+    c09_norm
+    c09_close
+
+/-- closed system: evaluating the equation for every particle over a symmetric neighbour relation
+gives `Σ m a = 0` -/
+include hk in
+theorem linear_momentum_BE_MonaghanArtificialViscosity {ι : Type} [Fintype ι] [DecidableEq ι] (p : ι → P K)
+    (nbrs : ι → List ι) (hnd : ∀ i, (nbrs i).Nodup) (hsymm : ∀ i j, j ∈ nbrs i → i ∈ nbrs j)
+    (init : ι → Out_BE_MonaghanArtificialViscosity K) (hinit : ∀ i, (init i).d_au = 0 ∧ (init i).d_av = 0 ∧ (init i).d_aw = 0) :
+    ∑ i, (p i).m * ((nbrs i).foldl (fun acc j => pair_BE_MonaghanArtificialViscosity o k self_alpha self_beta acc (p i) (p j)) (init i)).d_au = 0 ∧
+    ∑ i, (p i).m * ((nbrs i).foldl (fun acc j => pair_BE_MonaghanArtificialViscosity o k self_alpha self_beta acc (p i) (p j)) (init i)).d_av = 0 ∧
+    ∑ i, (p i).m * ((nbrs i).foldl (fun acc j => pair_BE_MonaghanArtificialViscosity o k self_alpha self_beta acc (p i) (p j)) (init i)).d_aw = 0 := by
+  refine ⟨?_, ?_, ?_⟩
+  · exact linear_momentum_of_pair (fun i => (p i).m) nbrs hnd hsymm (fun i acc j => pair_BE_MonaghanArtificialViscosity o k self_alpha self_beta acc (p i) (p j))
+      (fun s => s.d_au) init (fun i => (hinit i).1)
+      (fun i j acc acc' => (additive_BE_MonaghanArtificialViscosity o k self_alpha self_beta acc acc' (p i) (p j)).1)
+      (fun i j acc acc' => (pair_antisym_BE_MonaghanArtificialViscosity o k hk self_alpha self_beta acc acc' (p i) (p j)).1)
+  · exact linear_momentum_of_pair (fun i => (p i).m) nbrs hnd hsymm (fun i acc j => pair_BE_MonaghanArtificialViscosity o k self_alpha self_beta acc (p i) (p j))
+      (fun s => s.d_av) init (fun i => (hinit i).2.1)
+      (fun i j acc acc' => (additive_BE_MonaghanArtificialViscosity o k self_alpha self_beta acc acc' (p i) (p j)).2.1)
+      (fun i j acc acc' => (pair_antisym_BE_MonaghanArtificialViscosity o k hk self_alpha self_beta acc acc' (p i) (p j)).2.1)
+  · exact linear_momentum_of_pair (fun i => (p i).m) nbrs hnd hsymm (fun i acc j => pair_BE_MonaghanArtificialViscosity o k self_alpha self_beta acc (p i) (p j))
+      (fun s => s.d_aw) init (fun i => (hinit i).2.2)
+      (fun i j acc acc' => (additive_BE_MonaghanArtificialViscosity o k self_alpha self_beta acc acc' (p i) (p j)).2.2)
+      (fun i j acc acc' => (pair_antisym_BE_MonaghanArtificialViscosity o k hk self_alpha self_beta acc acc' (p i) (p j)).2.2)
+
+/-- closed system: `Σ m x × a = 0` (three components) -/
+include hk in
+theorem angular_momentum_BE_MonaghanArtificialViscosity {ι : Type} [Fintype ι] [DecidableEq ι] (p : ι → P K)
+    (nbrs : ι → List ι) (hnd : ∀ i, (nbrs i).Nodup) (hsymm : ∀ i j, j ∈ nbrs i → i ∈ nbrs j)
+    (init : ι → Out_BE_MonaghanArtificialViscosity K) (hinit : ∀ i, (init i).d_au = 0 ∧ (init i).d_av = 0 ∧ (init i).d_aw = 0) :
+    (∑ i, (p i).m * ((p i).x * ((nbrs i).foldl (fun acc j => pair_BE_MonaghanArtificialViscosity o k self_alpha self_beta acc (p i) (p j)) (init i)).d_av - (p i).y * ((nbrs i).foldl (fun acc j => pair_BE_MonaghanArtificialViscosity o k self_alpha self_beta acc (p i) (p j)) (init i)).d_au) = 0) ∧
+    (∑ i, (p i).m * ((p i).y * ((nbrs i).foldl (fun acc j => pair_BE_MonaghanArtificialViscosity o k self_alpha self_beta acc (p i) (p j)) (init i)).d_aw - (p i).z * ((nbrs i).foldl (fun acc j => pair_BE_MonaghanArtificialViscosity o k self_alpha self_beta acc (p i) (p j)) (init i)).d_av) = 0) ∧
+    (∑ i, (p i).m * ((p i).z * ((nbrs i).foldl (fun acc j => pair_BE_MonaghanArtificialViscosity o k self_alpha self_beta acc (p i) (p j)) (init i)).d_au - (p i).x * ((nbrs i).foldl (fun acc j => pair_BE_MonaghanArtificialViscosity o k self_alpha self_beta acc (p i) (p j)) (init i)).d_aw) = 0) := by
+  refine ⟨?_, ?_, ?_⟩
+  · exact angular_momentum_of_pair (fun i => (p i).m) (fun i => (p i).x) (fun i => (p i).y) nbrs hnd hsymm
+      (fun i acc j => pair_BE_MonaghanArtificialViscosity o k self_alpha self_beta acc (p i) (p j)) (fun s => s.d_au) (fun s => s.d_av) init
+      (fun i => (hinit i).1) (fun i => (hinit i).2.1)
+      (fun i j acc acc' => (additive_BE_MonaghanArtificialViscosity o k self_alpha self_beta acc acc' (p i) (p j)).1)
+      (fun i j acc acc' => (additive_BE_MonaghanArtificialViscosity o k self_alpha self_beta acc acc' (p i) (p j)).2.1)
+      (fun i j acc acc' => (pair_antisym_BE_MonaghanArtificialViscosity o k hk self_alpha self_beta acc acc' (p i) (p j)).1)
+      (fun i j acc acc' => (pair_antisym_BE_MonaghanArtificialViscosity o k hk self_alpha self_beta acc acc' (p i) (p j)).2.1)
+      (fun i j acc => (central_BE_MonaghanArtificialViscosity o k hk self_alpha self_beta acc (p i) (p j)).1)
+  · exact angular_momentum_of_pair (fun i => (p i).m) (fun i => (p i).y) (fun i => (p i).z) nbrs hnd hsymm
+      (fun i acc j => pair_BE_MonaghanArtificialViscosity o k self_alpha self_beta acc (p i) (p j)) (fun s => s.d_av) (fun s => s.d_aw) init
+      (fun i => (hinit i).2.1) (fun i => (hinit i).2.2)
+      (fun i j acc acc' => (additive_BE_MonaghanArtificialViscosity o k self_alpha self_beta acc acc' (p i) (p j)).2.1)
+      (fun i j acc acc' => (additive_BE_MonaghanArtificialViscosity o k self_alpha self_beta acc acc' (p i) (p j)).2.2)
+      (fun i j acc acc' => (pair_antisym_BE_MonaghanArtificialViscosity o k hk self_alpha self_beta acc acc' (p i) (p j)).2.1)
+      (fun i j acc acc' => (pair_antisym_BE_MonaghanArtificialViscosity o k hk self_alpha self_beta acc acc' (p i) (p j)).2.2)
+      (fun i j acc => (central_BE_MonaghanArtificialViscosity o k hk self_alpha self_beta acc (p i) (p j)).2.1)
+  · exact angular_momentum_of_pair (fun i => (p i).m) (fun i => (p i).z) (fun i => (p i).x) nbrs hnd hsymm
+      (fun i acc j => pair_BE_MonaghanArtificialViscosity o k self_alpha self_beta acc (p i) (p j)) (fun s => s.d_aw) (fun s => s.d_au) init
+      (fun i => (hinit i).2.2) (fun i => (hinit i).1)
+      (fun i j acc acc' => (additive_BE_MonaghanArtificialViscosity o k self_alpha self_beta acc acc' (p i) (p j)).2.2)
+      (fun i j acc acc' => (additive_BE_MonaghanArtificialViscosity o k self_alpha self_beta acc acc' (p i) (p j)).1)
+      (fun i j acc acc' => (pair_antisym_BE_MonaghanArtificialViscosity o k hk self_alpha self_beta acc acc' (p i) (p j)).2.2)
+      (fun i j acc acc' => (pair_antisym_BE_MonaghanArtificialViscosity o k hk self_alpha self_beta acc acc' (p i) (p j)).1)
+      (fun i j acc => (central_BE_MonaghanArtificialViscosity o k hk self_alpha self_beta acc (p i) (p j)).2.2)
+
+end BE_MonaghanArtificialViscosity
+
+/-! ## `pysph/sph/wc/transport_velocity.py.MomentumEquationPressureGradient` (TV_MomentumEquationPressureGradient) -/
+section TV_MomentumEquationPressureGradient
+variable (o : Ops K) (k : Kern K) {w g : K → K → K} (hk : Radial k w g) (self_pb : K)
+
+/-- the contribution of a pair to the accumulated acceleration does not depend on the accumulator -/
+theorem additive_TV_MomentumEquationPressureGradient (acc acc' : Out_TV_MomentumEquationPressureGradient K) (a b : P K) :
+    ((pair_TV_MomentumEquationPressureGradient o k self_pb acc a b).d_au - acc.d_au) = ((pair_TV_MomentumEquationPressureGradient o k self_pb acc' a b).d_au - acc'.d_au) ∧
+    ((pair_TV_MomentumEquationPressureGradient o k self_pb acc a b).d_av - acc.d_av) = ((pair_TV_MomentumEquationPressureGradient o k self_pb acc' a b).d_av - acc'.d_av) ∧
+    ((pair_TV_MomentumEquationPressureGradient o k self_pb acc a b).d_aw - acc.d_aw) = ((pair_TV_MomentumEquationPressureGradient o k self_pb acc' a b).d_aw - acc'.d_aw) := by
+  refine ⟨?_, ?_, ?_⟩ <;>
+  · simp only [pair_TV_MomentumEquationPressureGradient]
+    c09_atoms o k a b
+    simp only [loop_TV_MomentumEquationPressureGradient]
+    c09_norm
+    c09_close
+
+/-- `m_a · contrib(a, b) = −(m_b · contrib(b, a))`, component by component -/
+include hk in
+theorem pair_antisym_TV_MomentumEquationPressureGradient (acc acc' : Out_TV_MomentumEquationPressureGradient K) (a b : P K) :
+    a.m * ((pair_TV_MomentumEquationPressureGradient o k self_pb acc a b).d_au - acc.d_au) = -(b.m * ((pair_TV_MomentumEquationPressureGradient o k self_pb acc' b a).d_au - acc'.d_au)) ∧
+    a.m * ((pair_TV_MomentumEquationPressureGradient o k self_pb acc a b).d_av - acc.d_av) = -(b.m * ((pair_TV_MomentumEquationPressureGradient o k self_pb acc' b a).d_av - acc'.d_av)) ∧
+    a.m * ((pair_TV_MomentumEquationPressureGradient o k self_pb acc a b).d_aw - acc.d_aw) = -(b.m * ((pair_TV_MomentumEquationPressureGradient o k self_pb acc' b a).d_aw - acc'.d_aw)) := by
+  refine ⟨?_, ?_, ?_⟩ <;>
+  · simp only [pair_TV_MomentumEquationPressureGradient]
+    c09_swap o k a b hk
+    c09_atoms o k a b
+    simp only [loop_TV_MomentumEquationPressureGradient]
+    c09_norm
+    c09_close
+
+/-- the pair contribution is parallel to the separation `x_a − x_b` (cross product zero) -/
+include hk in
+theorem central_TV_MomentumEquationPressureGradient (acc : Out_TV_MomentumEquationPressureGradient K) (a b : P K) :
+    (a.x - b.x) * ((pair_TV_MomentumEquationPressureGradient o k self_pb acc a b).d_av - acc.d_av) = (a.y - b.y) * ((pair_TV_MomentumEquationPressureGradient o k self_pb acc a b).d_au - acc.d_au) ∧
+    (a.y - b.y) * ((pair_TV_MomentumEquationPressureGradient o k self_pb acc a b).d_aw - acc.d_aw) = (a.z - b.z) * ((pair_TV_MomentumEquationPressureGradient o k self_pb acc a b).d_av - acc.d_av) ∧
+    (a.z - b.z) * ((pair_TV_MomentumEquationPressureGradient o k self_pb acc a b).d_au - acc.d_au) = (a.x - b.x) * ((pair_TV_MomentumEquationPressureGradient o k self_pb acc a b).d_aw - acc.d_aw) := by
+  refine ⟨?_, ?_, ?_⟩ <;>
+  · simp only [pair_TV_MomentumEquationPressureGradient]
+    c09_shape o k a b hk
+    c09_atoms o k a b
+    simp only [loop_TV_MomentumEquationPressureGradient]
+    c09_norm
+    c09_close
+
+/-- closed system: evaluating the equation for every particle over a symmetric neighbour relation
+gives `Σ m a = 0` -/
+include hk in
+theorem linear_momentum_TV_MomentumEquationPressureGradient {ι : Type} [Fintype ι] [DecidableEq ι] (p : ι → P K)
+    (nbrs : ι → List ι) (hnd : ∀ i, (nbrs i).Nodup) (hsymm : ∀ i j, j ∈ nbrs i → i ∈ nbrs j)
+    (init : ι → Out_TV_MomentumEquationPressureGradient K) (hinit : ∀ i, (init i).d_au = 0 ∧ (init i).d_av = 0 ∧ (init i).d_aw = 0) :
+    ∑ i, (p i).m * ((nbrs i).foldl (fun acc j => pair_TV_MomentumEquationPressureGradient o k self_pb acc (p i) (p j)) (init i)).d_au = 0 ∧
+    ∑ i, (p i).m * ((nbrs i).foldl (fun acc j => pair_TV_MomentumEquationPressureGradient o k self_pb acc (p i) (p j)) (init i)).d_av = 0 ∧
+    ∑ i, (p i).m * ((nbrs i).foldl (fun acc j => pair_TV_MomentumEquationPressureGradient o k self_pb acc (p i) (p j)) (init i)).d_aw = 0 := by
+  refine ⟨?_, ?_, ?_⟩
+  · exact linear_momentum_of_pair (fun i => (p i).m) nbrs hnd hsymm (fun i acc j => pair_TV_MomentumEquationPressureGradient o k self_pb acc (p i) (p j))
+      (fun s => s.d_au) init (fun i => (hinit i).1)
+      (fun i j acc acc' => (additive_TV_MomentumEquationPressureGradient o k self_pb acc acc' (p i) (p j)).1)
+      (fun i j acc acc' => (pair_antisym_TV_MomentumEquationPressureGradient o k hk self_pb acc acc' (p i) (p j)).1)
+  · exact linear_momentum_of_pair (fun i => (p i).m) nbrs hnd hsymm (fun i acc j => pair_TV_MomentumEquationPressureGradient o k self_pb acc (p i) (p j))
+      (fun s => s.d_av) init (fun i => (hinit i).2.1)
+      (fun i j acc acc' => (additive_TV_MomentumEquationPressureGradient o k self_pb acc acc' (p i) (p j)).2.1)
+      (fun i j acc acc' => (pair_antisym_TV_MomentumEquationPressureGradient o k hk self_pb acc acc' (p i) (p j)).2.1)
+  · exact linear_momentum_of_pair (fun i => (p i).m) nbrs hnd hsymm (fun i acc j => pair_TV_MomentumEquationPressureGradient o k self_pb acc (p i) (p j))
+      (fun s => s.d_aw) init (fun i => (hinit i).2.2)
+      (fun i j acc acc' => (additive_TV_MomentumEquationPressureGradient o k self_pb acc acc' (p i) (p j)).2.2)
+      (fun i j acc acc' => (pair_antisym_TV_MomentumEquationPressureGradient o k hk self_pb acc acc' (p i) (p j)).2.2)
+
+/-- closed system: `Σ m x × a = 0` (three components) -/
+include hk in
+theorem angular_momentum_TV_MomentumEquationPressureGradient {ι : Type} [Fintype ι] [DecidableEq ι] (p : ι → P K)
+    (nbrs : ι → List ι) (hnd : ∀ i, (nbrs i).Nodup) (hsymm : ∀ i j, j ∈ nbrs i → i ∈ nbrs j)
+    (init : ι → Out_TV_MomentumEquationPressureGradient K) (hinit : ∀ i, (init i).d_au = 0 ∧ (init i).d_av = 0 ∧ (init i).d_aw = 0) :
+    (∑ i, (p i).m * ((p i).x * ((nbrs i).foldl (fun acc j => pair_TV_MomentumEquationPressureGradient o k self_pb acc (p i) (p j)) (init i)).d_av - (p i).y * ((nbrs i).foldl (fun acc j => pair_TV_MomentumEquationPressureGradient o k self_pb acc (p i) (p j)) (init i)).d_au) = 0) ∧
+    (∑ i, (p i).m * ((p i).y * ((nbrs i).foldl (fun acc j => pair_TV_MomentumEquationPressureGradient o k self_pb acc (p i) (p j)) (init i)).d_aw - (p i).z * ((nbrs i).foldl (fun acc j => pair_TV_MomentumEquationPressureGradient o k self_pb acc (p i) (p j)) (init i)).d_av) = 0) ∧
+    (∑ i, (p i).m * ((p i).z * ((nbrs i).foldl (fun acc j => pair_TV_MomentumEquationPressureGradient o k self_pb acc (p i) (p j)) (init i)).d_au - (p i).x * ((nbrs i).foldl (fun acc j => pair_TV_MomentumEquationPressureGradient o k self_pb acc (p i) (p j)) (init i)).d_aw) = 0) := by
+  refine ⟨?_, ?_, ?_⟩
+  · exact angular_momentum_of_pair (fun i => (p i).m) (fun i => (p i).x) (fun i => (p i).y) nbrs hnd hsymm
+      (fun i acc j => pair_TV_MomentumEquationPressureGradient o k self_pb acc (p i) (p j)) (fun s => s.d_au) (fun s => s.d_av) init
+      (fun i => (hinit i).1) (fun i => (hinit i).2.1)
+      (fun i j acc acc' => (additive_TV_MomentumEquationPressureGradient o k self_pb acc acc' (p i) (p j)).1)
+      (fun i j acc acc' => (additive_TV_MomentumEquationPressureGradient o k self_pb acc acc' (p i) (p j)).2.1)
+      (fun i j acc acc' => (pair_antisym_TV_MomentumEquationPressureGradient o k hk self_pb acc acc' (p i) (p j)).1)
+      (fun i j acc acc' => (pair_antisym_TV_MomentumEquationPressureGradient o k hk self_pb acc acc' (p i) (p j)).2.1)
+      (fun i j acc => (central_TV_MomentumEquationPressureGradient o k hk self_pb acc (p i) (p j)).1)
+  · exact angular_momentum_of_pair (fun i => (p i).m) (fun i => (p i).y) (fun i => (p i).z) nbrs hnd hsymm
+      (fun i acc j => pair_TV_MomentumEquationPressureGradient o k self_pb acc (p i) (p j)) (fun s => s.d_av) (fun s => s.d_aw) init
+      (fun i => (hinit i).2.1) (fun i => (hinit i).2.2)
+      (fun i j acc acc' => (additive_TV_MomentumEquationPressureGradient o k self_pb acc acc' (p i) (p j)).2.1)
+      (fun i j acc acc' => (additive_TV_MomentumEquationPressureGradient o k self_pb acc acc' (p i) (p j)).2.2)
+      (fun i j acc acc' => (pair_antisym_TV_MomentumEquationPressureGradient o k hk self_pb acc acc' (p i) (p j)).2.1)
+      (fun i j acc acc' => (pair_antisym_TV_MomentumEquationPressureGradient o k hk self_pb acc acc' (p i) (p j)).2.2)
+      (fun i j acc => (central_TV_MomentumEquationPressureGradient o k hk self_pb acc (p i) (p j)).2.1)
+  · exact angular_momentum_of_pair (fun i => (p i).m) (fun i => (p i).z) (fun i => (p i).x) nbrs hnd hsymm
+      (fun i acc j => pair_TV_MomentumEquationPressureGradient o k self_pb acc (p i) (p j)) (fun s => s.d_aw) (fun s => s.d_au) init
+      (fun i => (hinit i).2.2) (fun i => (hinit i).1)
+      (fun i j acc acc' => (additive_TV_MomentumEquationPressureGradient o k self_pb acc acc' (p i) (p j)).2.2)
+      (fun i j acc acc' => (additive_TV_MomentumEquationPressureGradient o k self_pb acc acc' (p i) (p j)).1)
+      (fun i j acc acc' => (pair_antisym_TV_MomentumEquationPressureGradient o k hk self_pb acc acc' (p i) (p j)).2.2)
+      (fun i j acc acc' => (pair_antisym_TV_MomentumEquationPressureGradient o k hk self_pb acc acc' (p i) (p j)).1)
+      (fun i j acc => (central_TV_MomentumEquationPressureGradient o k hk self_pb acc (p i) (p j)).2.2)
+
+end TV_MomentumEquationPressureGradient
+
+/-! ## `pysph/sph/wc/transport_velocity.py.MomentumEquationViscosity` (TV_MomentumEquationViscosity) -/
+section TV_MomentumEquationViscosity
+variable (o : Ops K) (k : Kern K) {w g : K → K → K} (hk : Radial k w g) (self_nu : K)
+
+/-- the contribution of a pair to the accumulated acceleration does not depend on the accumulator -/
+theorem additive_TV_MomentumEquationViscosity (acc acc' : Out_TV_MomentumEquationViscosity K) (a b : P K) :
+    ((pair_TV_MomentumEquationViscosity o k self_nu acc a b).d_au - acc.d_au) = ((pair_TV_MomentumEquationViscosity o k self_nu acc' a b).d_au - acc'.d_au) ∧
+    ((pair_TV_MomentumEquationViscosity o k self_nu acc a b).d_av - acc.d_av) = ((pair_TV_MomentumEquationViscosity o k self_nu acc' a b).d_av - acc'.d_av) ∧
+    ((pair_TV_MomentumEquationViscosity o k self_nu acc a b).d_aw - acc.d_aw) = ((pair_TV_MomentumEquationViscosity o k self_nu acc' a b).d_aw - acc'.d_aw) := by
+  refine ⟨?_, ?_, ?_⟩ <;>
+  · simp only [pair_TV_MomentumEquationViscosity]
+    c09_atoms o k a b
+    simp only [loop_TV_MomentumEquationViscosity]
+    c09_norm
+    c09_close
+
+/-- `m_a · contrib(a, b) = −(m_b · contrib(b, a))`, component by component -/
+include hk in
+theorem pair_antisym_TV_MomentumEquationViscosity (acc acc' : Out_TV_MomentumEquationViscosity K) (a b : P K) :
+    a.m * ((pair_TV_MomentumEquationViscosity o k self_nu acc a b).d_au - acc.d_au) = -(b.m * ((pair_TV_MomentumEquationViscosity o k self_nu acc' b a).d_au - acc'.d_au)) ∧
+    a.m * ((pair_TV_MomentumEquationViscosity o k self_nu acc a b).d_av - acc.d_av) = -(b.m * ((pair_TV_MomentumEquationViscosity o k self_nu acc' b a).d_av - acc'.d_av)) ∧
+    a.m * ((pair_TV_MomentumEquationViscosity o k self_nu acc a b).d_aw - acc.d_aw) = -(b.m * ((pair_TV_MomentumEquationViscosity o k self_nu acc' b a).d_aw - acc'.d_aw)) := by
+  refine ⟨?_, ?_, ?_⟩ <;>
+  · simp only [pair_TV_MomentumEquationViscosity]
+    c09_swap o k a b hk
+    c09_atoms o k a b
+    simp only [loop_TV_MomentumEquationViscosity]
+    c09_norm
+    c09_close
+
+/-- closed system: evaluating the equation for every particle over a symmetric neighbour relation
+gives `Σ m a = 0` -/
+include hk in
+theorem linear_momentum_TV_MomentumEquationViscosity {ι : Type} [Fintype ι] [DecidableEq ι] (p : ι → P K)
+    (nbrs : ι → List ι) (hnd : ∀ i, (nbrs i).Nodup) (hsymm : ∀ i j, j ∈ nbrs i → i ∈ nbrs j)
+    (init : ι → Out_TV_MomentumEquationViscosity K) (hinit : ∀ i, (init i).d_au = 0 ∧ (init i).d_av = 0 ∧ (init i).d_aw = 0) :
+    ∑ i, (p i).m * ((nbrs i).foldl (fun acc j => pair_TV_MomentumEquationViscosity o k self_nu acc (p i) (p j)) (init i)).d_au = 0 ∧
+    ∑ i, (p i).m * ((nbrs i).foldl (fun acc j => pair_TV_MomentumEquationViscosity o k self_nu acc (p i) (p j)) (init i)).d_av = 0 ∧
+    ∑ i, (p i).m * ((nbrs i).foldl (fun acc j => pair_TV_MomentumEquationViscosity o k self_nu acc (p i) (p j)) (init i)).d_aw = 0 := by
+  refine ⟨?_, ?_, ?_⟩
+  · exact linear_momentum_of_pair (fun i => (p i).m) nbrs hnd hsymm (fun i acc j => pair_TV_MomentumEquationViscosity o k self_nu acc (p i) (p j))
+      (fun s => s.d_au) init (fun i => (hinit i).1)
+      (fun i j acc acc' => (additive_TV_MomentumEquationViscosity o k self_nu acc acc' (p i) (p j)).1)
+      (fun i j acc acc' => (pair_antisym_TV_MomentumEquationViscosity o k hk self_nu acc acc' (p i) (p j)).1)
+  · exact linear_momentum_of_pair (fun i => (p i).m) nbrs hnd hsymm (fun i acc j => pair_TV_MomentumEquationViscosity o k self_nu acc (p i) (p j))
+      (fun s => s.d_av) init (fun i => (hinit i).2.1)
+      (fun i j acc acc' => (additive_TV_MomentumEquationViscosity o k self_nu acc acc' (p i) (p j)).2.1)
+      (fun i j acc acc' => (pair_antisym_TV_MomentumEquationViscosity o k hk self_nu acc acc' (p i) (p j)).2.1)
+  · exact linear_momentum_of_pair (fun i => (p i).m) nbrs hnd hsymm (fun i acc j => pair_TV_MomentumEquationViscosity o k self_nu acc (p i) (p j))
+      (fun s => s.d_aw) init (fun i => (hinit i).2.2)
+      (fun i j acc acc' => (additive_TV_MomentumEquationViscosity o k self_nu acc acc' (p i) (p j)).2.2)
+      (fun i j acc acc' => (pair_antisym_TV_MomentumEquationViscosity o k hk self_nu acc acc' (p i) (p j)).2.2)
+
+end TV_MomentumEquationViscosity
+
+/-! ## `pysph/sph/wc/transport_velocity.py.MomentumEquationArtificialViscosity` (TV_MomentumEquationArtificialViscosity) -/
+section TV_MomentumEquationArtificialViscosity
+variable (o : Ops K) (k : Kern K) {w g : K → K → K} (hk : Radial k w g) (self_alpha : K) (self_c0 : K)
+
+/-- the contribution of a pair to the accumulated acceleration does not depend on the accumulator -/
+theorem additive_TV_MomentumEquationArtificialViscosity (acc acc' : Out_TV_MomentumEquationArtificialViscosity K) (a b : P K) :
+    ((pair_TV_MomentumEquationArtificialViscosity o k self_alpha self_c0 acc a b).d_au - acc.d_au) = ((pair_TV_MomentumEquationArtificialViscosity o k self_alpha self_c0 acc' a b).d_au - acc'.d_au) ∧
+    ((pair_TV_MomentumEquationArtificialViscosity o k self_alpha self_c0 acc a b).d_av - acc.d_av) = ((pair_TV_MomentumEquationArtificialViscosity o k self_alpha self_c0 acc' a b).d_av - acc'.d_av) ∧
+    ((pair_TV_MomentumEquationArtificialViscosity o k self_alpha self_c0 acc a b).d_aw - acc.d_aw) = ((pair_TV_MomentumEquationArtificialViscosity o k self_alpha self_c0 acc' a b).d_aw - acc'.d_aw) := by
+  refine ⟨?_, ?_, ?_⟩ <;>
+  · simp only [pair_TV_MomentumEquationArtificialViscosity]
+    c09_atoms o k a b
+    simp only [loop_TV_MomentumEquationArtificialViscosity]
+    c09_norm
+    c09_close
+
+/-- `m_a · contrib(a, b) = −(m_b · contrib(b, a))`, component by component -/
+include hk in
+theorem pair_antisym_TV_MomentumEquationArtificialViscosity (acc acc' : Out_TV_MomentumEquationArtificialViscosity K) (a b : P K) :
+    a.m * ((pair_TV_MomentumEquationArtificialViscosity o k self_alpha self_c0 acc a b).d_au - acc.d_au) = -(b.m * ((pair_TV_MomentumEquationArtificialViscosity o k self_alpha self_c0 acc' b a).d_au - acc'.d_au)) ∧
+    a.m * ((pair_TV_MomentumEquationArtificialViscosity o k self_alpha self_c0 acc a b).d_av - acc.d_av) = -(b.m * ((pair_TV_MomentumEquationArtificialViscosity o k self_alpha self_c0 acc' b a).d_av - acc'.d_av)) ∧
+    a.m * ((pair_TV_MomentumEquationArtificialViscosity o k self_alpha self_c0 acc a b).d_aw - acc.d_aw) = -(b.m * ((pair_TV_MomentumEquationArtificialViscosity o k self_alpha self_c0 acc' b a).d_aw - acc'.d_aw)) := by
+  refine ⟨?_, ?_, ?_⟩ <;>
+  · simp only [pair_TV_MomentumEquationArtificialViscosity]
+    c09_swap o k a b hk
+    c09_atoms o k a b
+    simp only [loop_TV_MomentumEquationArtificialViscosity]
+    c09_norm
+    c09_close
+
+/-- the pair contribution is parallel to the separation `x_a − x_b` (cross product zero) -/
+include hk in
+theorem central_TV_MomentumEquationArtificialViscosity (acc : Out_TV_MomentumEquationArtificialViscosity K) (a b : P K) :
+    (a.x - b.x) * ((pair_TV_MomentumEquationArtificialViscosity o k self_alpha self_c0 acc a b).d_av - acc.d_av) = (a.y - b.y) * ((pair_TV_MomentumEquationArtificialViscosity o k self_alpha self_c0 acc a b).d_au - acc.d_au) ∧
+    (a.y - b.y) * ((pair_TV_MomentumEquationArtificialViscosity o k self_alpha self_c0 acc a b).d_aw - acc.d_aw) = (a.z - b.z) * ((pair_TV_MomentumEquationArtificialViscosity o k self_alpha self_c0 acc a b).d_av - acc.d_av) ∧
+    (a.z - b.z) * ((pair_TV_MomentumEquationArtificialViscosity o k self_alpha self_c0 acc a b).d_au - acc.d_au) = (a.x - b.x) * ((pair_TV_MomentumEquationArtificialViscosity o k self_alpha self_c0 acc a b).d_aw - acc.d_aw) := by
+  refine ⟨?_, ?_, ?_⟩ <;>
+  · simp only [pair_TV_MomentumEquationArtificialViscosity]
+    c09_shape o k a b hk
+    c09_atoms o k a b
+    simp only [loop_TV_MomentumEquationArtificialViscosity]
+    c09_norm
+    c09_close
+
+/-- closed system: evaluating the equation for every particle over a symmetric neighbour relation
+gives `Σ m a = 0` -/
+include hk in
+theorem linear_momentum_TV_MomentumEquationArtificialViscosity {ι : Type} [Fintype ι] [DecidableEq ι] (p : ι → P K)
+    (nbrs : ι → List ι) (hnd : ∀ i, (nbrs i).Nodup) (hsymm : ∀ i j, j ∈ nbrs i → i ∈ nbrs j)
+    (init : ι → Out_TV_MomentumEquationArtificialViscosity K) (hinit : ∀ i, (init i).d_au = 0 ∧ (init i).d_av = 0 ∧ (init i).d_aw = 0) :
+    ∑ i, (p i).m * ((nbrs i).foldl (fun acc j => pair_TV_MomentumEquationArtificialViscosity o k self_alpha self_c0 acc (p i) (p j)) (init i)).d_au = 0 ∧
+    ∑ i, (p i).m * ((nbrs i).foldl (fun acc j => pair_TV_MomentumEquationArtificialViscosity o k self_alpha self_c0 acc (p i) (p j)) (init i)).d_av = 0 ∧
+    ∑ i, (p i).m * ((nbrs i).foldl (fun acc j => pair_TV_MomentumEquationArtificialViscosity o k self_alpha self_c0 acc (p i) (p j)) (init i)).d_aw = 0 := by
+  refine ⟨?_, ?_, ?_⟩
+  · exact linear_momentum_of_pair (fun i => (p i).m) nbrs hnd hsymm (fun i acc j => pair_TV_MomentumEquationArtificialViscosity o k self_alpha self_c0 acc (p i) (p j))
+      (fun s => s.d_au) init (fun i => (hinit i).1)
+      (fun i j acc acc' => (additive_TV_MomentumEquationArtificialViscosity o k self_alpha self_c0 acc acc' (p i) (p j)).1)
+      (fun i j acc acc' => (pair_antisym_TV_MomentumEquationArtificialViscosity o k hk self_alpha self_c0 acc acc' (p i) (p j)).1)
+  · exact linear_momentum_of_pair (fun i => (p i).m) nbrs hnd hsymm (fun i acc j => pair_TV_MomentumEquationArtificialViscosity o k self_alpha self_c0 acc (p i) (p j))
+      (fun s => s.d_av) init (fun i => (hinit i).2.1)
+      (fun i j acc acc' => (additive_TV_MomentumEquationArtificialViscosity o k self_alpha self_c0 acc acc' (p i) (p j)).2.1)
+      (fun i j acc acc' => (pair_antisym_TV_MomentumEquationArtificialViscosity o k hk self_alpha self_c0 acc acc' (p i) (p j)).2.1)
+  · exact linear_momentum_of_pair (fun i => (p i).m) nbrs hnd hsymm (fun i acc j => pair_TV_MomentumEquationArtificialViscosity o k self_alpha self_c0 acc (p i) (p j))
+      (fun s => s.d_aw) init (fun i => (hinit i).2.2)
+      (fun i j acc acc' => (additive_TV_MomentumEquationArtificialViscosity o k self_alpha self_c0 acc acc' (p i) (p j)).2.2)
+      (fun i j acc acc' => (pair_antisym_TV_MomentumEquationArtificialViscosity o k hk self_alpha self_c0 acc acc' (p i) (p j)).2.2)
+
+/-- closed system: `Σ m x × a = 0` (three components) -/
+include hk in
+theorem angular_momentum_TV_MomentumEquationArtificialViscosity {ι : Type} [Fintype ι] [DecidableEq ι] (p : ι → P K)
+    (nbrs : ι → List ι) (hnd : ∀ i, (nbrs i).Nodup) (hsymm : ∀ i j, j ∈ nbrs i → i ∈ nbrs j)
+    (init : ι → Out_TV_MomentumEquationArtificialViscosity K) (hinit : ∀ i, (init i).d_au = 0 ∧ (init i).d_av = 0 ∧ (init i).d_aw = 0) :
+    (∑ i, (p i).m * ((p i).x * ((nbrs i).foldl (fun acc j => pair_TV_MomentumEquationArtificialViscosity o k self_alpha self_c0 acc (p i) (p j)) (init i)).d_av - (p i).y * ((nbrs i).foldl (fun acc j => pair_TV_MomentumEquationArtificialViscosity o k self_alpha self_c0 acc (p i) (p j)) (init i)).d_au) = 0) ∧
+    (∑ i, (p i).m * ((p i).y * ((nbrs i).foldl (fun acc j => pair_TV_MomentumEquationArtificialViscosity o k self_alpha self_c0 acc (p i) (p j)) (init i)).d_aw - (p i).z * ((nbrs i).foldl (fun acc j => pair_TV_MomentumEquationArtificialViscosity o k self_alpha self_c0 acc (p i) (p j)) (init i)).d_av) = 0) ∧
+    (∑ i, (p i).m * ((p i).z * ((nbrs i).foldl (fun acc j => pair_TV_MomentumEquationArtificialViscosity o k self_alpha self_c0 acc (p i) (p j)) (init i)).d_au - (p i).x * ((nbrs i).foldl (fun acc j => pair_TV_MomentumEquationArtificialViscosity o k self_alpha self_c0 acc (p i) (p j)) (init i)).d_aw) = 0) := by
+  refine ⟨?_, ?_, ?_⟩
+  · exact angular_momentum_of_pair (fun i => (p i).m) (fun i => (p i).x) (fun i => (p i).y) nbrs hnd hsymm
+      (fun i acc j => pair_TV_MomentumEquationArtificialViscosity o k self_alpha self_c0 acc (p i) (p j)) (fun s => s.d_au) (fun s => s.d_av) init
+      (fun i => (hinit i).1) (fun i => (hinit i).2.1)
+      (fun i j acc acc' => (additive_TV_MomentumEquationArtificialViscosity o k self_alpha self_c0 acc acc' (p i) (p j)).1)
+      (fun i j acc acc' => (additive_TV_MomentumEquationArtificialViscosity o k self_alpha self_c0 acc acc' (p i) (p j)).2.1)
+      (fun i j acc acc' => (pair_antisym_TV_MomentumEquationArtificialViscosity o k hk self_alpha self_c0 acc acc' (p i) (p j)).1)
+      (fun i j acc acc' => (pair_antisym_TV_MomentumEquationArtificialViscosity o k hk self_alpha self_c0 acc acc' (p i) (p j)).2.1)
+      (fun i j acc => (central_TV_MomentumEquationArtificialViscosity o k hk self_alpha self_c0 acc (p i) (p j)).1)
+  · exact angular_momentum_of_pair (fun i => (p i).m) (fun i => (p i).y) (fun i => (p i).z) nbrs hnd hsymm
+      (fun i acc j => pair_TV_MomentumEquationArtificialViscosity o k self_alpha self_c0 acc (p i) (p j)) (fun s => s.d_av) (fun s => s.d_aw) init
+      (fun i => (hinit i).2.1) (fun i => (hinit i).2.2)
+      (fun i j acc acc' => (additive_TV_MomentumEquationArtificialViscosity o k self_alpha self_c0 acc acc' (p i) (p j)).2.1)
+      (fun i j acc acc' => (additive_TV_MomentumEquationArtificialViscosity o k self_alpha self_c0 acc acc' (p i) (p j)).2.2)
+      (fun i j acc acc' => (pair_antisym_TV_MomentumEquationArtificialViscosity o k hk self_alpha self_c0 acc acc' (p i) (p j)).2.1)
+      (fun i j acc acc' => (pair_antisym_TV_MomentumEquationArtificialViscosity o k hk self_alpha self_c0 acc acc' (p i) (p j)).2.2)
+      (fun i j acc => (central_TV_MomentumEquationArtificialViscosity o k hk self_alpha self_c0 acc (p i) (p j)).2.1)
+  · exact angular_momentum_of_pair (fun i => (p i).m) (fun i => (p i).z) (fun i => (p i).x) nbrs hnd hsymm
+      (fun i acc j => pair_TV_MomentumEquationArtificialViscosity o k self_alpha self_c0 acc (p i) (p j)) (fun s => s.d_aw) (fun s => s.d_au) init
+      (fun i => (hinit i).2.2) (fun i => (hinit i).1)
+      (fun i j acc acc' => (additive_TV_MomentumEquationArtificialViscosity o k self_alpha self_c0 acc acc' (p i) (p j)).2.2)
+      (fun i j acc acc' => (additive_TV_MomentumEquationArtificialViscosity o k self_alpha self_c0 acc acc' (p i) (p j)).1)
+      (fun i j acc acc' => (pair_antisym_TV_MomentumEquationArtificialViscosity o k hk self_alpha self_c0 acc acc' (p i) (p j)).2.2)
+      (fun i j acc acc' => (pair_antisym_TV_MomentumEquationArtificialViscosity o k hk self_alpha self_c0 acc acc' (p i) (p j)).1)
+      (fun i j acc => (central_TV_MomentumEquationArtificialViscosity o k hk self_alpha self_c0 acc (p i) (p j)).2.2)
+
+end TV_MomentumEquationArtificialViscosity
+
+/-! ## `pysph/sph/wc/transport_velocity.py.MomentumEquationArtificialStress` (TV_MomentumEquationArtificialStress) -/
+section TV_MomentumEquationArtificialStress
+variable (o : Ops K) (k : Kern K) {w g : K → K → K} (hk : Radial k w g) 
+
+/-- the contribution of a pair to the accumulated acceleration does not depend on the accumulator -/
+theorem additive_TV_MomentumEquationArtificialStress (acc acc' : Out_TV_MomentumEquationArtificialStress K) (a b : P K) :
+    ((pair_TV_MomentumEquationArtificialStress o k  acc a b).d_au - acc.d_au) = ((pair_TV_MomentumEquationArtificialStress o k  acc' a b).d_au - acc'.d_au) ∧
+    ((pair_TV_MomentumEquationArtificialStress o k  acc a b).d_av - acc.d_av) = ((pair_TV_MomentumEquationArtificialStress o k  acc' a b).d_av - acc'.d_av) ∧
+    ((pair_TV_MomentumEquationArtificialStress o k  acc a b).d_aw - acc.d_aw) = ((pair_TV_MomentumEquationArtificialStress o k  acc' a b).d_aw - acc'.d_aw) := by
+  refine ⟨?_, ?_, ?_⟩ <;>
+  · simp only [pair_TV_MomentumEquationArtificialStress]
+    c09_atoms o k a b
+    simp only [loop_TV_MomentumEquationArtificialStress]
+    c09_norm
+    c09_close
+
+/-- `m_a · contrib(a, b) = −(m_b · contrib(b, a))`, component by component -/
+include hk in
+theorem pair_antisym_TV_MomentumEquationArtificialStress (acc acc' : Out_TV_MomentumEquationArtificialStress K) (a b : P K) :
+    a.m * ((pair_TV_MomentumEquationArtificialStress o k  acc a b).d_au - acc.d_au) = -(b.m * ((pair_TV_MomentumEquationArtificialStress o k  acc' b a).d_au - acc'.d_au)) ∧
+    a.m * ((pair_TV_MomentumEquationArtificialStress o k  acc a b).d_av - acc.d_av) = -(b.m * ((pair_TV_MomentumEquationArtificialStress o k  acc' b a).d_av - acc'.d_av)) ∧
+    a.m * ((pair_TV_MomentumEquationArtificialStress o k  acc a b).d_aw - acc.d_aw) = -(b.m * ((pair_TV_MomentumEquationArtificialStress o k  acc' b a).d_aw - acc'.d_aw)) := by
+  refine ⟨?_, ?_, ?_⟩ <;>
+  · simp only [pair_TV_MomentumEquationArtificialStress]
+    c09_swap o k a b hk
+    c09_atoms o k a b
+    simp only [loop_TV_MomentumEquationArtificialStress]
+    c09_norm
+    c09_close
+
+/-- closed system: evaluating the equation for every particle over a symmetric neighbour relation
+gives `Σ m a = 0` -/
+include hk in
+theorem linear_momentum_TV_MomentumEquationArtificialStress {ι : Type} [Fintype ι] [DecidableEq ι] (p : ι → P K)
+    (nbrs : ι → List ι) (hnd : ∀ i, (nbrs i).Nodup) (hsymm : ∀ i j, j ∈ nbrs i → i ∈ nbrs j)
+    (init : ι → Out_TV_MomentumEquationArtificialStress K) (hinit : ∀ i, (init i).d_au = 0 ∧ (init i).d_av = 0 ∧ (init i).d_aw = 0) :
+    ∑ i, (p i).m * ((nbrs i).foldl (fun acc j => pair_TV_MomentumEquationArtificialStress o k  acc (p i) (p j)) (init i)).d_au = 0 ∧
+    ∑ i, (p i).m * ((nbrs i).foldl (fun acc j => pair_TV_MomentumEquationArtificialStress o k  acc (p i) (p j)) (init i)).d_av = 0 ∧
+    ∑ i, (p i).m * ((nbrs i).foldl (fun acc j => pair_TV_MomentumEquationArtificialStress o k  acc (p i) (p j)) (init i)).d_aw = 0 := by
+  refine ⟨?_, ?_, ?_⟩
+  · exact linear_momentum_of_pair (fun i => (p i).m) nbrs hnd hsymm (fun i acc j => pair_TV_MomentumEquationArtificialStress o k  acc (p i) (p j))
+      (fun s => s.d_au) init (fun i => (hinit i).1)
+      (fun i j acc acc' => (additive_TV_MomentumEquationArtificialStress o k  acc acc' (p i) (p j)).1)
+      (fun i j acc acc' => (pair_antisym_TV_MomentumEquationArtificialStress o k hk  acc acc' (p i) (p j)).1)
+  · exact linear_momentum_of_pair (fun i => (p i).m) nbrs hnd hsymm (fun i acc j => pair_TV_MomentumEquationArtificialStress o k  acc (p i) (p j))
+      (fun s => s.d_av) init (fun i => (hinit i).2.1)
+      (fun i j acc acc' => (additive_TV_MomentumEquationArtificialStress o k  acc acc' (p i) (p j)).2.1)
+      (fun i j acc acc' => (pair_antisym_TV_MomentumEquationArtificialStress o k hk  acc acc' (p i) (p j)).2.1)
+  · exact linear_momentum_of_pair (fun i => (p i).m) nbrs hnd hsymm (fun i acc j => pair_TV_MomentumEquationArtificialStress o k  acc (p i) (p j))
+      (fun s => s.d_aw) init (fun i => (hinit i).2.2)
+      (fun i j acc acc' => (additive_TV_MomentumEquationArtificialStress o k  acc acc' (p i) (p j)).2.2)
+      (fun i j acc acc' => (pair_antisym_TV_MomentumEquationArtificialStress o k hk  acc acc' (p i) (p j)).2.2)
+
+end TV_MomentumEquationArtificialStress
+
+/-! ## `pysph/sph/wc/edac.py.MomentumEquation` (ED_MomentumEquation) -/
+section ED_MomentumEquation
+variable (o : Ops K) (k : Kern K) {w g : K → K → K} (hk : Radial k w g) 
+
+/-- the contribution of a pair to the accumulated acceleration does not depend on the accumulator -/
+theorem additive_ED_MomentumEquation (acc acc' : Out_ED_MomentumEquation K) (a b : P K) :
+    ((pair_ED_MomentumEquation o k  acc a b).d_au - acc.d_au) = ((pair_ED_MomentumEquation o k  acc' a b).d_au - acc'.d_au) ∧
+    ((pair_ED_MomentumEquation o k  acc a b).d_av - acc.d_av) = ((pair_ED_MomentumEquation o k  acc' a b).d_av - acc'.d_av) ∧
+    ((pair_ED_MomentumEquation o k  acc a b).d_aw - acc.d_aw) = ((pair_ED_MomentumEquation o k  acc' a b).d_aw - acc'.d_aw) := by
+  refine ⟨?_, ?_, ?_⟩ <;>
+  · simp only [pair_ED_MomentumEquation]
+    c09_atoms o k a b
+    simp only [loop_ED_MomentumEquation]
+    c09_norm
+    c09_close
+
+/-- `m_a · contrib(a, b) = −(m_b · contrib(b, a))`, component by component -/
+include hk in
+theorem pair_antisym_ED_MomentumEquation (acc acc' : Out_ED_MomentumEquation K) (a b : P K) :
+    a.m * ((pair_ED_MomentumEquation o k  acc a b).d_au - acc.d_au) = -(b.m * ((pair_ED_MomentumEquation o k  acc' b a).d_au - acc'.d_au)) ∧
+    a.m * ((pair_ED_MomentumEquation o k  acc a b).d_av - acc.d_av) = -(b.m * ((pair_ED_MomentumEquation o k  acc' b a).d_av - acc'.d_av)) ∧
+    a.m * ((pair_ED_MomentumEquation o k  acc a b).d_aw - acc.d_aw) = -(b.m * ((pair_ED_MomentumEquation o k  acc' b a).d_aw - acc'.d_aw)) := by
+  refine ⟨?_, ?_, ?_⟩ <;>
+  · simp only [pair_ED_MomentumEquation]
+    c09_swap o k a b hk
+    c09_atoms o k a b
+    simp only [loop_ED_MomentumEquation]
+    c09_norm
+    c09_close
+
+/-- the pair contribution is parallel to the separation `x_a − x_b` (cross product zero) -/
+include hk in
+theorem central_ED_MomentumEquation (acc : Out_ED_MomentumEquation K) (a b : P K) :
+    (a.x - b.x) * ((pair_ED_MomentumEquation o k  acc a b).d_av - acc.d_av) = (a.y - b.y) * ((pair_ED_MomentumEquation o k  acc a b).d_au - acc.d_au) ∧
+    (a.y - b.y) * ((pair_ED_MomentumEquation o k  acc a b).d_aw - acc.d_aw) = (a.z - b.z) * ((pair_ED_MomentumEquation o k  acc a b).d_av - acc.d_av) ∧
+    (a.z - b.z) * ((pair_ED_MomentumEquation o k  acc a b).d_au - acc.d_au) = (a.x - b.x) * ((pair_ED_MomentumEquation o k  acc a b).d_aw - acc.d_aw) := by
+  refine ⟨?_, ?_, ?_⟩ <;>
+  · simp only [pair_ED_MomentumEquation]
+    c09_shape o k a b hk
+    c09_atoms o k a b
+    simp only [loop_ED_MomentumEquation]
+    c09_norm
+    c09_close
+
+/-- closed system: evaluating the equation for every particle over a symmetric neighbour relation
+gives `Σ m a = 0` -/
+include hk in
+theorem linear_momentum_ED_MomentumEquation {ι : Type} [Fintype ι] [DecidableEq ι] (p : ι → P K)
+    (nbrs : ι → List ι) (hnd : ∀ i, (nbrs i).Nodup) (hsymm : ∀ i j, j ∈ nbrs i → i ∈ nbrs j)
+    (init : ι → Out_ED_MomentumEquation K) (hinit : ∀ i, (init i).d_au = 0 ∧ (init i).d_av = 0 ∧ (init i).d_aw = 0) :
+    ∑ i, (p i).m * ((nbrs i).foldl (fun acc j => pair_ED_MomentumEquation o k  acc (p i) (p j)) (init i)).d_au = 0 ∧
+    ∑ i, (p i).m * ((nbrs i).foldl (fun acc j => pair_ED_MomentumEquation o k  acc (p i) (p j)) (init i)).d_av = 0 ∧
+    ∑ i, (p i).m * ((nbrs i).foldl (fun acc j => pair_ED_MomentumEquation o k  acc (p i) (p j)) (init i)).d_aw = 0 := by
+  refine ⟨?_, ?_, ?_⟩
+  · exact linear_momentum_of_pair (fun i => (p i).m) nbrs hnd hsymm (fun i acc j => pair_ED_MomentumEquation o k  acc (p i) (p j))
+      (fun s => s.d_au) init (fun i => (hinit i).1)
+      (fun i j acc acc' => (additive_ED_MomentumEquation o k  acc acc' (p i) (p j)).1)
+      (fun i j acc acc' => (pair_antisym_ED_MomentumEquation o k hk  acc acc' (p i) (p j)).1)
+  · exact linear_momentum_of_pair (fun i => (p i).m) nbrs hnd hsymm (fun i acc j => pair_ED_MomentumEquation o k  acc (p i) (p j))
+      (fun s => s.d_av) init (fun i => (hinit i).2.1)
+      (fun i j acc acc' => (additive_ED_MomentumEquation o k  acc acc' (p i) (p j)).2.1)
+      (fun i j acc acc' => (pair_antisym_ED_MomentumEquation o k hk  acc acc' (p i) (p j)).2.1)
+  · exact linear_momentum_of_pair (fun i => (p i).m) nbrs hnd hsymm (fun i acc j => pair_ED_MomentumEquation o k  acc (p i) (p j))
+      (fun s => s.d_aw) init (fun i => (hinit i).2.2)
+      (fun i j acc acc' => (additive_ED_MomentumEquation o k  acc acc' (p i) (p j)).2.2)
+      (fun i j acc acc' => (pair_antisym_ED_MomentumEquation o k hk  acc acc' (p i) (p j)).2.2)
+
+/-- closed system: `Σ m x × a = 0` (three components) -/
+include hk in
+theorem angular_momentum_ED_MomentumEquation {ι : Type} [Fintype ι] [DecidableEq ι] (p : ι → P K)
+    (nbrs : ι → List ι) (hnd : ∀ i, (nbrs i).Nodup) (hsymm : ∀ i j, j ∈ nbrs i → i ∈ nbrs j)
+    (init : ι → Out_ED_MomentumEquation K) (hinit : ∀ i, (init i).d_au = 0 ∧ (init i).d_av = 0 ∧ (init i).d_aw = 0) :
+    (∑ i, (p i).m * ((p i).x * ((nbrs i).foldl (fun acc j => pair_ED_MomentumEquation o k  acc (p i) (p j)) (init i)).d_av - (p i).y * ((nbrs i).foldl (fun acc j => pair_ED_MomentumEquation o k  acc (p i) (p j)) (init i)).d_au) = 0) ∧
+    (∑ i, (p i).m * ((p i).y * ((nbrs i).foldl (fun acc j => pair_ED_MomentumEquation o k  acc (p i) (p j)) (init i)).d_aw - (p i).z * ((nbrs i).foldl (fun acc j => pair_ED_MomentumEquation o k  acc (p i) (p j)) (init i)).d_av) = 0) ∧
+    (∑ i, (p i).m * ((p i).z * ((nbrs i).foldl (fun acc j => pair_ED_MomentumEquation o k  acc (p i) (p j)) (init i)).d_au - (p i).x * ((nbrs i).foldl (fun acc j => pair_ED_MomentumEquation o k  acc (p i) (p j)) (init i)).d_aw) = 0) := by
+  refine ⟨?_, ?_, ?_⟩
+  · exact angular_momentum_of_pair (fun i => (p i).m) (fun i => (p i).x) (fun i => (p i).y) nbrs hnd hsymm
+      (fun i acc j => pair_ED_MomentumEquation o k  acc (p i) (p j)) (fun s => s.d_au) (fun s => s.d_av) init
+      (fun i => (hinit i).1) (fun i => (hinit i).2.1)
+      (fun i j acc acc' => (additive_ED_MomentumEquation o k  acc acc' (p i) (p j)).1)
+      (fun i j acc acc' => (additive_ED_MomentumEquation o k  acc acc' (p i) (p j)).2.1)
+      (fun i j acc acc' => (pair_antisym_ED_MomentumEquation o k hk  acc acc' (p i) (p j)).1)
+      (fun i j acc acc' => (pair_antisym_ED_MomentumEquation o k hk  acc acc' (p i) (p j)).2.1)
+      (fun i j acc => (central_ED_MomentumEquation o k hk  acc (p i) (p j)).1)
+  · exact angular_momentum_of_pair (fun i => (p i).m) (fun i => (p i).y) (fun i => (p i).z) nbrs hnd hsymm
+      (fun i acc j => pair_ED_MomentumEquation o k  acc (p i) (p j)) (fun s => s.d_av) (fun s => s.d_aw) init
+      (fun i => (hinit i).2.1) (fun i => (hinit i).2.2)
+      (fun i j acc acc' => (additive_ED_MomentumEquation o k  acc acc' (p i) (p j)).2.1)
+      (fun i j acc acc' => (additive_ED_MomentumEquation o k  acc acc' (p i) (p j)).2.2)
+      (fun i j acc acc' => (pair_antisym_ED_MomentumEquation o k hk  acc acc' (p i) (p j)).2.1)
+      (fun i j acc acc' => (pair_antisym_ED_MomentumEquation o k hk  acc acc' (p i) (p j)).2.2)
+      (fun i j acc => (central_ED_MomentumEquation o k hk  acc (p i) (p j)).2.1)
+  · exact angular_momentum_of_pair (fun i => (p i).m) (fun i => (p i).z) (fun i => (p i).x) nbrs hnd hsymm
+      (fun i acc j => pair_ED_MomentumEquation o k  acc (p i) (p j)) (fun s => s.d_aw) (fun s => s.d_au) init
+      (fun i => (hinit i).2.2) (fun i => (hinit i).1)
+      (fun i j acc acc' => (additive_ED_MomentumEquation o k  acc acc' (p i) (p j)).2.2)
+      (fun i j acc acc' => (additive_ED_MomentumEquation o k  acc acc' (p i) (p j)).1)
+      (fun i j acc acc' => (pair_antisym_ED_MomentumEquation o k hk  acc acc' (p i) (p j)).2.2)
+      (fun i j acc acc' => (pair_antisym_ED_MomentumEquation o k hk  acc acc' (p i) (p j)).1)
+      (fun i j acc => (central_ED_MomentumEquation o k hk  acc (p i) (p j)).2.2)
+
+end ED_MomentumEquation
+
+/-! ## `pysph/sph/wc/edac.py.MomentumEquationPressureGradient` (ED_MomentumEquationPressureGradient) -/
+section ED_MomentumEquationPressureGradient
+variable (o : Ops K) (k : Kern K) {w g : K → K → K} (hk : Radial k w g) (self_pb : K)
+
+/-- the contribution of a pair to the accumulated acceleration does not depend on the accumulator -/
+theorem additive_ED_MomentumEquationPressureGradient (acc acc' : Out_ED_MomentumEquationPressureGradient K) (a b : P K) :
+    ((pair_ED_MomentumEquationPressureGradient o k self_pb acc a b).d_au - acc.d_au) = ((pair_ED_MomentumEquationPressureGradient o k self_pb acc' a b).d_au - acc'.d_au) ∧
+    ((pair_ED_MomentumEquationPressureGradient o k self_pb acc a b).d_av - acc.d_av) = ((pair_ED_MomentumEquationPressureGradient o k self_pb acc' a b).d_av - acc'.d_av) ∧
+    ((pair_ED_MomentumEquationPressureGradient o k self_pb acc a b).d_aw - acc.d_aw) = ((pair_ED_MomentumEquationPressureGradient o k self_pb acc' a b).d_aw - acc'.d_aw) := by
+  refine ⟨?_, ?_, ?_⟩ <;>
+  · simp only [pair_ED_MomentumEquationPressureGradient]
+    c09_atoms o k a b
+    simp only [loop_ED_MomentumEquationPressureGradient]
+    c09_norm
+    c09_close
+
+/-- `m_a · contrib(a, b) = −(m_b · contrib(b, a))`, component by component — for a uniform average pressure only -/
+include hk in
+theorem pair_antisym_ED_MomentumEquationPressureGradient (acc acc' : Out_ED_MomentumEquationPressureGradient K) (a b : P K) (hp : a.pavg = b.pavg) :
+    a.m * ((pair_ED_MomentumEquationPressureGradient o k self_pb acc a b).d_au - acc.d_au) = -(b.m * ((pair_ED_MomentumEquationPressureGradient o k self_pb acc' b a).d_au - acc'.d_au)) ∧
+    a.m * ((pair_ED_MomentumEquationPressureGradient o k self_pb acc a b).d_av - acc.d_av) = -(b.m * ((pair_ED_MomentumEquationPressureGradient o k self_pb acc' b a).d_av - acc'.d_av)) ∧
+    a.m * ((pair_ED_MomentumEquationPressureGradient o k self_pb acc a b).d_aw - acc.d_aw) = -(b.m * ((pair_ED_MomentumEquationPressureGradient o k self_pb acc' b a).d_aw - acc'.d_aw)) := by
+  refine ⟨?_, ?_, ?_⟩ <;>
+  · simp only [pair_ED_MomentumEquationPressureGradient]
+    c09_swap o k a b hk
+    c09_atoms o k a b
+    simp only [loop_ED_MomentumEquationPressureGradient, hp]
+    c09_norm
+    c09_close
+
+/-- the pair contribution is parallel to the separation `x_a − x_b` (cross product zero) -/
+include hk in
+theorem central_ED_MomentumEquationPressureGradient (acc : Out_ED_MomentumEquationPressureGradient K) (a b : P K) :
+    (a.x - b.x) * ((pair_ED_MomentumEquationPressureGradient o k self_pb acc a b).d_av - acc.d_av) = (a.y - b.y) * ((pair_ED_MomentumEquationPressureGradient o k self_pb acc a b).d_au - acc.d_au) ∧
+    (a.y - b.y) * ((pair_ED_MomentumEquationPressureGradient o k self_pb acc a b).d_aw - acc.d_aw) = (a.z - b.z) * ((pair_ED_MomentumEquationPressureGradient o k self_pb acc a b).d_av - acc.d_av) ∧
+    (a.z - b.z) * ((pair_ED_MomentumEquationPressureGradient o k self_pb acc a b).d_au - acc.d_au) = (a.x - b.x) * ((pair_ED_MomentumEquationPressureGradient o k self_pb acc a b).d_aw - acc.d_aw) := by
+  refine ⟨?_, ?_, ?_⟩ <;>
+  · simp only [pair_ED_MomentumEquationPressureGradient]
+    c09_shape o k a b hk
+    c09_atoms o k a b
+    simp only [loop_ED_MomentumEquationPressureGradient]
+    c09_norm
+    c09_close
+
+/-- closed system: evaluating the equation for every particle over a symmetric neighbour relation
+gives `Σ m a = 0` -/
+include hk in
+theorem linear_momentum_ED_MomentumEquationPressureGradient {ι : Type} [Fintype ι] [DecidableEq ι] (p : ι → P K)
+    (nbrs : ι → List ι) (hnd : ∀ i, (nbrs i).Nodup) (hsymm : ∀ i j, j ∈ nbrs i → i ∈ nbrs j)
+    (init : ι → Out_ED_MomentumEquationPressureGradient K) (hinit : ∀ i, (init i).d_au = 0 ∧ (init i).d_av = 0 ∧ (init i).d_aw = 0) (hpavg : ∀ i j, (p i).pavg = (p j).pavg) :
+    ∑ i, (p i).m * ((nbrs i).foldl (fun acc j => pair_ED_MomentumEquationPressureGradient o k self_pb acc (p i) (p j)) (init i)).d_au = 0 ∧
+    ∑ i, (p i).m * ((nbrs i).foldl (fun acc j => pair_ED_MomentumEquationPressureGradient o k self_pb acc (p i) (p j)) (init i)).d_av = 0 ∧
+    ∑ i, (p i).m * ((nbrs i).foldl (fun acc j => pair_ED_MomentumEquationPressureGradient o k self_pb acc (p i) (p j)) (init i)).d_aw = 0 := by
+  refine ⟨?_, ?_, ?_⟩
+  · exact linear_momentum_of_pair (fun i => (p i).m) nbrs hnd hsymm (fun i acc j => pair_ED_MomentumEquationPressureGradient o k self_pb acc (p i) (p j))
+      (fun s => s.d_au) init (fun i => (hinit i).1)
+      (fun i j acc acc' => (additive_ED_MomentumEquationPressureGradient o k self_pb acc acc' (p i) (p j)).1)
+      (fun i j acc acc' => (pair_antisym_ED_MomentumEquationPressureGradient o k hk self_pb acc acc' (p i) (p j) (hpavg i j)).1)
+  · exact linear_momentum_of_pair (fun i => (p i).m) nbrs hnd hsymm (fun i acc j => pair_ED_MomentumEquationPressureGradient o k self_pb acc (p i) (p j))
+      (fun s => s.d_av) init (fun i => (hinit i).2.1)
+      (fun i j acc acc' => (additive_ED_MomentumEquationPressureGradient o k self_pb acc acc' (p i) (p j)).2.1)
+      (fun i j acc acc' => (pair_antisym_ED_MomentumEquationPressureGradient o k hk self_pb acc acc' (p i) (p j) (hpavg i j)).2.1)
+  · exact linear_momentum_of_pair (fun i => (p i).m) nbrs hnd hsymm (fun i acc j => pair_ED_MomentumEquationPressureGradient o k self_pb acc (p i) (p j))
+      (fun s => s.d_aw) init (fun i => (hinit i).2.2)
+      (fun i j acc acc' => (additive_ED_MomentumEquationPressureGradient o k self_pb acc acc' (p i) (p j)).2.2)
+      (fun i j acc acc' => (pair_antisym_ED_MomentumEquationPressureGradient o k hk self_pb acc acc' (p i) (p j) (hpavg i j)).2.2)
+
+/-- closed system: `Σ m x × a = 0` (three components) -/
+include hk in
+theorem angular_momentum_ED_MomentumEquationPressureGradient {ι : Type} [Fintype ι] [DecidableEq ι] (p : ι → P K)
+    (nbrs : ι → List ι) (hnd : ∀ i, (nbrs i).Nodup) (hsymm : ∀ i j, j ∈ nbrs i → i ∈ nbrs j)
+    (init : ι → Out_ED_MomentumEquationPressureGradient K) (hinit : ∀ i, (init i).d_au = 0 ∧ (init i).d_av = 0 ∧ (init i).d_aw = 0) (hpavg : ∀ i j, (p i).pavg = (p j).pavg) :
+    (∑ i, (p i).m * ((p i).x * ((nbrs i).foldl (fun acc j => pair_ED_MomentumEquationPressureGradient o k self_pb acc (p i) (p j)) (init i)).d_av - (p i).y * ((nbrs i).foldl (fun acc j => pair_ED_MomentumEquationPressureGradient o k self_pb acc (p i) (p j)) (init i)).d_au) = 0) ∧
+    (∑ i, (p i).m * ((p i).y * ((nbrs i).foldl (fun acc j => pair_ED_MomentumEquationPressureGradient o k self_pb acc (p i) (p j)) (init i)).d_aw - (p i).z * ((nbrs i).foldl (fun acc j => pair_ED_MomentumEquationPressureGradient o k self_pb acc (p i) (p j)) (init i)).d_av) = 0) ∧
+    (∑ i, (p i).m * ((p i).z * ((nbrs i).foldl (fun acc j => pair_ED_MomentumEquationPressureGradient o k self_pb acc (p i) (p j)) (init i)).d_au - (p i).x * ((nbrs i).foldl (fun acc j => pair_ED_MomentumEquationPressureGradient o k self_pb acc (p i) (p j)) (init i)).d_aw) = 0) := by
+  refine ⟨?_, ?_, ?_⟩
+  · exact angular_momentum_of_pair (fun i => (p i).m) (fun i => (p i).x) (fun i => (p i).y) nbrs hnd hsymm
+      (fun i acc j => pair_ED_MomentumEquationPressureGradient o k self_pb acc (p i) (p j)) (fun s => s.d_au) (fun s => s.d_av) init
+      (fun i => (hinit i).1) (fun i => (hinit i).2.1)
+      (fun i j acc acc' => (additive_ED_MomentumEquationPressureGradient o k self_pb acc acc' (p i) (p j)).1)
+      (fun i j acc acc' => (additive_ED_MomentumEquationPressureGradient o k self_pb acc acc' (p i) (p j)).2.1)
+      (fun i j acc acc' => (pair_antisym_ED_MomentumEquationPressureGradient o k hk self_pb acc acc' (p i) (p j) (hpavg i j)).1)
+      (fun i j acc acc' => (pair_antisym_ED_MomentumEquationPressureGradient o k hk self_pb acc acc' (p i) (p j) (hpavg i j)).2.1)
+      (fun i j acc => (central_ED_MomentumEquationPressureGradient o k hk self_pb acc (p i) (p j)).1)
+  · exact angular_momentum_of_pair (fun i => (p i).m) (fun i => (p i).y) (fun i => (p i).z) nbrs hnd hsymm
+      (fun i acc j => pair_ED_MomentumEquationPressureGradient o k self_pb acc (p i) (p j)) (fun s => s.d_av) (fun s => s.d_aw) init
+      (fun i => (hinit i).2.1) (fun i => (hinit i).2.2)
+      (fun i j acc acc' => (additive_ED_MomentumEquationPressureGradient o k self_pb acc acc' (p i) (p j)).2.1)
+      (fun i j acc acc' => (additive_ED_MomentumEquationPressureGradient o k self_pb acc acc' (p i) (p j)).2.2)
+      (fun i j acc acc' => (pair_antisym_ED_MomentumEquationPressureGradient o k hk self_pb acc acc' (p i) (p j) (hpavg i j)).2.1)
+      (fun i j acc acc' => (pair_antisym_ED_MomentumEquationPressureGradient o k hk self_pb acc acc' (p i) (p j) (hpavg i j)).2.2)
+      (fun i j acc => (central_ED_MomentumEquationPressureGradient o k hk self_pb acc (p i) (p j)).2.1)
+  · exact angular_momentum_of_pair (fun i => (p i).m) (fun i => (p i).z) (fun i => (p i).x) nbrs hnd hsymm
+      (fun i acc j => pair_ED_MomentumEquationPressureGradient o k self_pb acc (p i) (p j)) (fun s => s.d_aw) (fun s => s.d_au) init
+      (fun i => (hinit i).2.2) (fun i => (hinit i).1)
+      (fun i j acc acc' => (additive_ED_MomentumEquationPressureGradient o k self_pb acc acc' (p i) (p j)).2.2)
+      (fun i j acc acc' => (additive_ED_MomentumEquationPressureGradient o k self_pb acc acc' (p i) (p j)).1)
+      (fun i j acc acc' => (pair_antisym_ED_MomentumEquationPressureGradient o k hk self_pb acc acc' (p i) (p j) (hpavg i j)).2.2)
+      (fun i j acc acc' => (pair_antisym_ED_MomentumEquationPressureGradient o k hk self_pb acc acc' (p i) (p j) (hpavg i j)).1)
+      (fun i j acc => (central_ED_MomentumEquationPressureGradient o k hk self_pb acc (p i) (p j)).2.2)
+
+end ED_MomentumEquationPressureGradient
+
+/-! ## `pysph/sph/wc/viscosity.py.LaminarViscosity` (VI_LaminarViscosity) -/
+section VI_LaminarViscosity
+variable (o : Ops K) (k : Kern K) {w g : K → K → K} (hk : Radial k w g) (self_eta : K) (self_nu : K)
+
+/-- the contribution of a pair to the accumulated acceleration does not depend on the accumulator -/
+theorem additive_VI_LaminarViscosity (acc acc' : Out_VI_LaminarViscosity K) (a b : P K) :
+    ((pair_VI_LaminarViscosity o k self_eta self_nu acc a b).d_au - acc.d_au) = ((pair_VI_LaminarViscosity o k self_eta self_nu acc' a b).d_au - acc'.d_au) ∧
+    ((pair_VI_LaminarViscosity o k self_eta self_nu acc a b).d_av - acc.d_av) = ((pair_VI_LaminarViscosity o k self_eta self_nu acc' a b).d_av - acc'.d_av) ∧
+    ((pair_VI_LaminarViscosity o k self_eta self_nu acc a b).d_aw - acc.d_aw) = ((pair_VI_LaminarViscosity o k self_eta self_nu acc' a b).d_aw - acc'.d_aw) := by
+  refine ⟨?_, ?_, ?_⟩ <;>
+  · simp only [pair_VI_LaminarViscosity]
+    c09_atoms o k a b
+    simp only [loop_VI_LaminarViscosity]
+    c09_norm
+    c09_close
+
+/-- `m_a · contrib(a, b) = −(m_b · contrib(b, a))`, component by component -/
+include hk in
+theorem pair_antisym_VI_LaminarViscosity (acc acc' : Out_VI_LaminarViscosity K) (a b : P K) :
+    a.m * ((pair_VI_LaminarViscosity o k self_eta self_nu acc a b).d_au - acc.d_au) = -(b.m * ((pair_VI_LaminarViscosity o k self_eta self_nu acc' b a).d_au - acc'.d_au)) ∧
+    a.m * ((pair_VI_LaminarViscosity o k self_eta self_nu acc a b).d_av - acc.d_av) = -(b.m * ((pair_VI_LaminarViscosity o k self_eta self_nu acc' b a).d_av - acc'.d_av)) ∧
+    a.m * ((pair_VI_LaminarViscosity o k self_eta self_nu acc a b).d_aw - acc.d_aw) = -(b.m * ((pair_VI_LaminarViscosity o k self_eta self_nu acc' b a).d_aw - acc'.d_aw)) := by
+  refine ⟨?_, ?_, ?_⟩ <;>
+  · simp only [pair_VI_LaminarViscosity]
+    c09_swap o k a b hk
+    c09_atoms o k a b
+    simp only [loop_VI_LaminarViscosity]
+    c09_norm
+    c09_close
+
+/-- closed system: evaluating the equation for every particle over a symmetric neighbour relation
+gives `Σ m a = 0` -/
+include hk in
+theorem linear_momentum_VI_LaminarViscosity {ι : Type} [Fintype ι] [DecidableEq ι] (p : ι → P K)
+    (nbrs : ι → List ι) (hnd : ∀ i, (nbrs i).Nodup) (hsymm : ∀ i j, j ∈ nbrs i → i ∈ nbrs j)
+    (init : ι → Out_VI_LaminarViscosity K) (hinit : ∀ i, (init i).d_au = 0 ∧ (init i).d_av = 0 ∧ (init i).d_aw = 0) :
+    ∑ i, (p i).m * ((nbrs i).foldl (fun acc j => pair_VI_LaminarViscosity o k self_eta self_nu acc (p i) (p j)) (init i)).d_au = 0 ∧
+    ∑ i, (p i).m * ((nbrs i).foldl (fun acc j => pair_VI_LaminarViscosity o k self_eta self_nu acc (p i) (p j)) (init i)).d_av = 0 ∧
+    ∑ i, (p i).m * ((nbrs i).foldl (fun acc j => pair_VI_LaminarViscosity o k self_eta self_nu acc (p i) (p j)) (init i)).d_aw = 0 := by
+  refine ⟨?_, ?_, ?_⟩
+  · exact linear_momentum_of_pair (fun i => (p i).m) nbrs hnd hsymm (fun i acc j => pair_VI_LaminarViscosity o k self_eta self_nu acc (p i) (p j))
+      (fun s => s.d_au) init (fun i => (hinit i).1)
+      (fun i j acc acc' => (additive_VI_LaminarViscosity o k self_eta self_nu acc acc' (p i) (p j)).1)
+      (fun i j acc acc' => (pair_antisym_VI_LaminarViscosity o k hk self_eta self_nu acc acc' (p i) (p j)).1)
+  · exact linear_momentum_of_pair (fun i => (p i).m) nbrs hnd hsymm (fun i acc j => pair_VI_LaminarViscosity o k self_eta self_nu acc (p i) (p j))
+      (fun s => s.d_av) init (fun i => (hinit i).2.1)
+      (fun i j acc acc' => (additive_VI_LaminarViscosity o k self_eta self_nu acc acc' (p i) (p j)).2.1)
+      (fun i j acc acc' => (pair_antisym_VI_LaminarViscosity o k hk self_eta self_nu acc acc' (p i) (p j)).2.1)
+  · exact linear_momentum_of_pair (fun i => (p i).m) nbrs hnd hsymm (fun i acc j => pair_VI_LaminarViscosity o k self_eta self_nu acc (p i) (p j))
+      (fun s => s.d_aw) init (fun i => (hinit i).2.2)
+      (fun i j acc acc' => (additive_VI_LaminarViscosity o k self_eta self_nu acc acc' (p i) (p j)).2.2)
+      (fun i j acc acc' => (pair_antisym_VI_LaminarViscosity o k hk self_eta self_nu acc acc' (p i) (p j)).2.2)
+
+end VI_LaminarViscosity
+
+/-! ## `pysph/sph/wc/viscosity.py.MonaghanSignalViscosityFluids` (VI_MonaghanSignalViscosityFluids) -/
+section VI_MonaghanSignalViscosityFluids
+variable (o : Ops K) (k : Kern K) {w g : K → K → K} (hk : Radial k w g) (self_alpha : K)
+
+/-- the contribution of a pair to the accumulated acceleration does not depend on the accumulator -/
+theorem additive_VI_MonaghanSignalViscosityFluids (acc acc' : Out_VI_MonaghanSignalViscosityFluids K) (a b : P K) :
+    ((pair_VI_MonaghanSignalViscosityFluids o k self_alpha acc a b).d_au - acc.d_au) = ((pair_VI_MonaghanSignalViscosityFluids o k self_alpha acc' a b).d_au - acc'.d_au) ∧
+    ((pair_VI_MonaghanSignalViscosityFluids o k self_alpha acc a b).d_av - acc.d_av) = ((pair_VI_MonaghanSignalViscosityFluids o k self_alpha acc' a b).d_av - acc'.d_av) ∧
+    ((pair_VI_MonaghanSignalViscosityFluids o k self_alpha acc a b).d_aw - acc.d_aw) = ((pair_VI_MonaghanSignalViscosityFluids o k self_alpha acc' a b).d_aw - acc'.d_aw) := by
+  refine ⟨?_, ?_, ?_⟩ <;>
+  · simp only [pair_VI_MonaghanSignalViscosityFluids]
+    c09_atoms o k a b
+    simp only [loop_VI_MonaghanSignalViscosityFluids]
+    c09_norm
+    c09_close
+
+/-- `m_a · contrib(a, b) = −(m_b · contrib(b, a))`, component by component -/
+include hk in
+theorem pair_antisym_VI_MonaghanSignalViscosityFluids (acc acc' : Out_VI_MonaghanSignalViscosityFluids K) (a b : P K) :
+    a.m * ((pair_VI_MonaghanSignalViscosityFluids o k self_alpha acc a b).d_au - acc.d_au) = -(b.m * ((pair_VI_MonaghanSignalViscosityFluids o k self_alpha acc' b a).d_au - acc'.d_au)) ∧
+    a.m * ((pair_VI_MonaghanSignalViscosityFluids o k self_alpha acc a b).d_av - acc.d_av) = -(b.m * ((pair_VI_MonaghanSignalViscosityFluids o k self_alpha acc' b a).d_av - acc'.d_av)) ∧
+    a.m * ((pair_VI_MonaghanSignalViscosityFluids o k self_alpha acc a b).d_aw - acc.d_aw) = -(b.m * ((pair_VI_MonaghanSignalViscosityFluids o k self_alpha acc' b a).d_aw - acc'.d_aw)) := by
+  refine ⟨?_, ?_, ?_⟩ <;>
+  · simp only [pair_VI_MonaghanSignalViscosityFluids]
+    c09_swap o k a b hk
+    c09_atoms o k a b
+    simp only [loop_VI_MonaghanSignalViscosityFluids]
+    c09_norm
+    c09_close
+
+/-- the pair contribution is parallel to the separation `x_a − x_b` (cross product zero) -/
+include hk in
+theorem central_VI_MonaghanSignalViscosityFluids (acc : Out_VI_MonaghanSignalViscosityFluids K) (a b : P K) :
+    (a.x - b.x) * ((pair_VI_MonaghanSignalViscosityFluids o k self_alpha acc a b).d_av - acc.d_av) = (a.y - b.y) * ((pair_VI_MonaghanSignalViscosityFluids o k self_alpha acc a b).d_au - acc.d_au) ∧
+    (a.y - b.y) * ((pair_VI_MonaghanSignalViscosityFluids o k self_alpha acc a b).d_aw - acc.d_aw) = (a.z - b.z) * ((pair_VI_MonaghanSignalViscosityFluids o k self_alpha acc a b).d_av - acc.d_av) ∧
+    (a.z - b.z) * ((pair_VI_MonaghanSignalViscosityFluids o k self_alpha acc a b).d_au - acc.d_au) = (a.x - b.x) * ((pair_VI_MonaghanSignalViscosityFluids o k self_alpha acc a b).d_aw - acc.d_aw) := by
+  refine ⟨?_, ?_, ?_⟩ <;>
+  · simp only [pair_VI_MonaghanSignalViscosityFluids]
+    c09_shape o k a b hk
+    c09_atoms o k a b
+    simp only [loop_VI_MonaghanSignalViscosityFluids]
+    c09_norm
+    c09_close
+
+/-- closed system: evaluating the equation for every particle over a symmetric neighbour relation
+gives `Σ m a = 0` -/
+include hk in
+theorem linear_momentum_VI_MonaghanSignalViscosityFluids {ι : Type} [Fintype ι] [DecidableEq ι] (p : ι → P K)
+    (nbrs : ι → List ι) (hnd : ∀ i, (nbrs i).Nodup) (hsymm : ∀ i j, j ∈ nbrs i → i ∈ nbrs j)
+    (init : ι → Out_VI_MonaghanSignalViscosityFluids K) (hinit : ∀ i, (init i).d_au = 0 ∧ (init i).d_av = 0 ∧ (init i).d_aw = 0) :
+    ∑ i, (p i).m * ((nbrs i).foldl (fun acc j => pair_VI_MonaghanSignalViscosityFluids o k self_alpha acc (p i) (p j)) (init i)).d_au = 0 ∧
+    ∑ i, (p i).m * ((nbrs i).foldl (fun acc j => pair_VI_MonaghanSignalViscosityFluids o k self_alpha acc (p i) (p j)) (init i)).d_av = 0 ∧
+    ∑ i, (p i).m * ((nbrs i).foldl (fun acc j => pair_VI_MonaghanSignalViscosityFluids o k self_alpha acc (p i) (p j)) (init i)).d_aw = 0 := by
+  refine ⟨?_, ?_, ?_⟩
+  · exact linear_momentum_of_pair (fun i => (p i).m) nbrs hnd hsymm (fun i acc j => pair_VI_MonaghanSignalViscosityFluids o k self_alpha acc (p i) (p j))
+      (fun s => s.d_au) init (fun i => (hinit i).1)
+      (fun i j acc acc' => (additive_VI_MonaghanSignalViscosityFluids o k self_alpha acc acc' (p i) (p j)).1)
+      (fun i j acc acc' => (pair_antisym_VI_MonaghanSignalViscosityFluids o k hk self_alpha acc acc' (p i) (p j)).1)
+  · exact linear_momentum_of_pair (fun i => (p i).m) nbrs hnd hsymm (fun i acc j => pair_VI_MonaghanSignalViscosityFluids o k self_alpha acc (p i) (p j))
+      (fun s => s.d_av) init (fun i => (hinit i).2.1)
+      (fun i j acc acc' => (additive_VI_MonaghanSignalViscosityFluids o k self_alpha acc acc' (p i) (p j)).2.1)
+      (fun i j acc acc' => (pair_antisym_VI_MonaghanSignalViscosityFluids o k hk self_alpha acc acc' (p i) (p j)).2.1)
+  · exact linear_momentum_of_pair (fun i => (p i).m) nbrs hnd hsymm (fun i acc j => pair_VI_MonaghanSignalViscosityFluids o k self_alpha acc (p i) (p j))
+      (fun s => s.d_aw) init (fun i => (hinit i).2.2)
+      (fun i j acc acc' => (additive_VI_MonaghanSignalViscosityFluids o k self_alpha acc acc' (p i) (p j)).2.2)
+      (fun i j acc acc' => (pair_antisym_VI_MonaghanSignalViscosityFluids o k hk self_alpha acc acc' (p i) (p j)).2.2)
+
+/-- closed system: `Σ m x × a = 0` (three components) -/
+include hk in
+theorem angular_momentum_VI_MonaghanSignalViscosityFluids {ι : Type} [Fintype ι] [DecidableEq ι] (p : ι → P K)
+    (nbrs : ι → List ι) (hnd : ∀ i, (nbrs i).Nodup) (hsymm : ∀ i j, j ∈ nbrs i → i ∈ nbrs j)
+    (init : ι → Out_VI_MonaghanSignalViscosityFluids K) (hinit : ∀ i, (init i).d_au = 0 ∧ (init i).d_av = 0 ∧ (init i).d_aw = 0) :
+    (∑ i, (p i).m * ((p i).x * ((nbrs i).foldl (fun acc j => pair_VI_MonaghanSignalViscosityFluids o k self_alpha acc (p i) (p j)) (init i)).d_av - (p i).y * ((nbrs i).foldl (fun acc j => pair_VI_MonaghanSignalViscosityFluids o k self_alpha acc (p i) (p j)) (init i)).d_au) = 0) ∧
+    (∑ i, (p i).m * ((p i).y * ((nbrs i).foldl (fun acc j => pair_VI_MonaghanSignalViscosityFluids o k self_alpha acc (p i) (p j)) (init i)).d_aw - (p i).z * ((nbrs i).foldl (fun acc j => pair_VI_MonaghanSignalViscosityFluids o k self_alpha acc (p i) (p j)) (init i)).d_av) = 0) ∧
+    (∑ i, (p i).m * ((p i).z * ((nbrs i).foldl (fun acc j => pair_VI_MonaghanSignalViscosityFluids o k self_alpha acc (p i) (p j)) (init i)).d_au - (p i).x * ((nbrs i).foldl (fun acc j => pair_VI_MonaghanSignalViscosityFluids o k self_alpha acc (p i) (p j)) (init i)).d_aw) = 0) := by
+  refine ⟨?_, ?_, ?_⟩
+  · exact angular_momentum_of_pair (fun i => (p i).m) (fun i => (p i).x) (fun i => (p i).y) nbrs hnd hsymm
+      (fun i acc j => pair_VI_MonaghanSignalViscosityFluids o k self_alpha acc (p i) (p j)) (fun s => s.d_au) (fun s => s.d_av) init
+      (fun i => (hinit i).1) (fun i => (hinit i).2.1)
+      (fun i j acc acc' => (additive_VI_MonaghanSignalViscosityFluids o k self_alpha acc acc' (p i) (p j)).1)
+      (fun i j acc acc' => (additive_VI_MonaghanSignalViscosityFluids o k self_alpha acc acc' (p i) (p j)).2.1)
+      (fun i j acc acc' => (pair_antisym_VI_MonaghanSignalViscosityFluids o k hk self_alpha acc acc' (p i) (p j)).1)
+      (fun i j acc acc' => (pair_antisym_VI_MonaghanSignalViscosityFluids o k hk self_alpha acc acc' (p i) (p j)).2.1)
+      (fun i j acc => (central_VI_MonaghanSignalViscosityFluids o k hk self_alpha acc (p i) (p j)).1)
+  · exact angular_momentum_of_pair (fun i => (p i).m) (fun i => (p i).y) (fun i => (p i).z) nbrs hnd hsymm
+      (fun i acc j => pair_VI_MonaghanSignalViscosityFluids o k self_alpha acc (p i) (p j)) (fun s => s.d_av) (fun s => s.d_aw) init
+      (fun i => (hinit i).2.1) (fun i => (hinit i).2.2)
+      (fun i j acc acc' => (additive_VI_MonaghanSignalViscosityFluids o k self_alpha acc acc' (p i) (p j)).2.1)
+      (fun i j acc acc' => (additive_VI_MonaghanSignalViscosityFluids o k self_alpha acc acc' (p i) (p j)).2.2)
+      (fun i j acc acc' => (pair_antisym_VI_MonaghanSignalViscosityFluids o k hk self_alpha acc acc' (p i) (p j)).2.1)
+      (fun i j acc acc' => (pair_antisym_VI_MonaghanSignalViscosityFluids o k hk self_alpha acc acc' (p i) (p j)).2.2)
+      (fun i j acc => (central_VI_MonaghanSignalViscosityFluids o k hk self_alpha acc (p i) (p j)).2.1)
+  · exact angular_momentum_of_pair (fun i => (p i).m) (fun i => (p i).z) (fun i => (p i).x) nbrs hnd hsymm
+      (fun i acc j => pair_VI_MonaghanSignalViscosityFluids o k self_alpha acc (p i) (p j)) (fun s => s.d_aw) (fun s => s.d_au) init
+      (fun i => (hinit i).2.2) (fun i => (hinit i).1)
+      (fun i j acc acc' => (additive_VI_MonaghanSignalViscosityFluids o k self_alpha acc acc' (p i) (p j)).2.2)
+      (fun i j acc acc' => (additive_VI_MonaghanSignalViscosityFluids o k self_alpha acc acc' (p i) (p j)).1)
+      (fun i j acc acc' => (pair_antisym_VI_MonaghanSignalViscosityFluids o k hk self_alpha acc acc' (p i) (p j)).2.2)
+      (fun i j acc acc' => (pair_antisym_VI_MonaghanSignalViscosityFluids o k hk self_alpha acc acc' (p i) (p j)).1)
+      (fun i j acc => (central_VI_MonaghanSignalViscosityFluids o k hk self_alpha acc (p i) (p j)).2.2)
+
+end VI_MonaghanSignalViscosityFluids
+
+/-! ## `pysph/sph/wc/viscosity.py.ClearyArtificialViscosity` (VI_ClearyArtificialViscosity) -/
+section VI_ClearyArtificialViscosity
+variable (o : Ops K) (k : Kern K) {w g : K → K → K} (hk : Radial k w g) (self_alpha : K) (self_factor : K)
+
+/-- the contribution of a pair to the accumulated acceleration does not depend on the accumulator -/
+theorem additive_VI_ClearyArtificialViscosity (acc acc' : Out_VI_ClearyArtificialViscosity K) (a b : P K) :
+    ((pair_VI_ClearyArtificialViscosity o k self_alpha self_factor acc a b).d_au - acc.d_au) = ((pair_VI_ClearyArtificialViscosity o k self_alpha self_factor acc' a b).d_au - acc'.d_au) ∧
+    ((pair_VI_ClearyArtificialViscosity o k self_alpha self_factor acc a b).d_av - acc.d_av) = ((pair_VI_ClearyArtificialViscosity o k self_alpha self_factor acc' a b).d_av - acc'.d_av) ∧
+    ((pair_VI_ClearyArtificialViscosity o k self_alpha self_factor acc a b).d_aw - acc.d_aw) = ((pair_VI_ClearyArtificialViscosity o k self_alpha self_factor acc' a b).d_aw - acc'.d_aw) := by
+  refine ⟨?_, ?_, ?_⟩ <;>
+  · simp only [pair_VI_ClearyArtificialViscosity]
+    c09_atoms o k a b
+    simp only [loop_VI_ClearyArtificialViscosity]
+    c09_norm
+    c09_close
+
+/-- `m_a · contrib(a, b) = −(m_b · contrib(b, a))`, component by component -/
+include hk in
+theorem pair_antisym_VI_ClearyArtificialViscosity (acc acc' : Out_VI_ClearyArtificialViscosity K) (a b : P K) :
+    a.m * ((pair_VI_ClearyArtificialViscosity o k self_alpha self_factor acc a b).d_au - acc.d_au) = -(b.m * ((pair_VI_ClearyArtificialViscosity o k self_alpha self_factor acc' b a).d_au - acc'.d_au)) ∧
+    a.m * ((pair_VI_ClearyArtificialViscosity o k self_alpha self_factor acc a b).d_av - acc.d_av) = -(b.m * ((pair_VI_ClearyArtificialViscosity o k self_alpha self_factor acc' b a).d_av - acc'.d_av)) ∧
+    a.m * ((pair_VI_ClearyArtificialViscosity o k self_alpha self_factor acc a b).d_aw - acc.d_aw) = -(b.m * ((pair_VI_ClearyArtificialViscosity o k self_alpha self_factor acc' b a).d_aw - acc'.d_aw)) := by
+  refine ⟨?_, ?_, ?_⟩ <;>
+  · simp only [pair_VI_ClearyArtificialViscosity]
+    c09_swap o k a b hk
+    c09_atoms o k a b
+    simp only [loop_VI_ClearyArtificialViscosity]
+    c09_norm
+    c09_close
+
+/-- the pair contribution is parallel to the separation `x_a − x_b` (cross product zero) -/
+include hk in
+theorem central_VI_ClearyArtificialViscosity (acc : Out_VI_ClearyArtificialViscosity K) (a b : P K) :
+    (a.x - b.x) * ((pair_VI_ClearyArtificialViscosity o k self_alpha self_factor acc a b).d_av - acc.d_av) = (a.y - b.y) * ((pair_VI_ClearyArtificialViscosity o k self_alpha self_factor acc a b).d_au - acc.d_au) ∧
+    (a.y - b.y) * ((pair_VI_ClearyArtificialViscosity o k self_alpha self_factor acc a b).d_aw - acc.d_aw) = (a.z - b.z) * ((pair_VI_ClearyArtificialViscosity o k self_alpha self_factor acc a b).d_av - acc.d_av) ∧
+    (a.z - b.z) * ((pair_VI_ClearyArtificialViscosity o k self_alpha self_factor acc a b).d_au - acc.d_au) = (a.x - b.x) * ((pair_VI_ClearyArtificialViscosity o k self_alpha self_factor acc a b).d_aw - acc.d_aw) := by
+  refine ⟨?_, ?_, ?_⟩ <;>
+  · simp only [pair_VI_ClearyArtificialViscosity]
+    c09_shape o k a b hk
+    c09_atoms o k a b
+    simp only [loop_VI_ClearyArtificialViscosity]
+    c09_norm
+    c09_close
+
+/-- closed system: evaluating the equation for every particle over a symmetric neighbour relation
+gives `Σ m a = 0` -/
+include hk in
+theorem linear_momentum_VI_ClearyArtificialViscosity {ι : Type} [Fintype ι] [DecidableEq ι] (p : ι → P K)
+    (nbrs : ι → List ι) (hnd : ∀ i, (nbrs i).Nodup) (hsymm : ∀ i j, j ∈ nbrs i → i ∈ nbrs j)
+    (init : ι → Out_VI_ClearyArtificialViscosity K) (hinit : ∀ i, (init i).d_au = 0 ∧ (init i).d_av = 0 ∧ (init i).d_aw = 0) :
+    ∑ i, (p i).m * ((nbrs i).foldl (fun acc j => pair_VI_ClearyArtificialViscosity o k self_alpha self_factor acc (p i) (p j)) (init i)).d_au = 0 ∧
+    ∑ i, (p i).m * ((nbrs i).foldl (fun acc j => pair_VI_ClearyArtificialViscosity o k self_alpha self_factor acc (p i) (p j)) (init i)).d_av = 0 ∧
+    ∑ i, (p i).m * ((nbrs i).foldl (fun acc j => pair_VI_ClearyArtificialViscosity o k self_alpha self_factor acc (p i) (p j)) (init i)).d_aw = 0 := by
+  refine ⟨?_, ?_, ?_⟩
+  · exact linear_momentum_of_pair (fun i => (p i).m) nbrs hnd hsymm (fun i acc j => pair_VI_ClearyArtificialViscosity o k self_alpha self_factor acc (p i) (p j))
+      (fun s => s.d_au) init (fun i => (hinit i).1)
+      (fun i j acc acc' => (additive_VI_ClearyArtificialViscosity o k self_alpha self_factor acc acc' (p i) (p j)).1)
+      (fun i j acc acc' => (pair_antisym_VI_ClearyArtificialViscosity o k hk self_alpha self_factor acc acc' (p i) (p j)).1)
+  · exact linear_momentum_of_pair (fun i => (p i).m) nbrs hnd hsymm (fun i acc j => pair_VI_ClearyArtificialViscosity o k self_alpha self_factor acc (p i) (p j))
+      (fun s => s.d_av) init (fun i => (hinit i).2.1)
+      (fun i j acc acc' => (additive_VI_ClearyArtificialViscosity o k self_alpha self_factor acc acc' (p i) (p j)).2.1)
+      (fun i j acc acc' => (pair_antisym_VI_ClearyArtificialViscosity o k hk self_alpha self_factor acc acc' (p i) (p j)).2.1)
+  · exact linear_momentum_of_pair (fun i => (p i).m) nbrs hnd hsymm (fun i acc j => pair_VI_ClearyArtificialViscosity o k self_alpha self_factor acc (p i) (p j))
+      (fun s => s.d_aw) init (fun i => (hinit i).2.2)
+      (fun i j acc acc' => (additive_VI_ClearyArtificialViscosity o k self_alpha self_factor acc acc' (p i) (p j)).2.2)
+      (fun i j acc acc' => (pair_antisym_VI_ClearyArtificialViscosity o k hk self_alpha self_factor acc acc' (p i) (p j)).2.2)
+
+/-- closed system: `Σ m x × a = 0` (three components) -/
+include hk in
+theorem angular_momentum_VI_ClearyArtificialViscosity {ι : Type} [Fintype ι] [DecidableEq ι] (p : ι → P K)
+    (nbrs : ι → List ι) (hnd : ∀ i, (nbrs i).Nodup) (hsymm : ∀ i j, j ∈ nbrs i → i ∈ nbrs j)
+    (init : ι → Out_VI_ClearyArtificialViscosity K) (hinit : ∀ i, (init i).d_au = 0 ∧ (init i).d_av = 0 ∧ (init i).d_aw = 0) :
+    (∑ i, (p i).m * ((p i).x * ((nbrs i).foldl (fun acc j => pair_VI_ClearyArtificialViscosity o k self_alpha self_factor acc (p i) (p j)) (init i)).d_av - (p i).y * ((nbrs i).foldl (fun acc j => pair_VI_ClearyArtificialViscosity o k self_alpha self_factor acc (p i) (p j)) (init i)).d_au) = 0) ∧
+    (∑ i, (p i).m * ((p i).y * ((nbrs i).foldl (fun acc j => pair_VI_ClearyArtificialViscosity o k self_alpha self_factor acc (p i) (p j)) (init i)).d_aw - (p i).z * ((nbrs i).foldl (fun acc j => pair_VI_ClearyArtificialViscosity o k self_alpha self_factor acc (p i) (p j)) (init i)).d_av) = 0) ∧
+    (∑ i, (p i).m * ((p i).z * ((nbrs i).foldl (fun acc j => pair_VI_ClearyArtificialViscosity o k self_alpha self_factor acc (p i) (p j)) (init i)).d_au - (p i).x * ((nbrs i).foldl (fun acc j => pair_VI_ClearyArtificialViscosity o k self_alpha self_factor acc (p i) (p j)) (init i)).d_aw) = 0) := by
+  refine ⟨?_, ?_, ?_⟩
+  · exact angular_momentum_of_pair (fun i => (p i).m) (fun i => (p i).x) (fun i => (p i).y) nbrs hnd hsymm
+      (fun i acc j => pair_VI_ClearyArtificialViscosity o k self_alpha self_factor acc (p i) (p j)) (fun s => s.d_au) (fun s => s.d_av) init
+      (fun i => (hinit i).1) (fun i => (hinit i).2.1)
+      (fun i j acc acc' => (additive_VI_ClearyArtificialViscosity o k self_alpha self_factor acc acc' (p i) (p j)).1)
+      (fun i j acc acc' => (additive_VI_ClearyArtificialViscosity o k self_alpha self_factor acc acc' (p i) (p j)).2.1)
+      (fun i j acc acc' => (pair_antisym_VI_ClearyArtificialViscosity o k hk self_alpha self_factor acc acc' (p i) (p j)).1)
+      (fun i j acc acc' => (pair_antisym_VI_ClearyArtificialViscosity o k hk self_alpha self_factor acc acc' (p i) (p j)).2.1)
+      (fun i j acc => (central_VI_ClearyArtificialViscosity o k hk self_alpha self_factor acc (p i) (p j)).1)
+  · exact angular_momentum_of_pair (fun i => (p i).m) (fun i => (p i).y) (fun i => (p i).z) nbrs hnd hsymm
+      (fun i acc j => pair_VI_ClearyArtificialViscosity o k self_alpha self_factor acc (p i) (p j)) (fun s => s.d_av) (fun s => s.d_aw) init
+      (fun i => (hinit i).2.1) (fun i => (hinit i).2.2)
+      (fun i j acc acc' => (additive_VI_ClearyArtificialViscosity o k self_alpha self_factor acc acc' (p i) (p j)).2.1)
+      (fun i j acc acc' => (additive_VI_ClearyArtificialViscosity o k self_alpha self_factor acc acc' (p i) (p j)).2.2)
+      (fun i j acc acc' => (pair_antisym_VI_ClearyArtificialViscosity o k hk self_alpha self_factor acc acc' (p i) (p j)).2.1)
+      (fun i j acc acc' => (pair_antisym_VI_ClearyArtificialViscosity o k hk self_alpha self_factor acc acc' (p i) (p j)).2.2)
+      (fun i j acc => (central_VI_ClearyArtificialViscosity o k hk self_alpha self_factor acc (p i) (p j)).2.1)
+  · exact angular_momentum_of_pair (fun i => (p i).m) (fun i => (p i).z) (fun i => (p i).x) nbrs hnd hsymm
+      (fun i acc j => pair_VI_ClearyArtificialViscosity o k self_alpha self_factor acc (p i) (p j)) (fun s => s.d_aw) (fun s => s.d_au) init
+      (fun i => (hinit i).2.2) (fun i => (hinit i).1)
+      (fun i j acc acc' => (additive_VI_ClearyArtificialViscosity o k self_alpha self_factor acc acc' (p i) (p j)).2.2)
+      (fun i j acc acc' => (additive_VI_ClearyArtificialViscosity o k self_alpha self_factor acc acc' (p i) (p j)).1)
+      (fun i j acc acc' => (pair_antisym_VI_ClearyArtificialViscosity o k hk self_alpha self_factor acc acc' (p i) (p j)).2.2)
+      (fun i j acc acc' => (pair_antisym_VI_ClearyArtificialViscosity o k hk self_alpha self_factor acc acc' (p i) (p j)).1)
+      (fun i j acc => (central_VI_ClearyArtificialViscosity o k hk self_alpha self_factor acc (p i) (p j)).2.2)
+
+end VI_ClearyArtificialViscosity
+
+/-! ## `pysph/sph/wc/viscosity.py.LaminarViscosityDeltaSPH` (VI_LaminarViscosityDeltaSPH) -/
+section VI_LaminarViscosityDeltaSPH
+variable (o : Ops K) (k : Kern K) {w g : K → K → K} (hk : Radial k w g) (self_dim : K) (self_nu : K) (self_rho0 : K)
+
+/-- the contribution of a pair to the accumulated acceleration does not depend on the accumulator -/
+theorem additive_VI_LaminarViscosityDeltaSPH (acc acc' : Out_VI_LaminarViscosityDeltaSPH K) (a b : P K) :
+    ((pair_VI_LaminarViscosityDeltaSPH o k self_dim self_nu self_rho0 acc a b).d_au - acc.d_au) = ((pair_VI_LaminarViscosityDeltaSPH o k self_dim self_nu self_rho0 acc' a b).d_au - acc'.d_au) ∧
+    ((pair_VI_LaminarViscosityDeltaSPH o k self_dim self_nu self_rho0 acc a b).d_av - acc.d_av) = ((pair_VI_LaminarViscosityDeltaSPH o k self_dim self_nu self_rho0 acc' a b).d_av - acc'.d_av) ∧
+    ((pair_VI_LaminarViscosityDeltaSPH o k self_dim self_nu self_rho0 acc a b).d_aw - acc.d_aw) = ((pair_VI_LaminarViscosityDeltaSPH o k self_dim self_nu self_rho0 acc' a b).d_aw - acc'.d_aw) := by
+  refine ⟨?_, ?_, ?_⟩ <;>
+  · simp only [pair_VI_LaminarViscosityDeltaSPH]
+    c09_atoms o k a b
+    simp only [loop_VI_LaminarViscosityDeltaSPH]
+    c09_norm
+    c09_close
+
+/-- `m_a · contrib(a, b) = −(m_b · contrib(b, a))`, component by component -/
+include hk in
+theorem pair_antisym_VI_LaminarViscosityDeltaSPH (acc acc' : Out_VI_LaminarViscosityDeltaSPH K) (a b : P K) :
+    a.m * ((pair_VI_LaminarViscosityDeltaSPH o k self_dim self_nu self_rho0 acc a b).d_au - acc.d_au) = -(b.m * ((pair_VI_LaminarViscosityDeltaSPH o k self_dim self_nu self_rho0 acc' b a).d_au - acc'.d_au)) ∧
+    a.m * ((pair_VI_LaminarViscosityDeltaSPH o k self_dim self_nu self_rho0 acc a b).d_av - acc.d_av) = -(b.m * ((pair_VI_LaminarViscosityDeltaSPH o k self_dim self_nu self_rho0 acc' b a).d_av - acc'.d_av)) ∧
+    a.m * ((pair_VI_LaminarViscosityDeltaSPH o k self_dim self_nu self_rho0 acc a b).d_aw - acc.d_aw) = -(b.m * ((pair_VI_LaminarViscosityDeltaSPH o k self_dim self_nu self_rho0 acc' b a).d_aw - acc'.d_aw)) := by
+  refine ⟨?_, ?_, ?_⟩ <;>
+  · simp only [pair_VI_LaminarViscosityDeltaSPH]
+    c09_swap o k a b hk
+    c09_atoms o k a b
+    simp only [loop_VI_LaminarViscosityDeltaSPH]
+    c09_norm
+    c09_close
+
+/-- the pair contribution is parallel to the separation `x_a − x_b` (cross product zero) -/
+include hk in
+theorem central_VI_LaminarViscosityDeltaSPH (acc : Out_VI_LaminarViscosityDeltaSPH K) (a b : P K) :
+    (a.x - b.x) * ((pair_VI_LaminarViscosityDeltaSPH o k self_dim self_nu self_rho0 acc a b).d_av - acc.d_av) = (a.y - b.y) * ((pair_VI_LaminarViscosityDeltaSPH o k self_dim self_nu self_rho0 acc a b).d_au - acc.d_au) ∧
+    (a.y - b.y) * ((pair_VI_LaminarViscosityDeltaSPH o k self_dim self_nu self_rho0 acc a b).d_aw - acc.d_aw) = (a.z - b.z) * ((pair_VI_LaminarViscosityDeltaSPH o k self_dim self_nu self_rho0 acc a b).d_av - acc.d_av) ∧
+    (a.z - b.z) * ((pair_VI_LaminarViscosityDeltaSPH o k self_dim self_nu self_rho0 acc a b).d_au - acc.d_au) = (a.x - b.x) * ((pair_VI_LaminarViscosityDeltaSPH o k self_dim self_nu self_rho0 acc a b).d_aw - acc.d_aw) := by
+  refine ⟨?_, ?_, ?_⟩ <;>
+  · simp only [pair_VI_LaminarViscosityDeltaSPH]
+    c09_shape o k a b hk
+    c09_atoms o k a b
+    simp only [loop_VI_LaminarViscosityDeltaSPH]
+    c09_norm
+    c09_close
+
+/-- closed system: evaluating the equation for every particle over a symmetric neighbour relation
+gives `Σ m a = 0` -/
+include hk in
+theorem linear_momentum_VI_LaminarViscosityDeltaSPH {ι : Type} [Fintype ι] [DecidableEq ι] (p : ι → P K)
+    (nbrs : ι → List ι) (hnd : ∀ i, (nbrs i).Nodup) (hsymm : ∀ i j, j ∈ nbrs i → i ∈ nbrs j)
+    (init : ι → Out_VI_LaminarViscosityDeltaSPH K) (hinit : ∀ i, (init i).d_au = 0 ∧ (init i).d_av = 0 ∧ (init i).d_aw = 0) :
+    ∑ i, (p i).m * ((nbrs i).foldl (fun acc j => pair_VI_LaminarViscosityDeltaSPH o k self_dim self_nu self_rho0 acc (p i) (p j)) (init i)).d_au = 0 ∧
+    ∑ i, (p i).m * ((nbrs i).foldl (fun acc j => pair_VI_LaminarViscosityDeltaSPH o k self_dim self_nu self_rho0 acc (p i) (p j)) (init i)).d_av = 0 ∧
+    ∑ i, (p i).m * ((nbrs i).foldl (fun acc j => pair_VI_LaminarViscosityDeltaSPH o k self_dim self_nu self_rho0 acc (p i) (p j)) (init i)).d_aw = 0 := by
+  refine ⟨?_, ?_, ?_⟩
+  · exact linear_momentum_of_pair (fun i => (p i).m) nbrs hnd hsymm (fun i acc j => pair_VI_LaminarViscosityDeltaSPH o k self_dim self_nu self_rho0 acc (p i) (p j))
+      (fun s => s.d_au) init (fun i => (hinit i).1)
+      (fun i j acc acc' => (additive_VI_LaminarViscosityDeltaSPH o k self_dim self_nu self_rho0 acc acc' (p i) (p j)).1)
+      (fun i j acc acc' => (pair_antisym_VI_LaminarViscosityDeltaSPH o k hk self_dim self_nu self_rho0 acc acc' (p i) (p j)).1)
+  · exact linear_momentum_of_pair (fun i => (p i).m) nbrs hnd hsymm (fun i acc j => pair_VI_LaminarViscosityDeltaSPH o k self_dim self_nu self_rho0 acc (p i) (p j))
+      (fun s => s.d_av) init (fun i => (hinit i).2.1)
+      (fun i j acc acc' => (additive_VI_LaminarViscosityDeltaSPH o k self_dim self_nu self_rho0 acc acc' (p i) (p j)).2.1)
+      (fun i j acc acc' => (pair_antisym_VI_LaminarViscosityDeltaSPH o k hk self_dim self_nu self_rho0 acc acc' (p i) (p j)).2.1)
+  · exact linear_momentum_of_pair (fun i => (p i).m) nbrs hnd hsymm (fun i acc j => pair_VI_LaminarViscosityDeltaSPH o k self_dim self_nu self_rho0 acc (p i) (p j))
+      (fun s => s.d_aw) init (fun i => (hinit i).2.2)
+      (fun i j acc acc' => (additive_VI_LaminarViscosityDeltaSPH o k self_dim self_nu self_rho0 acc acc' (p i) (p j)).2.2)
+      (fun i j acc acc' => (pair_antisym_VI_LaminarViscosityDeltaSPH o k hk self_dim self_nu self_rho0 acc acc' (p i) (p j)).2.2)
+
+/-- closed system: `Σ m x × a = 0` (three components) -/
+include hk in
+theorem angular_momentum_VI_LaminarViscosityDeltaSPH {ι : Type} [Fintype ι] [DecidableEq ι] (p : ι → P K)
+    (nbrs : ι → List ι) (hnd : ∀ i, (nbrs i).Nodup) (hsymm : ∀ i j, j ∈ nbrs i → i ∈ nbrs j)
+    (init : ι → Out_VI_LaminarViscosityDeltaSPH K) (hinit : ∀ i, (init i).d_au = 0 ∧ (init i).d_av = 0 ∧ (init i).d_aw = 0) :
+    (∑ i, (p i).m * ((p i).x * ((nbrs i).foldl (fun acc j => pair_VI_LaminarViscosityDeltaSPH o k self_dim self_nu self_rho0 acc (p i) (p j)) (init i)).d_av - (p i).y * ((nbrs i).foldl (fun acc j => pair_VI_LaminarViscosityDeltaSPH o k self_dim self_nu self_rho0 acc (p i) (p j)) (init i)).d_au) = 0) ∧
+    (∑ i, (p i).m * ((p i).y * ((nbrs i).foldl (fun acc j => pair_VI_LaminarViscosityDeltaSPH o k self_dim self_nu self_rho0 acc (p i) (p j)) (init i)).d_aw - (p i).z * ((nbrs i).foldl (fun acc j => pair_VI_LaminarViscosityDeltaSPH o k self_dim self_nu self_rho0 acc (p i) (p j)) (init i)).d_av) = 0) ∧
+    (∑ i, (p i).m * ((p i).z * ((nbrs i).foldl (fun acc j => pair_VI_LaminarViscosityDeltaSPH o k self_dim self_nu self_rho0 acc (p i) (p j)) (init i)).d_au - (p i).x * ((nbrs i).foldl (fun acc j => pair_VI_LaminarViscosityDeltaSPH o k self_dim self_nu self_rho0 acc (p i) (p j)) (init i)).d_aw) = 0) := by
+  refine ⟨?_, ?_, ?_⟩
+  · exact angular_momentum_of_pair (fun i => (p i).m) (fun i => (p i).x) (fun i => (p i).y) nbrs hnd hsymm
+      (fun i acc j => pair_VI_LaminarViscosityDeltaSPH o k self_dim self_nu self_rho0 acc (p i) (p j)) (fun s => s.d_au) (fun s => s.d_av) init
+      (fun i => (hinit i).1) (fun i => (hinit i).2.1)
+      (fun i j acc acc' => (additive_VI_LaminarViscosityDeltaSPH o k self_dim self_nu self_rho0 acc acc' (p i) (p j)).1)
+      (fun i j acc acc' => (additive_VI_LaminarViscosityDeltaSPH o k self_dim self_nu self_rho0 acc acc' (p i) (p j)).2.1)
+      (fun i j acc acc' => (pair_antisym_VI_LaminarViscosityDeltaSPH o k hk self_dim self_nu self_rho0 acc acc' (p i) (p j)).1)
+      (fun i j acc acc' => (pair_antisym_VI_LaminarViscosityDeltaSPH o k hk self_dim self_nu self_rho0 acc acc' (p i) (p j)).2.1)
+      (fun i j acc => (central_VI_LaminarViscosityDeltaSPH o k hk self_dim self_nu self_rho0 acc (p i) (p j)).1)
+  · exact angular_momentum_of_pair (fun i => (p i).m) (fun i => (p i).y) (fun i => (p i).z) nbrs hnd hsymm
+      (fun i acc j => pair_VI_LaminarViscosityDeltaSPH o k self_dim self_nu self_rho0 acc (p i) (p j)) (fun s => s.d_av) (fun s => s.d_aw) init
+      (fun i => (hinit i).2.1) (fun i => (hinit i).2.2)
+      (fun i j acc acc' => (additive_VI_LaminarViscosityDeltaSPH o k self_dim self_nu self_rho0 acc acc' (p i) (p j)).2.1)
+      (fun i j acc acc' => (additive_VI_LaminarViscosityDeltaSPH o k self_dim self_nu self_rho0 acc acc' (p i) (p j)).2.2)
+      (fun i j acc acc' => (pair_antisym_VI_LaminarViscosityDeltaSPH o k hk self_dim self_nu self_rho0 acc acc' (p i) (p j)).2.1)
+      (fun i j acc acc' => (pair_antisym_VI_LaminarViscosityDeltaSPH o k hk self_dim self_nu self_rho0 acc acc' (p i) (p j)).2.2)
+      (fun i j acc => (central_VI_LaminarViscosityDeltaSPH o k hk self_dim self_nu self_rho0 acc (p i) (p j)).2.1)
+  · exact angular_momentum_of_pair (fun i => (p i).m) (fun i => (p i).z) (fun i => (p i).x) nbrs hnd hsymm
+      (fun i acc j => pair_VI_LaminarViscosityDeltaSPH o k self_dim self_nu self_rho0 acc (p i) (p j)) (fun s => s.d_aw) (fun s => s.d_au) init
+      (fun i => (hinit i).2.2) (fun i => (hinit i).1)
+      (fun i j acc acc' => (additive_VI_LaminarViscosityDeltaSPH o k self_dim self_nu self_rho0 acc acc' (p i) (p j)).2.2)
+      (fun i j acc acc' => (additive_VI_LaminarViscosityDeltaSPH o k self_dim self_nu self_rho0 acc acc' (p i) (p j)).1)
+      (fun i j acc acc' => (pair_antisym_VI_LaminarViscosityDeltaSPH o k hk self_dim self_nu self_rho0 acc acc' (p i) (p j)).2.2)
+      (fun i j acc acc' => (pair_antisym_VI_LaminarViscosityDeltaSPH o k hk self_dim self_nu self_rho0 acc acc' (p i) (p j)).1)
+      (fun i j acc => (central_VI_LaminarViscosityDeltaSPH o k hk self_dim self_nu self_rho0 acc (p i) (p j)).2.2)
+
+end VI_LaminarViscosityDeltaSPH
+
+/-! ## `pysph/sph/gas_dynamics/basic.py.Monaghan92Accelerations` (GD_Monaghan92Accelerations) -/
+section GD_Monaghan92Accelerations
+variable (o : Ops K) (k : Kern K) {w g : K → K → K} (hk : Radial k w g) (self_alpha : K) (self_beta : K)
+
+/-- the contribution of a pair to the accumulated acceleration does not depend on the accumulator -/
+theorem additive_GD_Monaghan92Accelerations (acc acc' : Out_GD_Monaghan92Accelerations K) (a b : P K) :
+    ((pair_GD_Monaghan92Accelerations o k self_alpha self_beta acc a b).d_au - acc.d_au) = ((pair_GD_Monaghan92Accelerations o k self_alpha self_beta acc' a b).d_au - acc'.d_au) ∧
+    ((pair_GD_Monaghan92Accelerations o k self_alpha self_beta acc a b).d_av - acc.d_av) = ((pair_GD_Monaghan92Accelerations o k self_alpha self_beta acc' a b).d_av - acc'.d_av) ∧
+    ((pair_GD_Monaghan92Accelerations o k self_alpha self_beta acc a b).d_aw - acc.d_aw) = ((pair_GD_Monaghan92Accelerations o k self_alpha self_beta acc' a b).d_aw - acc'.d_aw) := by
+  refine ⟨?_, ?_, ?_⟩ <;>
+  · simp only [pair_GD_Monaghan92Accelerations]
+    c09_atoms o k a b
+    simp only [loop_GD_Monaghan92Accelerations]
+    c09_norm
+    c09_close
+
+/-- `m_a · contrib(a, b) = −(m_b · contrib(b, a))`, component by component -/
+include hk in
+theorem pair_antisym_GD_Monaghan92Accelerations (acc acc' : Out_GD_Monaghan92Accelerations K) (a b : P K) :
+    a.m * ((pair_GD_Monaghan92Accelerations o k self_alpha self_beta acc a b).d_au - acc.d_au) = -(b.m * ((pair_GD_Monaghan92Accelerations o k self_alpha self_beta acc' b a).d_au - acc'.d_au)) ∧
+    a.m * ((pair_GD_Monaghan92Accelerations o k self_alpha self_beta acc a b).d_av - acc.d_av) = -(b.m * ((pair_GD_Monaghan92Accelerations o k self_alpha self_beta acc' b a).d_av - acc'.d_av)) ∧
+    a.m * ((pair_GD_Monaghan92Accelerations o k self_alpha self_beta acc a b).d_aw - acc.d_aw) = -(b.m * ((pair_GD_Monaghan92Accelerations o k self_alpha self_beta acc' b a).d_aw - acc'.d_aw)) := by
+  refine ⟨?_, ?_, ?_⟩ <;>
+  · simp only [pair_GD_Monaghan92Accelerations]
+    c09_swap o k a b hk
+    c09_atoms o k a b
+    simp only [loop_GD_Monaghan92Accelerations]
+    c09_norm
+    c09_close
+
+/-- the pair contribution is parallel to the separation `x_a − x_b` (cross product zero) -/
+include hk in
+theorem central_GD_Monaghan92Accelerations (acc : Out_GD_Monaghan92Accelerations K) (a b : P K) :
+    (a.x - b.x) * ((pair_GD_Monaghan92Accelerations o k self_alpha self_beta acc a b).d_av - acc.d_av) = (a.y - b.y) * ((pair_GD_Monaghan92Accelerations o k self_alpha self_beta acc a b).d_au - acc.d_au) ∧
+    (a.y - b.y) * ((pair_GD_Monaghan92Accelerations o k self_alpha self_beta acc a b).d_aw - acc.d_aw) = (a.z - b.z) * ((pair_GD_Monaghan92Accelerations o k self_alpha self_beta acc a b).d_av - acc.d_av) ∧
+    (a.z - b.z) * ((pair_GD_Monaghan92Accelerations o k self_alpha self_beta acc a b).d_au - acc.d_au) = (a.x - b.x) * ((pair_GD_Monaghan92Accelerations o k self_alpha self_beta acc a b).d_aw - acc.d_aw) := by
+  refine ⟨?_, ?_, ?_⟩ <;>
+  · simp only [pair_GD_Monaghan92Accelerations]
+    c09_shape o k a b hk
+    c09_atoms o k a b
+    simp only [loop_GD_Monaghan92Accelerations]
+    c09_norm
+    c09_close
+
+/-- closed system: evaluating the equation for every particle over a symmetric neighbour relation
+gives `Σ m a = 0` -/
+include hk in
+theorem linear_momentum_GD_Monaghan92Accelerations {ι : Type} [Fintype ι] [DecidableEq ι] (p : ι → P K)
+    (nbrs : ι → List ι) (hnd : ∀ i, (nbrs i).Nodup) (hsymm : ∀ i j, j ∈ nbrs i → i ∈ nbrs j)
+    (init : ι → Out_GD_Monaghan92Accelerations K) (hinit : ∀ i, (init i).d_au = 0 ∧ (init i).d_av = 0 ∧ (init i).d_aw = 0) :
+    ∑ i, (p i).m * ((nbrs i).foldl (fun acc j => pair_GD_Monaghan92Accelerations o k self_alpha self_beta acc (p i) (p j)) (init i)).d_au = 0 ∧
+    ∑ i, (p i).m * ((nbrs i).foldl (fun acc j => pair_GD_Monaghan92Accelerations o k self_alpha self_beta acc (p i) (p j)) (init i)).d_av = 0 ∧
+    ∑ i, (p i).m * ((nbrs i).foldl (fun acc j => pair_GD_Monaghan92Accelerations o k self_alpha self_beta acc (p i) (p j)) (init i)).d_aw = 0 := by
+  refine ⟨?_, ?_, ?_⟩
+  · exact linear_momentum_of_pair (fun i => (p i).m) nbrs hnd hsymm (fun i acc j => pair_GD_Monaghan92Accelerations o k self_alpha self_beta acc (p i) (p j))
+      (fun s => s.d_au) init (fun i => (hinit i).1)
+      (fun i j acc acc' => (additive_GD_Monaghan92Accelerations o k self_alpha self_beta acc acc' (p i) (p j)).1)
+      (fun i j acc acc' => (pair_antisym_GD_Monaghan92Accelerations o k hk self_alpha self_beta acc acc' (p i) (p j)).1)
+  · exact linear_momentum_of_pair (fun i => (p i).m) nbrs hnd hsymm (fun i acc j => pair_GD_Monaghan92Accelerations o k self_alpha self_beta acc (p i) (p j))
+      (fun s => s.d_av) init (fun i => (hinit i).2.1)
+      (fun i j acc acc' => (additive_GD_Monaghan92Accelerations o k self_alpha self_beta acc acc' (p i) (p j)).2.1)
+      (fun i j acc acc' => (pair_antisym_GD_Monaghan92Accelerations o k hk self_alpha self_beta acc acc' (p i) (p j)).2.1)
+  · exact linear_momentum_of_pair (fun i => (p i).m) nbrs hnd hsymm (fun i acc j => pair_GD_Monaghan92Accelerations o k self_alpha self_beta acc (p i) (p j))
+      (fun s => s.d_aw) init (fun i => (hinit i).2.2)
+      (fun i j acc acc' => (additive_GD_Monaghan92Accelerations o k self_alpha self_beta acc acc' (p i) (p j)).2.2)
+      (fun i j acc acc' => (pair_antisym_GD_Monaghan92Accelerations o k hk self_alpha self_beta acc acc' (p i) (p j)).2.2)
+
+/-- closed system: `Σ m x × a = 0` (three components) -/
+include hk in
+theorem angular_momentum_GD_Monaghan92Accelerations {ι : Type} [Fintype ι] [DecidableEq ι] (p : ι → P K)
+    (nbrs : ι → List ι) (hnd : ∀ i, (nbrs i).Nodup) (hsymm : ∀ i j, j ∈ nbrs i → i ∈ nbrs j)
+    (init : ι → Out_GD_Monaghan92Accelerations K) (hinit : ∀ i, (init i).d_au = 0 ∧ (init i).d_av = 0 ∧ (init i).d_aw = 0) :
+    (∑ i, (p i).m * ((p i).x * ((nbrs i).foldl (fun acc j => pair_GD_Monaghan92Accelerations o k self_alpha self_beta acc (p i) (p j)) (init i)).d_av - (p i).y * ((nbrs i).foldl (fun acc j => pair_GD_Monaghan92Accelerations o k self_alpha self_beta acc (p i) (p j)) (init i)).d_au) = 0) ∧
+    (∑ i, (p i).m * ((p i).y * ((nbrs i).foldl (fun acc j => pair_GD_Monaghan92Accelerations o k self_alpha self_beta acc (p i) (p j)) (init i)).d_aw - (p i).z * ((nbrs i).foldl (fun acc j => pair_GD_Monaghan92Accelerations o k self_alpha self_beta acc (p i) (p j)) (init i)).d_av) = 0) ∧
+    (∑ i, (p i).m * ((p i).z * ((nbrs i).foldl (fun acc j => pair_GD_Monaghan92Accelerations o k self_alpha self_beta acc (p i) (p j)) (init i)).d_au - (p i).x * ((nbrs i).foldl (fun acc j => pair_GD_Monaghan92Accelerations o k self_alpha self_beta acc (p i) (p j)) (init i)).d_aw) = 0) := by
+  refine ⟨?_, ?_, ?_⟩
+  · exact angular_momentum_of_pair (fun i => (p i).m) (fun i => (p i).x) (fun i => (p i).y) nbrs hnd hsymm
+      (fun i acc j => pair_GD_Monaghan92Accelerations o k self_alpha self_beta acc (p i) (p j)) (fun s => s.d_au) (fun s => s.d_av) init
+      (fun i => (hinit i).1) (fun i => (hinit i).2.1)
+      (fun i j acc acc' => (additive_GD_Monaghan92Accelerations o k self_alpha self_beta acc acc' (p i) (p j)).1)
+      (fun i j acc acc' => (additive_GD_Monaghan92Accelerations o k self_alpha self_beta acc acc' (p i) (p j)).2.1)
+      (fun i j acc acc' => (pair_antisym_GD_Monaghan92Accelerations o k hk self_alpha self_beta acc acc' (p i) (p j)).1)
+      (fun i j acc acc' => (pair_antisym_GD_Monaghan92Accelerations o k hk self_alpha self_beta acc acc' (p i) (p j)).2.1)
+      (fun i j acc => (central_GD_Monaghan92Accelerations o k hk self_alpha self_beta acc (p i) (p j)).1)
+  · exact angular_momentum_of_pair (fun i => (p i).m) (fun i => (p i).y) (fun i => (p i).z) nbrs hnd hsymm
+      (fun i acc j => pair_GD_Monaghan92Accelerations o k self_alpha self_beta acc (p i) (p j)) (fun s => s.d_av) (fun s => s.d_aw) init
+      (fun i => (hinit i).2.1) (fun i => (hinit i).2.2)
+      (fun i j acc acc' => (additive_GD_Monaghan92Accelerations o k self_alpha self_beta acc acc' (p i) (p j)).2.1)
+      (fun i j acc acc' => (additive_GD_Monaghan92Accelerations o k self_alpha self_beta acc acc' (p i) (p j)).2.2)
+      (fun i j acc acc' => (pair_antisym_GD_Monaghan92Accelerations o k hk self_alpha self_beta acc acc' (p i) (p j)).2.1)
+      (fun i j acc acc' => (pair_antisym_GD_Monaghan92Accelerations o k hk self_alpha self_beta acc acc' (p i) (p j)).2.2)
+      (fun i j acc => (central_GD_Monaghan92Accelerations o k hk self_alpha self_beta acc (p i) (p j)).2.1)
+  · exact angular_momentum_of_pair (fun i => (p i).m) (fun i => (p i).z) (fun i => (p i).x) nbrs hnd hsymm
+      (fun i acc j => pair_GD_Monaghan92Accelerations o k self_alpha self_beta acc (p i) (p j)) (fun s => s.d_aw) (fun s => s.d_au) init
+      (fun i => (hinit i).2.2) (fun i => (hinit i).1)
+      (fun i j acc acc' => (additive_GD_Monaghan92Accelerations o k self_alpha self_beta acc acc' (p i) (p j)).2.2)
+      (fun i j acc acc' => (additive_GD_Monaghan92Accelerations o k self_alpha self_beta acc acc' (p i) (p j)).1)
+      (fun i j acc acc' => (pair_antisym_GD_Monaghan92Accelerations o k hk self_alpha self_beta acc acc' (p i) (p j)).2.2)
+      (fun i j acc acc' => (pair_antisym_GD_Monaghan92Accelerations o k hk self_alpha self_beta acc acc' (p i) (p j)).1)
+      (fun i j acc => (central_GD_Monaghan92Accelerations o k hk self_alpha self_beta acc (p i) (p j)).2.2)
+
+end GD_Monaghan92Accelerations
+
+/-! ## `pysph/sph/gas_dynamics/basic.py.ADKEAccelerations` (GD_ADKEAccelerations) -/
+section GD_ADKEAccelerations
+variable (o : Ops K) (k : Kern K) {w g : K → K → K} (hk : Radial k w g) (self_alpha : K) (self_beta : K) (self_g1 : K) (self_g2 : K)
+
+/-- the contribution of a pair to the accumulated acceleration does not depend on the accumulator -/
+theorem additive_GD_ADKEAccelerations (acc acc' : Out_GD_ADKEAccelerations K) (a b : P K) :
+    ((pair_GD_ADKEAccelerations o k self_alpha self_beta self_g1 self_g2 acc a b).d_au - acc.d_au) = ((pair_GD_ADKEAccelerations o k self_alpha self_beta self_g1 self_g2 acc' a b).d_au - acc'.d_au) ∧
+    ((pair_GD_ADKEAccelerations o k self_alpha self_beta self_g1 self_g2 acc a b).d_av - acc.d_av) = ((pair_GD_ADKEAccelerations o k self_alpha self_beta self_g1 self_g2 acc' a b).d_av - acc'.d_av) ∧
+    ((pair_GD_ADKEAccelerations o k self_alpha self_beta self_g1 self_g2 acc a b).d_aw - acc.d_aw) = ((pair_GD_ADKEAccelerations o k self_alpha self_beta self_g1 self_g2 acc' a b).d_aw - acc'.d_aw) := by
+  refine ⟨?_, ?_, ?_⟩ <;>
+  · simp only [pair_GD_ADKEAccelerations]
+    c09_atoms o k a b
+    simp only [loop_GD_ADKEAccelerations]
+    c09_norm
+    c09_close
+
+/-- `m_a · contrib(a, b) = −(m_b · contrib(b, a))`, component by component -/
+include hk in
+theorem pair_antisym_GD_ADKEAccelerations (acc acc' : Out_GD_ADKEAccelerations K) (a b : P K) :
+    a.m * ((pair_GD_ADKEAccelerations o k self_alpha self_beta self_g1 self_g2 acc a b).d_au - acc.d_au) = -(b.m * ((pair_GD_ADKEAccelerations o k self_alpha self_beta self_g1 self_g2 acc' b a).d_au - acc'.d_au)) ∧
+    a.m * ((pair_GD_ADKEAccelerations o k self_alpha self_beta self_g1 self_g2 acc a b).d_av - acc.d_av) = -(b.m * ((pair_GD_ADKEAccelerations o k self_alpha self_beta self_g1 self_g2 acc' b a).d_av - acc'.d_av)) ∧
+    a.m * ((pair_GD_ADKEAccelerations o k self_alpha self_beta self_g1 self_g2 acc a b).d_aw - acc.d_aw) = -(b.m * ((pair_GD_ADKEAccelerations o k self_alpha self_beta self_g1 self_g2 acc' b a).d_aw - acc'.d_aw)) := by
+  refine ⟨?_, ?_, ?_⟩ <;>
+  · simp only [pair_GD_ADKEAccelerations]
+    c09_swap o k a b hk
+    c09_atoms o k a b
+    simp only [loop_GD_ADKEAccelerations]
+    c09_norm
+    c09_close
+
+/-- the pair contribution is parallel to the separation `x_a − x_b` (cross product zero) -/
+include hk in
+theorem central_GD_ADKEAccelerations (acc : Out_GD_ADKEAccelerations K) (a b : P K) :
+    (a.x - b.x) * ((pair_GD_ADKEAccelerations o k self_alpha self_beta self_g1 self_g2 acc a b).d_av - acc.d_av) = (a.y - b.y) * ((pair_GD_ADKEAccelerations o k self_alpha self_beta self_g1 self_g2 acc a b).d_au - acc.d_au) ∧
+    (a.y - b.y) * ((pair_GD_ADKEAccelerations o k self_alpha self_beta self_g1 self_g2 acc a b).d_aw - acc.d_aw) = (a.z - b.z) * ((pair_GD_ADKEAccelerations o k self_alpha self_beta self_g1 self_g2 acc a b).d_av - acc.d_av) ∧
+    (a.z - b.z) * ((pair_GD_ADKEAccelerations o k self_alpha self_beta self_g1 self_g2 acc a b).d_au - acc.d_au) = (a.x - b.x) * ((pair_GD_ADKEAccelerations o k self_alpha self_beta self_g1 self_g2 acc a b).d_aw - acc.d_aw) := by
+  refine ⟨?_, ?_, ?_⟩ <;>
+  · simp only [pair_GD_ADKEAccelerations]
+    c09_shape o k a b hk
+    c09_atoms o k a b
+    simp only [loop_GD_ADKEAccelerations]
+    c09_norm
+    c09_close
+
+/-- closed system: evaluating the equation for every particle over a symmetric neighbour relation
+gives `Σ m a = 0` -/
+include hk in
+theorem linear_momentum_GD_ADKEAccelerations {ι : Type} [Fintype ι] [DecidableEq ι] (p : ι → P K)
+    (nbrs : ι → List ι) (hnd : ∀ i, (nbrs i).Nodup) (hsymm : ∀ i j, j ∈ nbrs i → i ∈ nbrs j)
+    (init : ι → Out_GD_ADKEAccelerations K) (hinit : ∀ i, (init i).d_au = 0 ∧ (init i).d_av = 0 ∧ (init i).d_aw = 0) :
+    ∑ i, (p i).m * ((nbrs i).foldl (fun acc j => pair_GD_ADKEAccelerations o k self_alpha self_beta self_g1 self_g2 acc (p i) (p j)) (init i)).d_au = 0 ∧
+    ∑ i, (p i).m * ((nbrs i).foldl (fun acc j => pair_GD_ADKEAccelerations o k self_alpha self_beta self_g1 self_g2 acc (p i) (p j)) (init i)).d_av = 0 ∧
+    ∑ i, (p i).m * ((nbrs i).foldl (fun acc j => pair_GD_ADKEAccelerations o k self_alpha self_beta self_g1 self_g2 acc (p i) (p j)) (init i)).d_aw = 0 := by
+  refine ⟨?_, ?_, ?_⟩
+  · exact linear_momentum_of_pair (fun i => (p i).m) nbrs hnd hsymm (fun i acc j => pair_GD_ADKEAccelerations o k self_alpha self_beta self_g1 self_g2 acc (p i) (p j))
+      (fun s => s.d_au) init (fun i => (hinit i).1)
+      (fun i j acc acc' => (additive_GD_ADKEAccelerations o k self_alpha self_beta self_g1 self_g2 acc acc' (p i) (p j)).1)
+      (fun i j acc acc' => (pair_antisym_GD_ADKEAccelerations o k hk self_alpha self_beta self_g1 self_g2 acc acc' (p i) (p j)).1)
+  · exact linear_momentum_of_pair (fun i => (p i).m) nbrs hnd hsymm (fun i acc j => pair_GD_ADKEAccelerations o k self_alpha self_beta self_g1 self_g2 acc (p i) (p j))
+      (fun s => s.d_av) init (fun i => (hinit i).2.1)
+      (fun i j acc acc' => (additive_GD_ADKEAccelerations o k self_alpha self_beta self_g1 self_g2 acc acc' (p i) (p j)).2.1)
+      (fun i j acc acc' => (pair_antisym_GD_ADKEAccelerations o k hk self_alpha self_beta self_g1 self_g2 acc acc' (p i) (p j)).2.1)
+  · exact linear_momentum_of_pair (fun i => (p i).m) nbrs hnd hsymm (fun i acc j => pair_GD_ADKEAccelerations o k self_alpha self_beta self_g1 self_g2 acc (p i) (p j))
+      (fun s => s.d_aw) init (fun i => (hinit i).2.2)
+      (fun i j acc acc' => (additive_GD_ADKEAccelerations o k self_alpha self_beta self_g1 self_g2 acc acc' (p i) (p j)).2.2)
+      (fun i j acc acc' => (pair_antisym_GD_ADKEAccelerations o k hk self_alpha self_beta self_g1 self_g2 acc acc' (p i) (p j)).2.2)
+
+/-- closed system: `Σ m x × a = 0` (three components) -/
+include hk in
+theorem angular_momentum_GD_ADKEAccelerations {ι : Type} [Fintype ι] [DecidableEq ι] (p : ι → P K)
+    (nbrs : ι → List ι) (hnd : ∀ i, (nbrs i).Nodup) (hsymm : ∀ i j, j ∈ nbrs i → i ∈ nbrs j)
+    (init : ι → Out_GD_ADKEAccelerations K) (hinit : ∀ i, (init i).d_au = 0 ∧ (init i).d_av = 0 ∧ (init i).d_aw = 0) :
+    (∑ i, (p i).m * ((p i).x * ((nbrs i).foldl (fun acc j => pair_GD_ADKEAccelerations o k self_alpha self_beta self_g1 self_g2 acc (p i) (p j)) (init i)).d_av - (p i).y * ((nbrs i).foldl (fun acc j => pair_GD_ADKEAccelerations o k self_alpha self_beta self_g1 self_g2 acc (p i) (p j)) (init i)).d_au) = 0) ∧
+    (∑ i, (p i).m * ((p i).y * ((nbrs i).foldl (fun acc j => pair_GD_ADKEAccelerations o k self_alpha self_beta self_g1 self_g2 acc (p i) (p j)) (init i)).d_aw - (p i).z * ((nbrs i).foldl (fun acc j => pair_GD_ADKEAccelerations o k self_alpha self_beta self_g1 self_g2 acc (p i) (p j)) (init i)).d_av) = 0) ∧
+    (∑ i, (p i).m * ((p i).z * ((nbrs i).foldl (fun acc j => pair_GD_ADKEAccelerations o k self_alpha self_beta self_g1 self_g2 acc (p i) (p j)) (init i)).d_au - (p i).x * ((nbrs i).foldl (fun acc j => pair_GD_ADKEAccelerations o k self_alpha self_beta self_g1 self_g2 acc (p i) (p j)) (init i)).d_aw) = 0) := by
+  refine ⟨?_, ?_, ?_⟩
+  · exact angular_momentum_of_pair (fun i => (p i).m) (fun i => (p i).x) (fun i => (p i).y) nbrs hnd hsymm
+      (fun i acc j => pair_GD_ADKEAccelerations o k self_alpha self_beta self_g1 self_g2 acc (p i) (p j)) (fun s => s.d_au) (fun s => s.d_av) init
+      (fun i => (hinit i).1) (fun i => (hinit i).2.1)
+      (fun i j acc acc' => (additive_GD_ADKEAccelerations o k self_alpha self_beta self_g1 self_g2 acc acc' (p i) (p j)).1)
+      (fun i j acc acc' => (additive_GD_ADKEAccelerations o k self_alpha self_beta self_g1 self_g2 acc acc' (p i) (p j)).2.1)
+      (fun i j acc acc' => (pair_antisym_GD_ADKEAccelerations o k hk self_alpha self_beta self_g1 self_g2 acc acc' (p i) (p j)).1)
+      (fun i j acc acc' => (pair_antisym_GD_ADKEAccelerations o k hk self_alpha self_beta self_g1 self_g2 acc acc' (p i) (p j)).2.1)
+      (fun i j acc => (central_GD_ADKEAccelerations o k hk self_alpha self_beta self_g1 self_g2 acc (p i) (p j)).1)
+  · exact angular_momentum_of_pair (fun i => (p i).m) (fun i => (p i).y) (fun i => (p i).z) nbrs hnd hsymm
+      (fun i acc j => pair_GD_ADKEAccelerations o k self_alpha self_beta self_g1 self_g2 acc (p i) (p j)) (fun s => s.d_av) (fun s => s.d_aw) init
+      (fun i => (hinit i).2.1) (fun i => (hinit i).2.2)
+      (fun i j acc acc' => (additive_GD_ADKEAccelerations o k self_alpha self_beta self_g1 self_g2 acc acc' (p i) (p j)).2.1)
+      (fun i j acc acc' => (additive_GD_ADKEAccelerations o k self_alpha self_beta self_g1 self_g2 acc acc' (p i) (p j)).2.2)
+      (fun i j acc acc' => (pair_antisym_GD_ADKEAccelerations o k hk self_alpha self_beta self_g1 self_g2 acc acc' (p i) (p j)).2.1)
+      (fun i j acc acc' => (pair_antisym_GD_ADKEAccelerations o k hk self_alpha self_beta self_g1 self_g2 acc acc' (p i) (p j)).2.2)
+      (fun i j acc => (central_GD_ADKEAccelerations o k hk self_alpha self_beta self_g1 self_g2 acc (p i) (p j)).2.1)
+  · exact angular_momentum_of_pair (fun i => (p i).m) (fun i => (p i).z) (fun i => (p i).x) nbrs hnd hsymm
+      (fun i acc j => pair_GD_ADKEAccelerations o k self_alpha self_beta self_g1 self_g2 acc (p i) (p j)) (fun s => s.d_aw) (fun s => s.d_au) init
+      (fun i => (hinit i).2.2) (fun i => (hinit i).1)
+      (fun i j acc acc' => (additive_GD_ADKEAccelerations o k self_alpha self_beta self_g1 self_g2 acc acc' (p i) (p j)).2.2)
+      (fun i j acc acc' => (additive_GD_ADKEAccelerations o k self_alpha self_beta self_g1 self_g2 acc acc' (p i) (p j)).1)
+      (fun i j acc acc' => (pair_antisym_GD_ADKEAccelerations o k hk self_alpha self_beta self_g1 self_g2 acc acc' (p i) (p j)).2.2)
+      (fun i j acc acc' => (pair_antisym_GD_ADKEAccelerations o k hk self_alpha self_beta self_g1 self_g2 acc acc' (p i) (p j)).1)
+      (fun i j acc => (central_GD_ADKEAccelerations o k hk self_alpha self_beta self_g1 self_g2 acc (p i) (p j)).2.2)
+
+end GD_ADKEAccelerations
+
+/-! ## `pysph/sph/gas_dynamics/basic.py.MPMAccelerations` (GD_MPMAccelerations) -/
+section GD_MPMAccelerations
+variable (o : Ops K) (k : Kern K) {w g : K → K → K} (hk : Radial k w g) (self_beta : K)
+
+/-- the contribution of a pair to the accumulated acceleration does not depend on the accumulator -/
+theorem additive_GD_MPMAccelerations (acc acc' : Out_GD_MPMAccelerations K) (a b : P K) :
+    ((pair_GD_MPMAccelerations o k self_beta acc a b).d_au - acc.d_au) = ((pair_GD_MPMAccelerations o k self_beta acc' a b).d_au - acc'.d_au) ∧
+    ((pair_GD_MPMAccelerations o k self_beta acc a b).d_av - acc.d_av) = ((pair_GD_MPMAccelerations o k self_beta acc' a b).d_av - acc'.d_av) ∧
+    ((pair_GD_MPMAccelerations o k self_beta acc a b).d_aw - acc.d_aw) = ((pair_GD_MPMAccelerations o k self_beta acc' a b).d_aw - acc'.d_aw) := by
+  refine ⟨?_, ?_, ?_⟩ <;>
+  · simp only [pair_GD_MPMAccelerations]
+    c09_atoms o k a b
+    simp only [loop_GD_MPMAccelerations]
+    c09_norm
+    c09_close
+
+/-- `m_a · contrib(a, b) = −(m_b · contrib(b, a))`, component by component -/
+include hk in
+theorem pair_antisym_GD_MPMAccelerations (acc acc' : Out_GD_MPMAccelerations K) (a b : P K) :
+    a.m * ((pair_GD_MPMAccelerations o k self_beta acc a b).d_au - acc.d_au) = -(b.m * ((pair_GD_MPMAccelerations o k self_beta acc' b a).d_au - acc'.d_au)) ∧
+    a.m * ((pair_GD_MPMAccelerations o k self_beta acc a b).d_av - acc.d_av) = -(b.m * ((pair_GD_MPMAccelerations o k self_beta acc' b a).d_av - acc'.d_av)) ∧
+    a.m * ((pair_GD_MPMAccelerations o k self_beta acc a b).d_aw - acc.d_aw) = -(b.m * ((pair_GD_MPMAccelerations o k self_beta acc' b a).d_aw - acc'.d_aw)) := by
+  refine ⟨?_, ?_, ?_⟩ <;>
+  · simp only [pair_GD_MPMAccelerations]
+    c09_swap o k a b hk
+    c09_atoms o k a b
+    simp only [loop_GD_MPMAccelerations]
+    c09_norm
+    c09_close
+
+/-- the pair contribution is parallel to the separation `x_a − x_b` (cross product zero) -/
+include hk in
+theorem central_GD_MPMAccelerations (acc : Out_GD_MPMAccelerations K) (a b : P K) :
+    (a.x - b.x) * ((pair_GD_MPMAccelerations o k self_beta acc a b).d_av - acc.d_av) = (a.y - b.y) * ((pair_GD_MPMAccelerations o k self_beta acc a b).d_au - acc.d_au) ∧
+    (a.y - b.y) * ((pair_GD_MPMAccelerations o k self_beta acc a b).d_aw - acc.d_aw) = (a.z - b.z) * ((pair_GD_MPMAccelerations o k self_beta acc a b).d_av - acc.d_av) ∧
+    (a.z - b.z) * ((pair_GD_MPMAccelerations o k self_beta acc a b).d_au - acc.d_au) = (a.x - b.x) * ((pair_GD_MPMAccelerations o k self_beta acc a b).d_aw - acc.d_aw) := by
+  refine ⟨?_, ?_, ?_⟩ <;>
+  · simp only [pair_GD_MPMAccelerations]
+    c09_shape o k a b hk
+    c09_atoms o k a b
+    simp only [loop_GD_MPMAccelerations]
+    c09_norm
+    c09_close
+
+/-- closed system: evaluating the equation for every particle over a symmetric neighbour relation
+gives `Σ m a = 0` -/
+include hk in
+theorem linear_momentum_GD_MPMAccelerations {ι : Type} [Fintype ι] [DecidableEq ι] (p : ι → P K)
+    (nbrs : ι → List ι) (hnd : ∀ i, (nbrs i).Nodup) (hsymm : ∀ i j, j ∈ nbrs i → i ∈ nbrs j)
+    (init : ι → Out_GD_MPMAccelerations K) (hinit : ∀ i, (init i).d_au = 0 ∧ (init i).d_av = 0 ∧ (init i).d_aw = 0) :
+    ∑ i, (p i).m * ((nbrs i).foldl (fun acc j => pair_GD_MPMAccelerations o k self_beta acc (p i) (p j)) (init i)).d_au = 0 ∧
+    ∑ i, (p i).m * ((nbrs i).foldl (fun acc j => pair_GD_MPMAccelerations o k self_beta acc (p i) (p j)) (init i)).d_av = 0 ∧
+    ∑ i, (p i).m * ((nbrs i).foldl (fun acc j => pair_GD_MPMAccelerations o k self_beta acc (p i) (p j)) (init i)).d_aw = 0 := by
+  refine ⟨?_, ?_, ?_⟩
+  · exact linear_momentum_of_pair (fun i => (p i).m) nbrs hnd hsymm (fun i acc j => pair_GD_MPMAccelerations o k self_beta acc (p i) (p j))
+      (fun s => s.d_au) init (fun i => (hinit i).1)
+      (fun i j acc acc' => (additive_GD_MPMAccelerations o k self_beta acc acc' (p i) (p j)).1)
+      (fun i j acc acc' => (pair_antisym_GD_MPMAccelerations o k hk self_beta acc acc' (p i) (p j)).1)
+  · exact linear_momentum_of_pair (fun i => (p i).m) nbrs hnd hsymm (fun i acc j => pair_GD_MPMAccelerations o k self_beta acc (p i) (p j))
+      (fun s => s.d_av) init (fun i => (hinit i).2.1)
+      (fun i j acc acc' => (additive_GD_MPMAccelerations o k self_beta acc acc' (p i) (p j)).2.1)
+      (fun i j acc acc' => (pair_antisym_GD_MPMAccelerations o k hk self_beta acc acc' (p i) (p j)).2.1)
+  · exact linear_momentum_of_pair (fun i => (p i).m) nbrs hnd hsymm (fun i acc j => pair_GD_MPMAccelerations o k self_beta acc (p i) (p j))
+      (fun s => s.d_aw) init (fun i => (hinit i).2.2)
+      (fun i j acc acc' => (additive_GD_MPMAccelerations o k self_beta acc acc' (p i) (p j)).2.2)
+      (fun i j acc acc' => (pair_antisym_GD_MPMAccelerations o k hk self_beta acc acc' (p i) (p j)).2.2)
+
+/-- closed system: `Σ m x × a = 0` (three components) -/
+include hk in
+theorem angular_momentum_GD_MPMAccelerations {ι : Type} [Fintype ι] [DecidableEq ι] (p : ι → P K)
+    (nbrs : ι → List ι) (hnd : ∀ i, (nbrs i).Nodup) (hsymm : ∀ i j, j ∈ nbrs i → i ∈ nbrs j)
+    (init : ι → Out_GD_MPMAccelerations K) (hinit : ∀ i, (init i).d_au = 0 ∧ (init i).d_av = 0 ∧ (init i).d_aw = 0) :
+    (∑ i, (p i).m * ((p i).x * ((nbrs i).foldl (fun acc j => pair_GD_MPMAccelerations o k self_beta acc (p i) (p j)) (init i)).d_av - (p i).y * ((nbrs i).foldl (fun acc j => pair_GD_MPMAccelerations o k self_beta acc (p i) (p j)) (init i)).d_au) = 0) ∧
+    (∑ i, (p i).m * ((p i).y * ((nbrs i).foldl (fun acc j => pair_GD_MPMAccelerations o k self_beta acc (p i) (p j)) (init i)).d_aw - (p i).z * ((nbrs i).foldl (fun acc j => pair_GD_MPMAccelerations o k self_beta acc (p i) (p j)) (init i)).d_av) = 0) ∧
+    (∑ i, (p i).m * ((p i).z * ((nbrs i).foldl (fun acc j => pair_GD_MPMAccelerations o k self_beta acc (p i) (p j)) (init i)).d_au - (p i).x * ((nbrs i).foldl (fun acc j => pair_GD_MPMAccelerations o k self_beta acc (p i) (p j)) (init i)).d_aw) = 0) := by
+  refine ⟨?_, ?_, ?_⟩
+  · exact angular_momentum_of_pair (fun i => (p i).m) (fun i => (p i).x) (fun i => (p i).y) nbrs hnd hsymm
+      (fun i acc j => pair_GD_MPMAccelerations o k self_beta acc (p i) (p j)) (fun s => s.d_au) (fun s => s.d_av) init
+      (fun i => (hinit i).1) (fun i => (hinit i).2.1)
+      (fun i j acc acc' => (additive_GD_MPMAccelerations o k self_beta acc acc' (p i) (p j)).1)
+      (fun i j acc acc' => (additive_GD_MPMAccelerations o k self_beta acc acc' (p i) (p j)).2.1)
+      (fun i j acc acc' => (pair_antisym_GD_MPMAccelerations o k hk self_beta acc acc' (p i) (p j)).1)
+      (fun i j acc acc' => (pair_antisym_GD_MPMAccelerations o k hk self_beta acc acc' (p i) (p j)).2.1)
+      (fun i j acc => (central_GD_MPMAccelerations o k hk self_beta acc (p i) (p j)).1)
+  · exact angular_momentum_of_pair (fun i => (p i).m) (fun i => (p i).y) (fun i => (p i).z) nbrs hnd hsymm
+      (fun i acc j => pair_GD_MPMAccelerations o k self_beta acc (p i) (p j)) (fun s => s.d_av) (fun s => s.d_aw) init
+      (fun i => (hinit i).2.1) (fun i => (hinit i).2.2)
+      (fun i j acc acc' => (additive_GD_MPMAccelerations o k self_beta acc acc' (p i) (p j)).2.1)
+      (fun i j acc acc' => (additive_GD_MPMAccelerations o k self_beta acc acc' (p i) (p j)).2.2)
+      (fun i j acc acc' => (pair_antisym_GD_MPMAccelerations o k hk self_beta acc acc' (p i) (p j)).2.1)
+      (fun i j acc acc' => (pair_antisym_GD_MPMAccelerations o k hk self_beta acc acc' (p i) (p j)).2.2)
+      (fun i j acc => (central_GD_MPMAccelerations o k hk self_beta acc (p i) (p j)).2.1)
+  · exact angular_momentum_of_pair (fun i => (p i).m) (fun i => (p i).z) (fun i => (p i).x) nbrs hnd hsymm
+      (fun i acc j => pair_GD_MPMAccelerations o k self_beta acc (p i) (p j)) (fun s => s.d_aw) (fun s => s.d_au) init
+      (fun i => (hinit i).2.2) (fun i => (hinit i).1)
+      (fun i j acc acc' => (additive_GD_MPMAccelerations o k self_beta acc acc' (p i) (p j)).2.2)
+      (fun i j acc acc' => (additive_GD_MPMAccelerations o k self_beta acc acc' (p i) (p j)).1)
+      (fun i j acc acc' => (pair_antisym_GD_MPMAccelerations o k hk self_beta acc acc' (p i) (p j)).2.2)
+      (fun i j acc acc' => (pair_antisym_GD_MPMAccelerations o k hk self_beta acc acc' (p i) (p j)).1)
+      (fun i j acc => (central_GD_MPMAccelerations o k hk self_beta acc (p i) (p j)).2.2)
+
+end GD_MPMAccelerations
+
+/-! ## `pysph/sph/solid_mech/basic.py.MomentumEquationWithStress` (SM_MomentumEquationWithStress) -/
+section SM_MomentumEquationWithStress
+variable (o : Ops K) (k : Kern K) {w g : K → K → K} (hk : Radial k w g) 
+
+/-- the contribution of a pair to the accumulated acceleration does not depend on the accumulator -/
+theorem additive_SM_MomentumEquationWithStress (acc acc' : Out_SM_MomentumEquationWithStress K) (a b : P K) :
+    ((pair_SM_MomentumEquationWithStress o k  acc a b).d_au - acc.d_au) = ((pair_SM_MomentumEquationWithStress o k  acc' a b).d_au - acc'.d_au) ∧
+    ((pair_SM_MomentumEquationWithStress o k  acc a b).d_av - acc.d_av) = ((pair_SM_MomentumEquationWithStress o k  acc' a b).d_av - acc'.d_av) ∧
+    ((pair_SM_MomentumEquationWithStress o k  acc a b).d_aw - acc.d_aw) = ((pair_SM_MomentumEquationWithStress o k  acc' a b).d_aw - acc'.d_aw) := by
+  refine ⟨?_, ?_, ?_⟩ <;>
+  · simp only [pair_SM_MomentumEquationWithStress]
+    c09_atoms o k a b
+    simp only [loop_SM_MomentumEquationWithStress]
+    c09_norm
+    c09_close
+
+/-- `m_a · contrib(a, b) = −(m_b · contrib(b, a))`, component by component -/
+include hk in
+theorem pair_antisym_SM_MomentumEquationWithStress (acc acc' : Out_SM_MomentumEquationWithStress K) (a b : P K) :
+    a.m * ((pair_SM_MomentumEquationWithStress o k  acc a b).d_au - acc.d_au) = -(b.m * ((pair_SM_MomentumEquationWithStress o k  acc' b a).d_au - acc'.d_au)) ∧
+    a.m * ((pair_SM_MomentumEquationWithStress o k  acc a b).d_av - acc.d_av) = -(b.m * ((pair_SM_MomentumEquationWithStress o k  acc' b a).d_av - acc'.d_av)) ∧
+    a.m * ((pair_SM_MomentumEquationWithStress o k  acc a b).d_aw - acc.d_aw) = -(b.m * ((pair_SM_MomentumEquationWithStress o k  acc' b a).d_aw - acc'.d_aw)) := by
+  refine ⟨?_, ?_, ?_⟩ <;>
+  · simp only [pair_SM_MomentumEquationWithStress]
+    c09_swap o k a b hk
+    c09_atoms o k a b
+    simp only [loop_SM_MomentumEquationWithStress]
+    c09_norm
+    c09_close
+
+/-- closed system: evaluating the equation for every particle over a symmetric neighbour relation
+gives `Σ m a = 0` -/
+include hk in
+theorem linear_momentum_SM_MomentumEquationWithStress {ι : Type} [Fintype ι] [DecidableEq ι] (p : ι → P K)
+    (nbrs : ι → List ι) (hnd : ∀ i, (nbrs i).Nodup) (hsymm : ∀ i j, j ∈ nbrs i → i ∈ nbrs j)
+    (init : ι → Out_SM_MomentumEquationWithStress K) (hinit : ∀ i, (init i).d_au = 0 ∧ (init i).d_av = 0 ∧ (init i).d_aw = 0) :
+    ∑ i, (p i).m * ((nbrs i).foldl (fun acc j => pair_SM_MomentumEquationWithStress o k  acc (p i) (p j)) (init i)).d_au = 0 ∧
+    ∑ i, (p i).m * ((nbrs i).foldl (fun acc j => pair_SM_MomentumEquationWithStress o k  acc (p i) (p j)) (init i)).d_av = 0 ∧
+    ∑ i, (p i).m * ((nbrs i).foldl (fun acc j => pair_SM_MomentumEquationWithStress o k  acc (p i) (p j)) (init i)).d_aw = 0 := by
+  refine ⟨?_, ?_, ?_⟩
+  · exact linear_momentum_of_pair (fun i => (p i).m) nbrs hnd hsymm (fun i acc j => pair_SM_MomentumEquationWithStress o k  acc (p i) (p j))
+      (fun s => s.d_au) init (fun i => (hinit i).1)
+      (fun i j acc acc' => (additive_SM_MomentumEquationWithStress o k  acc acc' (p i) (p j)).1)
+      (fun i j acc acc' => (pair_antisym_SM_MomentumEquationWithStress o k hk  acc acc' (p i) (p j)).1)
+  · exact linear_momentum_of_pair (fun i => (p i).m) nbrs hnd hsymm (fun i acc j => pair_SM_MomentumEquationWithStress o k  acc (p i) (p j))
+      (fun s => s.d_av) init (fun i => (hinit i).2.1)
+      (fun i j acc acc' => (additive_SM_MomentumEquationWithStress o k  acc acc' (p i) (p j)).2.1)
+      (fun i j acc acc' => (pair_antisym_SM_MomentumEquationWithStress o k hk  acc acc' (p i) (p j)).2.1)
+  · exact linear_momentum_of_pair (fun i => (p i).m) nbrs hnd hsymm (fun i acc j => pair_SM_MomentumEquationWithStress o k  acc (p i) (p j))
+      (fun s => s.d_aw) init (fun i => (hinit i).2.2)
+      (fun i j acc acc' => (additive_SM_MomentumEquationWithStress o k  acc acc' (p i) (p j)).2.2)
+      (fun i j acc acc' => (pair_antisym_SM_MomentumEquationWithStress o k hk  acc acc' (p i) (p j)).2.2)
+
+end SM_MomentumEquationWithStress
+
+end PysphVerif.C09
